@@ -988,12 +988,12 @@ mod verif_c01_recursive_step_huge {
         kani::cover!(true, "c01_recursive_unmap_2mib_p4_absent_mid: reachable");
     }
 
-    //@ obligation C02 C02.recursive_unmap_2mib.shape_p4_absent.documented_outcome tier=thorough bounded="pool of 7 tables (4 path + 3 allocatable); tree-shaped sparse pre-state (target path, one neighbour word per path table, garbage in allocatable frames); recursive index 300; page-table indices (256,0,510,511)"
-    //@ obligation C02 C02.recursive_unmap_2mib.shape_p4_absent.error_leaves_every_mapping tier=thorough bounded="pool of 7 tables (4 path + 3 allocatable); tree-shaped sparse pre-state (target path, one neighbour word per path table, garbage in allocatable frames); recursive index 300; page-table indices (256,0,510,511)"
-    //@ obligation C09 C09.recursive_unmap_2mib.shape_p4_absent.only_dictated_slots_change tier=thorough bounded="pool of 7 tables (4 path + 3 allocatable); tree-shaped sparse pre-state (target path, one neighbour word per path table, garbage in allocatable frames); recursive index 300; page-table indices (256,0,510,511)"
-    //@ obligation C09 C09.recursive_unmap_2mib.shape_p4_absent.no_frames_requested_or_zeroed tier=thorough bounded="pool of 7 tables (4 path + 3 allocatable); tree-shaped sparse pre-state (target path, one neighbour word per path table, garbage in allocatable frames); recursive index 300; page-table indices (256,0,510,511)"
-    //@ obligation C09 C09.recursive_unmap_2mib.shape_p4_absent.no_dangling_table_pointer tier=thorough bounded="pool of 7 tables (4 path + 3 allocatable); tree-shaped sparse pre-state (target path, one neighbour word per path table, garbage in allocatable frames); recursive index 300; page-table indices (256,0,510,511)"
-    //@ obligation C09 C09.recursive_unmap_2mib.shape_p4_absent.no_access_outside_page_tables tier=thorough bounded="pool of 7 tables (4 path + 3 allocatable); tree-shaped sparse pre-state (target path, one neighbour word per path table, garbage in allocatable frames); recursive index 300; page-table indices (256,0,510,511)"
+    //@ obligation C02 C02.recursive_unmap_2mib.shape_p4_absent.documented_outcome bounded="pool of 7 tables (4 path + 3 allocatable); tree-shaped sparse pre-state (target path, one neighbour word per path table, garbage in allocatable frames); recursive index 300; page-table indices (256,0,510,511)"
+    //@ obligation C02 C02.recursive_unmap_2mib.shape_p4_absent.error_leaves_every_mapping bounded="pool of 7 tables (4 path + 3 allocatable); tree-shaped sparse pre-state (target path, one neighbour word per path table, garbage in allocatable frames); recursive index 300; page-table indices (256,0,510,511)"
+    //@ obligation C09 C09.recursive_unmap_2mib.shape_p4_absent.only_dictated_slots_change bounded="pool of 7 tables (4 path + 3 allocatable); tree-shaped sparse pre-state (target path, one neighbour word per path table, garbage in allocatable frames); recursive index 300; page-table indices (256,0,510,511)"
+    //@ obligation C09 C09.recursive_unmap_2mib.shape_p4_absent.no_frames_requested_or_zeroed bounded="pool of 7 tables (4 path + 3 allocatable); tree-shaped sparse pre-state (target path, one neighbour word per path table, garbage in allocatable frames); recursive index 300; page-table indices (256,0,510,511)"
+    //@ obligation C09 C09.recursive_unmap_2mib.shape_p4_absent.no_dangling_table_pointer bounded="pool of 7 tables (4 path + 3 allocatable); tree-shaped sparse pre-state (target path, one neighbour word per path table, garbage in allocatable frames); recursive index 300; page-table indices (256,0,510,511)"
+    //@ obligation C09 C09.recursive_unmap_2mib.shape_p4_absent.no_access_outside_page_tables bounded="pool of 7 tables (4 path + 3 allocatable); tree-shaped sparse pre-state (target path, one neighbour word per path table, garbage in allocatable frames); recursive index 300; page-table indices (256,0,510,511)"
     #[kani::proof]
     #[kani::stub(crate::structures::paging::page_table::PageTable::zero, zero_stub)]
     #[kani::stub(crate::addr::VirtAddr::as_mut_ptr, mmu_trap_as_mut_ptr)]
@@ -1002,13 +1002,13 @@ mod verif_c01_recursive_step_huge {
         kani::cover!(true, "c01_recursive_unmap_2mib_p4_absent_up: reachable");
     }
 
-    //@ obligation C02 C02.recursive_unmap_2mib.shape_p3_absent.documented_outcome tier=thorough bounded="pool of 7 tables (4 path + 3 allocatable); tree-shaped sparse pre-state (target path, one neighbour word per path table, garbage in allocatable frames); recursive index 300; page-table indices (255,511,0,256)"
-    //@ obligation C02 C02.recursive_unmap_2mib.shape_p3_absent.error_leaves_every_mapping tier=thorough bounded="pool of 7 tables (4 path + 3 allocatable); tree-shaped sparse pre-state (target path, one neighbour word per path table, garbage in allocatable frames); recursive index 300; page-table indices (255,511,0,256)"
-    //@ obligation C09 C09.recursive_unmap_2mib.shape_p3_absent.only_dictated_slots_change tier=thorough bounded="pool of 7 tables (4 path + 3 allocatable); tree-shaped sparse pre-state (target path, one neighbour word per path table, garbage in allocatable frames); recursive index 300; page-table indices (255,511,0,256)"
-    //@ obligation C09 C09.recursive_unmap_2mib.shape_p3_absent.no_frames_requested_or_zeroed tier=thorough bounded="pool of 7 tables (4 path + 3 allocatable); tree-shaped sparse pre-state (target path, one neighbour word per path table, garbage in allocatable frames); recursive index 300; page-table indices (255,511,0,256)"
-    //@ obligation C09 C09.recursive_unmap_2mib.shape_p3_absent.no_dangling_table_pointer tier=thorough bounded="pool of 7 tables (4 path + 3 allocatable); tree-shaped sparse pre-state (target path, one neighbour word per path table, garbage in allocatable frames); recursive index 300; page-table indices (255,511,0,256)"
-    //@ obligation C09 C09.recursive_unmap_2mib.shape_p3_absent.no_access_outside_page_tables tier=thorough bounded="pool of 7 tables (4 path + 3 allocatable); tree-shaped sparse pre-state (target path, one neighbour word per path table, garbage in allocatable frames); recursive index 300; page-table indices (255,511,0,256)"
-    //@ obligation C20 C20.recursive_unmap_2mib.uses_recursive_addresses_of_the_page tier=thorough bounded="pool of 7 tables (4 path + 3 allocatable); tree-shaped sparse pre-state (target path, one neighbour word per path table, garbage in allocatable frames); recursive index 300; page-table indices (255,511,0,256)"
+    //@ obligation C02 C02.recursive_unmap_2mib.shape_p3_absent.documented_outcome bounded="pool of 7 tables (4 path + 3 allocatable); tree-shaped sparse pre-state (target path, one neighbour word per path table, garbage in allocatable frames); recursive index 300; page-table indices (255,511,0,256)"
+    //@ obligation C02 C02.recursive_unmap_2mib.shape_p3_absent.error_leaves_every_mapping bounded="pool of 7 tables (4 path + 3 allocatable); tree-shaped sparse pre-state (target path, one neighbour word per path table, garbage in allocatable frames); recursive index 300; page-table indices (255,511,0,256)"
+    //@ obligation C09 C09.recursive_unmap_2mib.shape_p3_absent.only_dictated_slots_change bounded="pool of 7 tables (4 path + 3 allocatable); tree-shaped sparse pre-state (target path, one neighbour word per path table, garbage in allocatable frames); recursive index 300; page-table indices (255,511,0,256)"
+    //@ obligation C09 C09.recursive_unmap_2mib.shape_p3_absent.no_frames_requested_or_zeroed bounded="pool of 7 tables (4 path + 3 allocatable); tree-shaped sparse pre-state (target path, one neighbour word per path table, garbage in allocatable frames); recursive index 300; page-table indices (255,511,0,256)"
+    //@ obligation C09 C09.recursive_unmap_2mib.shape_p3_absent.no_dangling_table_pointer bounded="pool of 7 tables (4 path + 3 allocatable); tree-shaped sparse pre-state (target path, one neighbour word per path table, garbage in allocatable frames); recursive index 300; page-table indices (255,511,0,256)"
+    //@ obligation C09 C09.recursive_unmap_2mib.shape_p3_absent.no_access_outside_page_tables bounded="pool of 7 tables (4 path + 3 allocatable); tree-shaped sparse pre-state (target path, one neighbour word per path table, garbage in allocatable frames); recursive index 300; page-table indices (255,511,0,256)"
+    //@ obligation C20 C20.recursive_unmap_2mib.uses_recursive_addresses_of_the_page bounded="pool of 7 tables (4 path + 3 allocatable); tree-shaped sparse pre-state (target path, one neighbour word per path table, garbage in allocatable frames); recursive index 300; page-table indices (255,511,0,256)"
     #[kani::proof]
     #[kani::stub(crate::structures::paging::page_table::PageTable::zero, zero_stub)]
     #[kani::stub(crate::addr::VirtAddr::as_mut_ptr, mmu_trap_as_mut_ptr)]
@@ -1064,13 +1064,13 @@ mod verif_c01_recursive_step_huge {
         kani::cover!(true, "c01_recursive_unmap_2mib_p3_huge_up: reachable");
     }
 
-    //@ obligation C02 C02.recursive_unmap_2mib.shape_p2_absent.documented_outcome tier=thorough bounded="pool of 7 tables (4 path + 3 allocatable); tree-shaped sparse pre-state (target path, one neighbour word per path table, garbage in allocatable frames); recursive index 300; page-table indices (255,511,0,256)"
-    //@ obligation C02 C02.recursive_unmap_2mib.shape_p2_absent.error_leaves_every_mapping tier=thorough bounded="pool of 7 tables (4 path + 3 allocatable); tree-shaped sparse pre-state (target path, one neighbour word per path table, garbage in allocatable frames); recursive index 300; page-table indices (255,511,0,256)"
-    //@ obligation C09 C09.recursive_unmap_2mib.shape_p2_absent.only_dictated_slots_change tier=thorough bounded="pool of 7 tables (4 path + 3 allocatable); tree-shaped sparse pre-state (target path, one neighbour word per path table, garbage in allocatable frames); recursive index 300; page-table indices (255,511,0,256)"
-    //@ obligation C09 C09.recursive_unmap_2mib.shape_p2_absent.no_frames_requested_or_zeroed tier=thorough bounded="pool of 7 tables (4 path + 3 allocatable); tree-shaped sparse pre-state (target path, one neighbour word per path table, garbage in allocatable frames); recursive index 300; page-table indices (255,511,0,256)"
-    //@ obligation C09 C09.recursive_unmap_2mib.shape_p2_absent.no_dangling_table_pointer tier=thorough bounded="pool of 7 tables (4 path + 3 allocatable); tree-shaped sparse pre-state (target path, one neighbour word per path table, garbage in allocatable frames); recursive index 300; page-table indices (255,511,0,256)"
-    //@ obligation C09 C09.recursive_unmap_2mib.shape_p2_absent.no_access_outside_page_tables tier=thorough bounded="pool of 7 tables (4 path + 3 allocatable); tree-shaped sparse pre-state (target path, one neighbour word per path table, garbage in allocatable frames); recursive index 300; page-table indices (255,511,0,256)"
-    //@ obligation C20 C20.recursive_unmap_2mib.uses_recursive_addresses_of_the_page tier=thorough bounded="pool of 7 tables (4 path + 3 allocatable); tree-shaped sparse pre-state (target path, one neighbour word per path table, garbage in allocatable frames); recursive index 300; page-table indices (255,511,0,256)"
+    //@ obligation C02 C02.recursive_unmap_2mib.shape_p2_absent.documented_outcome bounded="pool of 7 tables (4 path + 3 allocatable); tree-shaped sparse pre-state (target path, one neighbour word per path table, garbage in allocatable frames); recursive index 300; page-table indices (255,511,0,256)"
+    //@ obligation C02 C02.recursive_unmap_2mib.shape_p2_absent.error_leaves_every_mapping bounded="pool of 7 tables (4 path + 3 allocatable); tree-shaped sparse pre-state (target path, one neighbour word per path table, garbage in allocatable frames); recursive index 300; page-table indices (255,511,0,256)"
+    //@ obligation C09 C09.recursive_unmap_2mib.shape_p2_absent.only_dictated_slots_change bounded="pool of 7 tables (4 path + 3 allocatable); tree-shaped sparse pre-state (target path, one neighbour word per path table, garbage in allocatable frames); recursive index 300; page-table indices (255,511,0,256)"
+    //@ obligation C09 C09.recursive_unmap_2mib.shape_p2_absent.no_frames_requested_or_zeroed bounded="pool of 7 tables (4 path + 3 allocatable); tree-shaped sparse pre-state (target path, one neighbour word per path table, garbage in allocatable frames); recursive index 300; page-table indices (255,511,0,256)"
+    //@ obligation C09 C09.recursive_unmap_2mib.shape_p2_absent.no_dangling_table_pointer bounded="pool of 7 tables (4 path + 3 allocatable); tree-shaped sparse pre-state (target path, one neighbour word per path table, garbage in allocatable frames); recursive index 300; page-table indices (255,511,0,256)"
+    //@ obligation C09 C09.recursive_unmap_2mib.shape_p2_absent.no_access_outside_page_tables bounded="pool of 7 tables (4 path + 3 allocatable); tree-shaped sparse pre-state (target path, one neighbour word per path table, garbage in allocatable frames); recursive index 300; page-table indices (255,511,0,256)"
+    //@ obligation C20 C20.recursive_unmap_2mib.uses_recursive_addresses_of_the_page bounded="pool of 7 tables (4 path + 3 allocatable); tree-shaped sparse pre-state (target path, one neighbour word per path table, garbage in allocatable frames); recursive index 300; page-table indices (255,511,0,256)"
     #[kani::proof]
     #[kani::stub(crate::structures::paging::page_table::PageTable::zero, zero_stub)]
     #[kani::stub(crate::addr::VirtAddr::as_mut_ptr, mmu_trap_as_mut_ptr)]
@@ -1148,14 +1148,14 @@ mod verif_c01_recursive_step_huge {
         kani::cover!(true, "c01_recursive_unmap_2mib_table_entry_mid: reachable");
     }
 
-    //@ obligation C02 C02.recursive_unmap_2mib.shape_table_entry.no_success_for_nonexistent_size tier=thorough bounded="pool of 7 tables (4 path + 3 allocatable); tree-shaped sparse pre-state (target path, one neighbour word per path table, garbage in allocatable frames); recursive index 300; page-table indices (256,0,510,511)"
-    //@ obligation C02 C02.recursive_unmap_2mib.shape_table_entry.documented_outcome tier=thorough bounded="pool of 7 tables (4 path + 3 allocatable); tree-shaped sparse pre-state (target path, one neighbour word per path table, garbage in allocatable frames); recursive index 300; page-table indices (256,0,510,511)"
-    //@ obligation C02 C02.recursive_unmap_2mib.shape_table_entry.error_leaves_every_mapping tier=thorough bounded="pool of 7 tables (4 path + 3 allocatable); tree-shaped sparse pre-state (target path, one neighbour word per path table, garbage in allocatable frames); recursive index 300; page-table indices (256,0,510,511)"
-    //@ obligation C09 C09.recursive_unmap_2mib.shape_table_entry.only_dictated_slots_change tier=thorough bounded="pool of 7 tables (4 path + 3 allocatable); tree-shaped sparse pre-state (target path, one neighbour word per path table, garbage in allocatable frames); recursive index 300; page-table indices (256,0,510,511)"
-    //@ obligation C09 C09.recursive_unmap_2mib.shape_table_entry.no_frames_requested_or_zeroed tier=thorough bounded="pool of 7 tables (4 path + 3 allocatable); tree-shaped sparse pre-state (target path, one neighbour word per path table, garbage in allocatable frames); recursive index 300; page-table indices (256,0,510,511)"
-    //@ obligation C09 C09.recursive_unmap_2mib.shape_table_entry.no_dangling_table_pointer tier=thorough bounded="pool of 7 tables (4 path + 3 allocatable); tree-shaped sparse pre-state (target path, one neighbour word per path table, garbage in allocatable frames); recursive index 300; page-table indices (256,0,510,511)"
-    //@ obligation C09 C09.recursive_unmap_2mib.shape_table_entry.no_access_outside_page_tables tier=thorough bounded="pool of 7 tables (4 path + 3 allocatable); tree-shaped sparse pre-state (target path, one neighbour word per path table, garbage in allocatable frames); recursive index 300; page-table indices (256,0,510,511)"
-    //@ obligation C20 C20.recursive_unmap_2mib.uses_recursive_addresses_of_the_page tier=thorough bounded="pool of 7 tables (4 path + 3 allocatable); tree-shaped sparse pre-state (target path, one neighbour word per path table, garbage in allocatable frames); recursive index 300; page-table indices (256,0,510,511)"
+    //@ obligation C02 C02.recursive_unmap_2mib.shape_table_entry.no_success_for_nonexistent_size bounded="pool of 7 tables (4 path + 3 allocatable); tree-shaped sparse pre-state (target path, one neighbour word per path table, garbage in allocatable frames); recursive index 300; page-table indices (256,0,510,511)"
+    //@ obligation C02 C02.recursive_unmap_2mib.shape_table_entry.documented_outcome bounded="pool of 7 tables (4 path + 3 allocatable); tree-shaped sparse pre-state (target path, one neighbour word per path table, garbage in allocatable frames); recursive index 300; page-table indices (256,0,510,511)"
+    //@ obligation C02 C02.recursive_unmap_2mib.shape_table_entry.error_leaves_every_mapping bounded="pool of 7 tables (4 path + 3 allocatable); tree-shaped sparse pre-state (target path, one neighbour word per path table, garbage in allocatable frames); recursive index 300; page-table indices (256,0,510,511)"
+    //@ obligation C09 C09.recursive_unmap_2mib.shape_table_entry.only_dictated_slots_change bounded="pool of 7 tables (4 path + 3 allocatable); tree-shaped sparse pre-state (target path, one neighbour word per path table, garbage in allocatable frames); recursive index 300; page-table indices (256,0,510,511)"
+    //@ obligation C09 C09.recursive_unmap_2mib.shape_table_entry.no_frames_requested_or_zeroed bounded="pool of 7 tables (4 path + 3 allocatable); tree-shaped sparse pre-state (target path, one neighbour word per path table, garbage in allocatable frames); recursive index 300; page-table indices (256,0,510,511)"
+    //@ obligation C09 C09.recursive_unmap_2mib.shape_table_entry.no_dangling_table_pointer bounded="pool of 7 tables (4 path + 3 allocatable); tree-shaped sparse pre-state (target path, one neighbour word per path table, garbage in allocatable frames); recursive index 300; page-table indices (256,0,510,511)"
+    //@ obligation C09 C09.recursive_unmap_2mib.shape_table_entry.no_access_outside_page_tables bounded="pool of 7 tables (4 path + 3 allocatable); tree-shaped sparse pre-state (target path, one neighbour word per path table, garbage in allocatable frames); recursive index 300; page-table indices (256,0,510,511)"
+    //@ obligation C20 C20.recursive_unmap_2mib.uses_recursive_addresses_of_the_page bounded="pool of 7 tables (4 path + 3 allocatable); tree-shaped sparse pre-state (target path, one neighbour word per path table, garbage in allocatable frames); recursive index 300; page-table indices (256,0,510,511)"
     #[kani::proof]
     #[kani::stub(crate::structures::paging::page_table::PageTable::zero, zero_stub)]
     #[kani::stub(crate::addr::VirtAddr::as_mut_ptr, mmu_trap_as_mut_ptr)]
@@ -1184,18 +1184,18 @@ mod verif_c01_recursive_step_huge {
         kani::cover!(true, "c01_recursive_unmap_2mib_sym_mid: reachable");
     }
 
-    //@ obligation C02 C02.recursive_unmap_2mib.shape_sym.documented_outcome tier=thorough bounded="pool of 7 tables (4 path + 3 allocatable); tree-shaped sparse pre-state (target path, one neighbour word per path table, garbage in allocatable frames); recursive index 300; page-table indices (256,0,510,511)"
-    //@ obligation C01 C01.recursive_unmap_2mib.shape_sym.returns_mapped_frame tier=thorough bounded="pool of 7 tables (4 path + 3 allocatable); tree-shaped sparse pre-state (target path, one neighbour word per path table, garbage in allocatable frames); recursive index 300; page-table indices (256,0,510,511)"
-    //@ obligation C01 C01.recursive_unmap_2mib.shape_sym.target_not_mapped_after tier=thorough bounded="pool of 7 tables (4 path + 3 allocatable); tree-shaped sparse pre-state (target path, one neighbour word per path table, garbage in allocatable frames); recursive index 300; page-table indices (256,0,510,511)"
-    //@ obligation C01 C01.recursive_unmap_2mib.shape_sym.other_addresses_unchanged tier=thorough bounded="pool of 7 tables (4 path + 3 allocatable); tree-shaped sparse pre-state (target path, one neighbour word per path table, garbage in allocatable frames); recursive index 300; page-table indices (256,0,510,511)"
-    //@ obligation C01 C01.recursive_unmap_2mib.shape_sym.result_reports_page tier=thorough bounded="pool of 7 tables (4 path + 3 allocatable); tree-shaped sparse pre-state (target path, one neighbour word per path table, garbage in allocatable frames); recursive index 300; page-table indices (256,0,510,511)"
-    //@ obligation C11 C11.recursive_unmap_2mib.shape_sym.token_names_page tier=thorough bounded="pool of 7 tables (4 path + 3 allocatable); tree-shaped sparse pre-state (target path, one neighbour word per path table, garbage in allocatable frames); recursive index 300; page-table indices (256,0,510,511)"
-    //@ obligation C02 C02.recursive_unmap_2mib.shape_sym.error_leaves_every_mapping tier=thorough bounded="pool of 7 tables (4 path + 3 allocatable); tree-shaped sparse pre-state (target path, one neighbour word per path table, garbage in allocatable frames); recursive index 300; page-table indices (256,0,510,511)"
-    //@ obligation C09 C09.recursive_unmap_2mib.shape_sym.only_dictated_slots_change tier=thorough bounded="pool of 7 tables (4 path + 3 allocatable); tree-shaped sparse pre-state (target path, one neighbour word per path table, garbage in allocatable frames); recursive index 300; page-table indices (256,0,510,511)"
-    //@ obligation C09 C09.recursive_unmap_2mib.shape_sym.no_frames_requested_or_zeroed tier=thorough bounded="pool of 7 tables (4 path + 3 allocatable); tree-shaped sparse pre-state (target path, one neighbour word per path table, garbage in allocatable frames); recursive index 300; page-table indices (256,0,510,511)"
-    //@ obligation C09 C09.recursive_unmap_2mib.shape_sym.no_dangling_table_pointer tier=thorough bounded="pool of 7 tables (4 path + 3 allocatable); tree-shaped sparse pre-state (target path, one neighbour word per path table, garbage in allocatable frames); recursive index 300; page-table indices (256,0,510,511)"
-    //@ obligation C09 C09.recursive_unmap_2mib.shape_sym.no_access_outside_page_tables tier=thorough bounded="pool of 7 tables (4 path + 3 allocatable); tree-shaped sparse pre-state (target path, one neighbour word per path table, garbage in allocatable frames); recursive index 300; page-table indices (256,0,510,511)"
-    //@ obligation C20 C20.recursive_unmap_2mib.uses_recursive_addresses_of_the_page tier=thorough bounded="pool of 7 tables (4 path + 3 allocatable); tree-shaped sparse pre-state (target path, one neighbour word per path table, garbage in allocatable frames); recursive index 300; page-table indices (256,0,510,511)"
+    //@ obligation C02 C02.recursive_unmap_2mib.shape_sym.documented_outcome bounded="pool of 7 tables (4 path + 3 allocatable); tree-shaped sparse pre-state (target path, one neighbour word per path table, garbage in allocatable frames); recursive index 300; page-table indices (256,0,510,511)"
+    //@ obligation C01 C01.recursive_unmap_2mib.shape_sym.returns_mapped_frame bounded="pool of 7 tables (4 path + 3 allocatable); tree-shaped sparse pre-state (target path, one neighbour word per path table, garbage in allocatable frames); recursive index 300; page-table indices (256,0,510,511)"
+    //@ obligation C01 C01.recursive_unmap_2mib.shape_sym.target_not_mapped_after bounded="pool of 7 tables (4 path + 3 allocatable); tree-shaped sparse pre-state (target path, one neighbour word per path table, garbage in allocatable frames); recursive index 300; page-table indices (256,0,510,511)"
+    //@ obligation C01 C01.recursive_unmap_2mib.shape_sym.other_addresses_unchanged bounded="pool of 7 tables (4 path + 3 allocatable); tree-shaped sparse pre-state (target path, one neighbour word per path table, garbage in allocatable frames); recursive index 300; page-table indices (256,0,510,511)"
+    //@ obligation C01 C01.recursive_unmap_2mib.shape_sym.result_reports_page bounded="pool of 7 tables (4 path + 3 allocatable); tree-shaped sparse pre-state (target path, one neighbour word per path table, garbage in allocatable frames); recursive index 300; page-table indices (256,0,510,511)"
+    //@ obligation C11 C11.recursive_unmap_2mib.shape_sym.token_names_page bounded="pool of 7 tables (4 path + 3 allocatable); tree-shaped sparse pre-state (target path, one neighbour word per path table, garbage in allocatable frames); recursive index 300; page-table indices (256,0,510,511)"
+    //@ obligation C02 C02.recursive_unmap_2mib.shape_sym.error_leaves_every_mapping bounded="pool of 7 tables (4 path + 3 allocatable); tree-shaped sparse pre-state (target path, one neighbour word per path table, garbage in allocatable frames); recursive index 300; page-table indices (256,0,510,511)"
+    //@ obligation C09 C09.recursive_unmap_2mib.shape_sym.only_dictated_slots_change bounded="pool of 7 tables (4 path + 3 allocatable); tree-shaped sparse pre-state (target path, one neighbour word per path table, garbage in allocatable frames); recursive index 300; page-table indices (256,0,510,511)"
+    //@ obligation C09 C09.recursive_unmap_2mib.shape_sym.no_frames_requested_or_zeroed bounded="pool of 7 tables (4 path + 3 allocatable); tree-shaped sparse pre-state (target path, one neighbour word per path table, garbage in allocatable frames); recursive index 300; page-table indices (256,0,510,511)"
+    //@ obligation C09 C09.recursive_unmap_2mib.shape_sym.no_dangling_table_pointer bounded="pool of 7 tables (4 path + 3 allocatable); tree-shaped sparse pre-state (target path, one neighbour word per path table, garbage in allocatable frames); recursive index 300; page-table indices (256,0,510,511)"
+    //@ obligation C09 C09.recursive_unmap_2mib.shape_sym.no_access_outside_page_tables bounded="pool of 7 tables (4 path + 3 allocatable); tree-shaped sparse pre-state (target path, one neighbour word per path table, garbage in allocatable frames); recursive index 300; page-table indices (256,0,510,511)"
+    //@ obligation C20 C20.recursive_unmap_2mib.uses_recursive_addresses_of_the_page bounded="pool of 7 tables (4 path + 3 allocatable); tree-shaped sparse pre-state (target path, one neighbour word per path table, garbage in allocatable frames); recursive index 300; page-table indices (256,0,510,511)"
     #[kani::proof]
     #[kani::stub(crate::structures::paging::page_table::PageTable::zero, zero_stub)]
     #[kani::stub(crate::addr::VirtAddr::as_mut_ptr, mmu_trap_as_mut_ptr)]
@@ -1218,12 +1218,12 @@ mod verif_c01_recursive_step_huge {
         kani::cover!(true, "c01_recursive_unmap_1gib_p4_absent_mid: reachable");
     }
 
-    //@ obligation C02 C02.recursive_unmap_1gib.shape_p4_absent.documented_outcome tier=thorough bounded="pool of 7 tables (4 path + 3 allocatable); tree-shaped sparse pre-state (target path, one neighbour word per path table, garbage in allocatable frames); recursive index 300; page-table indices (256,0,510,511)"
-    //@ obligation C02 C02.recursive_unmap_1gib.shape_p4_absent.error_leaves_every_mapping tier=thorough bounded="pool of 7 tables (4 path + 3 allocatable); tree-shaped sparse pre-state (target path, one neighbour word per path table, garbage in allocatable frames); recursive index 300; page-table indices (256,0,510,511)"
-    //@ obligation C09 C09.recursive_unmap_1gib.shape_p4_absent.only_dictated_slots_change tier=thorough bounded="pool of 7 tables (4 path + 3 allocatable); tree-shaped sparse pre-state (target path, one neighbour word per path table, garbage in allocatable frames); recursive index 300; page-table indices (256,0,510,511)"
-    //@ obligation C09 C09.recursive_unmap_1gib.shape_p4_absent.no_frames_requested_or_zeroed tier=thorough bounded="pool of 7 tables (4 path + 3 allocatable); tree-shaped sparse pre-state (target path, one neighbour word per path table, garbage in allocatable frames); recursive index 300; page-table indices (256,0,510,511)"
-    //@ obligation C09 C09.recursive_unmap_1gib.shape_p4_absent.no_dangling_table_pointer tier=thorough bounded="pool of 7 tables (4 path + 3 allocatable); tree-shaped sparse pre-state (target path, one neighbour word per path table, garbage in allocatable frames); recursive index 300; page-table indices (256,0,510,511)"
-    //@ obligation C09 C09.recursive_unmap_1gib.shape_p4_absent.no_access_outside_page_tables tier=thorough bounded="pool of 7 tables (4 path + 3 allocatable); tree-shaped sparse pre-state (target path, one neighbour word per path table, garbage in allocatable frames); recursive index 300; page-table indices (256,0,510,511)"
+    //@ obligation C02 C02.recursive_unmap_1gib.shape_p4_absent.documented_outcome bounded="pool of 7 tables (4 path + 3 allocatable); tree-shaped sparse pre-state (target path, one neighbour word per path table, garbage in allocatable frames); recursive index 300; page-table indices (256,0,510,511)"
+    //@ obligation C02 C02.recursive_unmap_1gib.shape_p4_absent.error_leaves_every_mapping bounded="pool of 7 tables (4 path + 3 allocatable); tree-shaped sparse pre-state (target path, one neighbour word per path table, garbage in allocatable frames); recursive index 300; page-table indices (256,0,510,511)"
+    //@ obligation C09 C09.recursive_unmap_1gib.shape_p4_absent.only_dictated_slots_change bounded="pool of 7 tables (4 path + 3 allocatable); tree-shaped sparse pre-state (target path, one neighbour word per path table, garbage in allocatable frames); recursive index 300; page-table indices (256,0,510,511)"
+    //@ obligation C09 C09.recursive_unmap_1gib.shape_p4_absent.no_frames_requested_or_zeroed bounded="pool of 7 tables (4 path + 3 allocatable); tree-shaped sparse pre-state (target path, one neighbour word per path table, garbage in allocatable frames); recursive index 300; page-table indices (256,0,510,511)"
+    //@ obligation C09 C09.recursive_unmap_1gib.shape_p4_absent.no_dangling_table_pointer bounded="pool of 7 tables (4 path + 3 allocatable); tree-shaped sparse pre-state (target path, one neighbour word per path table, garbage in allocatable frames); recursive index 300; page-table indices (256,0,510,511)"
+    //@ obligation C09 C09.recursive_unmap_1gib.shape_p4_absent.no_access_outside_page_tables bounded="pool of 7 tables (4 path + 3 allocatable); tree-shaped sparse pre-state (target path, one neighbour word per path table, garbage in allocatable frames); recursive index 300; page-table indices (256,0,510,511)"
     #[kani::proof]
     #[kani::stub(crate::structures::paging::page_table::PageTable::zero, zero_stub)]
     #[kani::stub(crate::addr::VirtAddr::as_mut_ptr, mmu_trap_as_mut_ptr)]
@@ -1232,13 +1232,13 @@ mod verif_c01_recursive_step_huge {
         kani::cover!(true, "c01_recursive_unmap_1gib_p4_absent_up: reachable");
     }
 
-    //@ obligation C02 C02.recursive_unmap_1gib.shape_p3_absent.documented_outcome tier=thorough bounded="pool of 7 tables (4 path + 3 allocatable); tree-shaped sparse pre-state (target path, one neighbour word per path table, garbage in allocatable frames); recursive index 300; page-table indices (255,511,0,256)"
-    //@ obligation C02 C02.recursive_unmap_1gib.shape_p3_absent.error_leaves_every_mapping tier=thorough bounded="pool of 7 tables (4 path + 3 allocatable); tree-shaped sparse pre-state (target path, one neighbour word per path table, garbage in allocatable frames); recursive index 300; page-table indices (255,511,0,256)"
-    //@ obligation C09 C09.recursive_unmap_1gib.shape_p3_absent.only_dictated_slots_change tier=thorough bounded="pool of 7 tables (4 path + 3 allocatable); tree-shaped sparse pre-state (target path, one neighbour word per path table, garbage in allocatable frames); recursive index 300; page-table indices (255,511,0,256)"
-    //@ obligation C09 C09.recursive_unmap_1gib.shape_p3_absent.no_frames_requested_or_zeroed tier=thorough bounded="pool of 7 tables (4 path + 3 allocatable); tree-shaped sparse pre-state (target path, one neighbour word per path table, garbage in allocatable frames); recursive index 300; page-table indices (255,511,0,256)"
-    //@ obligation C09 C09.recursive_unmap_1gib.shape_p3_absent.no_dangling_table_pointer tier=thorough bounded="pool of 7 tables (4 path + 3 allocatable); tree-shaped sparse pre-state (target path, one neighbour word per path table, garbage in allocatable frames); recursive index 300; page-table indices (255,511,0,256)"
-    //@ obligation C09 C09.recursive_unmap_1gib.shape_p3_absent.no_access_outside_page_tables tier=thorough bounded="pool of 7 tables (4 path + 3 allocatable); tree-shaped sparse pre-state (target path, one neighbour word per path table, garbage in allocatable frames); recursive index 300; page-table indices (255,511,0,256)"
-    //@ obligation C20 C20.recursive_unmap_1gib.uses_recursive_addresses_of_the_page tier=thorough bounded="pool of 7 tables (4 path + 3 allocatable); tree-shaped sparse pre-state (target path, one neighbour word per path table, garbage in allocatable frames); recursive index 300; page-table indices (255,511,0,256)"
+    //@ obligation C02 C02.recursive_unmap_1gib.shape_p3_absent.documented_outcome bounded="pool of 7 tables (4 path + 3 allocatable); tree-shaped sparse pre-state (target path, one neighbour word per path table, garbage in allocatable frames); recursive index 300; page-table indices (255,511,0,256)"
+    //@ obligation C02 C02.recursive_unmap_1gib.shape_p3_absent.error_leaves_every_mapping bounded="pool of 7 tables (4 path + 3 allocatable); tree-shaped sparse pre-state (target path, one neighbour word per path table, garbage in allocatable frames); recursive index 300; page-table indices (255,511,0,256)"
+    //@ obligation C09 C09.recursive_unmap_1gib.shape_p3_absent.only_dictated_slots_change bounded="pool of 7 tables (4 path + 3 allocatable); tree-shaped sparse pre-state (target path, one neighbour word per path table, garbage in allocatable frames); recursive index 300; page-table indices (255,511,0,256)"
+    //@ obligation C09 C09.recursive_unmap_1gib.shape_p3_absent.no_frames_requested_or_zeroed bounded="pool of 7 tables (4 path + 3 allocatable); tree-shaped sparse pre-state (target path, one neighbour word per path table, garbage in allocatable frames); recursive index 300; page-table indices (255,511,0,256)"
+    //@ obligation C09 C09.recursive_unmap_1gib.shape_p3_absent.no_dangling_table_pointer bounded="pool of 7 tables (4 path + 3 allocatable); tree-shaped sparse pre-state (target path, one neighbour word per path table, garbage in allocatable frames); recursive index 300; page-table indices (255,511,0,256)"
+    //@ obligation C09 C09.recursive_unmap_1gib.shape_p3_absent.no_access_outside_page_tables bounded="pool of 7 tables (4 path + 3 allocatable); tree-shaped sparse pre-state (target path, one neighbour word per path table, garbage in allocatable frames); recursive index 300; page-table indices (255,511,0,256)"
+    //@ obligation C20 C20.recursive_unmap_1gib.uses_recursive_addresses_of_the_page bounded="pool of 7 tables (4 path + 3 allocatable); tree-shaped sparse pre-state (target path, one neighbour word per path table, garbage in allocatable frames); recursive index 300; page-table indices (255,511,0,256)"
     #[kani::proof]
     #[kani::stub(crate::structures::paging::page_table::PageTable::zero, zero_stub)]
     #[kani::stub(crate::addr::VirtAddr::as_mut_ptr, mmu_trap_as_mut_ptr)]
@@ -1316,14 +1316,14 @@ mod verif_c01_recursive_step_huge {
         kani::cover!(true, "c01_recursive_unmap_1gib_table_entry_mid: reachable");
     }
 
-    //@ obligation C02 C02.recursive_unmap_1gib.shape_table_entry.no_success_for_nonexistent_size tier=thorough bounded="pool of 7 tables (4 path + 3 allocatable); tree-shaped sparse pre-state (target path, one neighbour word per path table, garbage in allocatable frames); recursive index 300; page-table indices (256,0,510,511)"
-    //@ obligation C02 C02.recursive_unmap_1gib.shape_table_entry.documented_outcome tier=thorough bounded="pool of 7 tables (4 path + 3 allocatable); tree-shaped sparse pre-state (target path, one neighbour word per path table, garbage in allocatable frames); recursive index 300; page-table indices (256,0,510,511)"
-    //@ obligation C02 C02.recursive_unmap_1gib.shape_table_entry.error_leaves_every_mapping tier=thorough bounded="pool of 7 tables (4 path + 3 allocatable); tree-shaped sparse pre-state (target path, one neighbour word per path table, garbage in allocatable frames); recursive index 300; page-table indices (256,0,510,511)"
-    //@ obligation C09 C09.recursive_unmap_1gib.shape_table_entry.only_dictated_slots_change tier=thorough bounded="pool of 7 tables (4 path + 3 allocatable); tree-shaped sparse pre-state (target path, one neighbour word per path table, garbage in allocatable frames); recursive index 300; page-table indices (256,0,510,511)"
-    //@ obligation C09 C09.recursive_unmap_1gib.shape_table_entry.no_frames_requested_or_zeroed tier=thorough bounded="pool of 7 tables (4 path + 3 allocatable); tree-shaped sparse pre-state (target path, one neighbour word per path table, garbage in allocatable frames); recursive index 300; page-table indices (256,0,510,511)"
-    //@ obligation C09 C09.recursive_unmap_1gib.shape_table_entry.no_dangling_table_pointer tier=thorough bounded="pool of 7 tables (4 path + 3 allocatable); tree-shaped sparse pre-state (target path, one neighbour word per path table, garbage in allocatable frames); recursive index 300; page-table indices (256,0,510,511)"
-    //@ obligation C09 C09.recursive_unmap_1gib.shape_table_entry.no_access_outside_page_tables tier=thorough bounded="pool of 7 tables (4 path + 3 allocatable); tree-shaped sparse pre-state (target path, one neighbour word per path table, garbage in allocatable frames); recursive index 300; page-table indices (256,0,510,511)"
-    //@ obligation C20 C20.recursive_unmap_1gib.uses_recursive_addresses_of_the_page tier=thorough bounded="pool of 7 tables (4 path + 3 allocatable); tree-shaped sparse pre-state (target path, one neighbour word per path table, garbage in allocatable frames); recursive index 300; page-table indices (256,0,510,511)"
+    //@ obligation C02 C02.recursive_unmap_1gib.shape_table_entry.no_success_for_nonexistent_size bounded="pool of 7 tables (4 path + 3 allocatable); tree-shaped sparse pre-state (target path, one neighbour word per path table, garbage in allocatable frames); recursive index 300; page-table indices (256,0,510,511)"
+    //@ obligation C02 C02.recursive_unmap_1gib.shape_table_entry.documented_outcome bounded="pool of 7 tables (4 path + 3 allocatable); tree-shaped sparse pre-state (target path, one neighbour word per path table, garbage in allocatable frames); recursive index 300; page-table indices (256,0,510,511)"
+    //@ obligation C02 C02.recursive_unmap_1gib.shape_table_entry.error_leaves_every_mapping bounded="pool of 7 tables (4 path + 3 allocatable); tree-shaped sparse pre-state (target path, one neighbour word per path table, garbage in allocatable frames); recursive index 300; page-table indices (256,0,510,511)"
+    //@ obligation C09 C09.recursive_unmap_1gib.shape_table_entry.only_dictated_slots_change bounded="pool of 7 tables (4 path + 3 allocatable); tree-shaped sparse pre-state (target path, one neighbour word per path table, garbage in allocatable frames); recursive index 300; page-table indices (256,0,510,511)"
+    //@ obligation C09 C09.recursive_unmap_1gib.shape_table_entry.no_frames_requested_or_zeroed bounded="pool of 7 tables (4 path + 3 allocatable); tree-shaped sparse pre-state (target path, one neighbour word per path table, garbage in allocatable frames); recursive index 300; page-table indices (256,0,510,511)"
+    //@ obligation C09 C09.recursive_unmap_1gib.shape_table_entry.no_dangling_table_pointer bounded="pool of 7 tables (4 path + 3 allocatable); tree-shaped sparse pre-state (target path, one neighbour word per path table, garbage in allocatable frames); recursive index 300; page-table indices (256,0,510,511)"
+    //@ obligation C09 C09.recursive_unmap_1gib.shape_table_entry.no_access_outside_page_tables bounded="pool of 7 tables (4 path + 3 allocatable); tree-shaped sparse pre-state (target path, one neighbour word per path table, garbage in allocatable frames); recursive index 300; page-table indices (256,0,510,511)"
+    //@ obligation C20 C20.recursive_unmap_1gib.uses_recursive_addresses_of_the_page bounded="pool of 7 tables (4 path + 3 allocatable); tree-shaped sparse pre-state (target path, one neighbour word per path table, garbage in allocatable frames); recursive index 300; page-table indices (256,0,510,511)"
     #[kani::proof]
     #[kani::stub(crate::structures::paging::page_table::PageTable::zero, zero_stub)]
     #[kani::stub(crate::addr::VirtAddr::as_mut_ptr, mmu_trap_as_mut_ptr)]
@@ -1352,18 +1352,18 @@ mod verif_c01_recursive_step_huge {
         kani::cover!(true, "c01_recursive_unmap_1gib_sym_mid: reachable");
     }
 
-    //@ obligation C02 C02.recursive_unmap_1gib.shape_sym.documented_outcome tier=thorough bounded="pool of 7 tables (4 path + 3 allocatable); tree-shaped sparse pre-state (target path, one neighbour word per path table, garbage in allocatable frames); recursive index 300; page-table indices (256,0,510,511)"
-    //@ obligation C01 C01.recursive_unmap_1gib.shape_sym.returns_mapped_frame tier=thorough bounded="pool of 7 tables (4 path + 3 allocatable); tree-shaped sparse pre-state (target path, one neighbour word per path table, garbage in allocatable frames); recursive index 300; page-table indices (256,0,510,511)"
-    //@ obligation C01 C01.recursive_unmap_1gib.shape_sym.target_not_mapped_after tier=thorough bounded="pool of 7 tables (4 path + 3 allocatable); tree-shaped sparse pre-state (target path, one neighbour word per path table, garbage in allocatable frames); recursive index 300; page-table indices (256,0,510,511)"
-    //@ obligation C01 C01.recursive_unmap_1gib.shape_sym.other_addresses_unchanged tier=thorough bounded="pool of 7 tables (4 path + 3 allocatable); tree-shaped sparse pre-state (target path, one neighbour word per path table, garbage in allocatable frames); recursive index 300; page-table indices (256,0,510,511)"
-    //@ obligation C01 C01.recursive_unmap_1gib.shape_sym.result_reports_page tier=thorough bounded="pool of 7 tables (4 path + 3 allocatable); tree-shaped sparse pre-state (target path, one neighbour word per path table, garbage in allocatable frames); recursive index 300; page-table indices (256,0,510,511)"
-    //@ obligation C11 C11.recursive_unmap_1gib.shape_sym.token_names_page tier=thorough bounded="pool of 7 tables (4 path + 3 allocatable); tree-shaped sparse pre-state (target path, one neighbour word per path table, garbage in allocatable frames); recursive index 300; page-table indices (256,0,510,511)"
-    //@ obligation C02 C02.recursive_unmap_1gib.shape_sym.error_leaves_every_mapping tier=thorough bounded="pool of 7 tables (4 path + 3 allocatable); tree-shaped sparse pre-state (target path, one neighbour word per path table, garbage in allocatable frames); recursive index 300; page-table indices (256,0,510,511)"
-    //@ obligation C09 C09.recursive_unmap_1gib.shape_sym.only_dictated_slots_change tier=thorough bounded="pool of 7 tables (4 path + 3 allocatable); tree-shaped sparse pre-state (target path, one neighbour word per path table, garbage in allocatable frames); recursive index 300; page-table indices (256,0,510,511)"
-    //@ obligation C09 C09.recursive_unmap_1gib.shape_sym.no_frames_requested_or_zeroed tier=thorough bounded="pool of 7 tables (4 path + 3 allocatable); tree-shaped sparse pre-state (target path, one neighbour word per path table, garbage in allocatable frames); recursive index 300; page-table indices (256,0,510,511)"
-    //@ obligation C09 C09.recursive_unmap_1gib.shape_sym.no_dangling_table_pointer tier=thorough bounded="pool of 7 tables (4 path + 3 allocatable); tree-shaped sparse pre-state (target path, one neighbour word per path table, garbage in allocatable frames); recursive index 300; page-table indices (256,0,510,511)"
-    //@ obligation C09 C09.recursive_unmap_1gib.shape_sym.no_access_outside_page_tables tier=thorough bounded="pool of 7 tables (4 path + 3 allocatable); tree-shaped sparse pre-state (target path, one neighbour word per path table, garbage in allocatable frames); recursive index 300; page-table indices (256,0,510,511)"
-    //@ obligation C20 C20.recursive_unmap_1gib.uses_recursive_addresses_of_the_page tier=thorough bounded="pool of 7 tables (4 path + 3 allocatable); tree-shaped sparse pre-state (target path, one neighbour word per path table, garbage in allocatable frames); recursive index 300; page-table indices (256,0,510,511)"
+    //@ obligation C02 C02.recursive_unmap_1gib.shape_sym.documented_outcome bounded="pool of 7 tables (4 path + 3 allocatable); tree-shaped sparse pre-state (target path, one neighbour word per path table, garbage in allocatable frames); recursive index 300; page-table indices (256,0,510,511)"
+    //@ obligation C01 C01.recursive_unmap_1gib.shape_sym.returns_mapped_frame bounded="pool of 7 tables (4 path + 3 allocatable); tree-shaped sparse pre-state (target path, one neighbour word per path table, garbage in allocatable frames); recursive index 300; page-table indices (256,0,510,511)"
+    //@ obligation C01 C01.recursive_unmap_1gib.shape_sym.target_not_mapped_after bounded="pool of 7 tables (4 path + 3 allocatable); tree-shaped sparse pre-state (target path, one neighbour word per path table, garbage in allocatable frames); recursive index 300; page-table indices (256,0,510,511)"
+    //@ obligation C01 C01.recursive_unmap_1gib.shape_sym.other_addresses_unchanged bounded="pool of 7 tables (4 path + 3 allocatable); tree-shaped sparse pre-state (target path, one neighbour word per path table, garbage in allocatable frames); recursive index 300; page-table indices (256,0,510,511)"
+    //@ obligation C01 C01.recursive_unmap_1gib.shape_sym.result_reports_page bounded="pool of 7 tables (4 path + 3 allocatable); tree-shaped sparse pre-state (target path, one neighbour word per path table, garbage in allocatable frames); recursive index 300; page-table indices (256,0,510,511)"
+    //@ obligation C11 C11.recursive_unmap_1gib.shape_sym.token_names_page bounded="pool of 7 tables (4 path + 3 allocatable); tree-shaped sparse pre-state (target path, one neighbour word per path table, garbage in allocatable frames); recursive index 300; page-table indices (256,0,510,511)"
+    //@ obligation C02 C02.recursive_unmap_1gib.shape_sym.error_leaves_every_mapping bounded="pool of 7 tables (4 path + 3 allocatable); tree-shaped sparse pre-state (target path, one neighbour word per path table, garbage in allocatable frames); recursive index 300; page-table indices (256,0,510,511)"
+    //@ obligation C09 C09.recursive_unmap_1gib.shape_sym.only_dictated_slots_change bounded="pool of 7 tables (4 path + 3 allocatable); tree-shaped sparse pre-state (target path, one neighbour word per path table, garbage in allocatable frames); recursive index 300; page-table indices (256,0,510,511)"
+    //@ obligation C09 C09.recursive_unmap_1gib.shape_sym.no_frames_requested_or_zeroed bounded="pool of 7 tables (4 path + 3 allocatable); tree-shaped sparse pre-state (target path, one neighbour word per path table, garbage in allocatable frames); recursive index 300; page-table indices (256,0,510,511)"
+    //@ obligation C09 C09.recursive_unmap_1gib.shape_sym.no_dangling_table_pointer bounded="pool of 7 tables (4 path + 3 allocatable); tree-shaped sparse pre-state (target path, one neighbour word per path table, garbage in allocatable frames); recursive index 300; page-table indices (256,0,510,511)"
+    //@ obligation C09 C09.recursive_unmap_1gib.shape_sym.no_access_outside_page_tables bounded="pool of 7 tables (4 path + 3 allocatable); tree-shaped sparse pre-state (target path, one neighbour word per path table, garbage in allocatable frames); recursive index 300; page-table indices (256,0,510,511)"
+    //@ obligation C20 C20.recursive_unmap_1gib.uses_recursive_addresses_of_the_page bounded="pool of 7 tables (4 path + 3 allocatable); tree-shaped sparse pre-state (target path, one neighbour word per path table, garbage in allocatable frames); recursive index 300; page-table indices (256,0,510,511)"
     #[kani::proof]
     #[kani::stub(crate::structures::paging::page_table::PageTable::zero, zero_stub)]
     #[kani::stub(crate::addr::VirtAddr::as_mut_ptr, mmu_trap_as_mut_ptr)]
@@ -1372,12 +1372,12 @@ mod verif_c01_recursive_step_huge {
         kani::cover!(true, "c01_recursive_unmap_1gib_sym_up: reachable");
     }
 
-    //@ obligation C02 C02.recursive_update_flags_2mib.shape_p4_absent.documented_outcome tier=thorough bounded="pool of 7 tables (4 path + 3 allocatable); tree-shaped sparse pre-state (target path, one neighbour word per path table, garbage in allocatable frames); recursive index 300; page-table indices (255,511,0,256)"
-    //@ obligation C02 C02.recursive_update_flags_2mib.shape_p4_absent.error_leaves_every_mapping tier=thorough bounded="pool of 7 tables (4 path + 3 allocatable); tree-shaped sparse pre-state (target path, one neighbour word per path table, garbage in allocatable frames); recursive index 300; page-table indices (255,511,0,256)"
-    //@ obligation C09 C09.recursive_update_flags_2mib.shape_p4_absent.only_dictated_slots_change tier=thorough bounded="pool of 7 tables (4 path + 3 allocatable); tree-shaped sparse pre-state (target path, one neighbour word per path table, garbage in allocatable frames); recursive index 300; page-table indices (255,511,0,256)"
-    //@ obligation C09 C09.recursive_update_flags_2mib.shape_p4_absent.no_frames_requested_or_zeroed tier=thorough bounded="pool of 7 tables (4 path + 3 allocatable); tree-shaped sparse pre-state (target path, one neighbour word per path table, garbage in allocatable frames); recursive index 300; page-table indices (255,511,0,256)"
-    //@ obligation C09 C09.recursive_update_flags_2mib.shape_p4_absent.no_dangling_table_pointer tier=thorough bounded="pool of 7 tables (4 path + 3 allocatable); tree-shaped sparse pre-state (target path, one neighbour word per path table, garbage in allocatable frames); recursive index 300; page-table indices (255,511,0,256)"
-    //@ obligation C09 C09.recursive_update_flags_2mib.shape_p4_absent.no_access_outside_page_tables tier=thorough bounded="pool of 7 tables (4 path + 3 allocatable); tree-shaped sparse pre-state (target path, one neighbour word per path table, garbage in allocatable frames); recursive index 300; page-table indices (255,511,0,256)"
+    //@ obligation C02 C02.recursive_update_flags_2mib.shape_p4_absent.documented_outcome bounded="pool of 7 tables (4 path + 3 allocatable); tree-shaped sparse pre-state (target path, one neighbour word per path table, garbage in allocatable frames); recursive index 300; page-table indices (255,511,0,256)"
+    //@ obligation C02 C02.recursive_update_flags_2mib.shape_p4_absent.error_leaves_every_mapping bounded="pool of 7 tables (4 path + 3 allocatable); tree-shaped sparse pre-state (target path, one neighbour word per path table, garbage in allocatable frames); recursive index 300; page-table indices (255,511,0,256)"
+    //@ obligation C09 C09.recursive_update_flags_2mib.shape_p4_absent.only_dictated_slots_change bounded="pool of 7 tables (4 path + 3 allocatable); tree-shaped sparse pre-state (target path, one neighbour word per path table, garbage in allocatable frames); recursive index 300; page-table indices (255,511,0,256)"
+    //@ obligation C09 C09.recursive_update_flags_2mib.shape_p4_absent.no_frames_requested_or_zeroed bounded="pool of 7 tables (4 path + 3 allocatable); tree-shaped sparse pre-state (target path, one neighbour word per path table, garbage in allocatable frames); recursive index 300; page-table indices (255,511,0,256)"
+    //@ obligation C09 C09.recursive_update_flags_2mib.shape_p4_absent.no_dangling_table_pointer bounded="pool of 7 tables (4 path + 3 allocatable); tree-shaped sparse pre-state (target path, one neighbour word per path table, garbage in allocatable frames); recursive index 300; page-table indices (255,511,0,256)"
+    //@ obligation C09 C09.recursive_update_flags_2mib.shape_p4_absent.no_access_outside_page_tables bounded="pool of 7 tables (4 path + 3 allocatable); tree-shaped sparse pre-state (target path, one neighbour word per path table, garbage in allocatable frames); recursive index 300; page-table indices (255,511,0,256)"
     #[kani::proof]
     #[kani::stub(crate::structures::paging::page_table::PageTable::zero, zero_stub)]
     #[kani::stub(crate::addr::VirtAddr::as_mut_ptr, mmu_trap_as_mut_ptr)]
@@ -1400,13 +1400,13 @@ mod verif_c01_recursive_step_huge {
         kani::cover!(true, "c01_recursive_update_flags_2mib_p4_absent_up: reachable");
     }
 
-    //@ obligation C02 C02.recursive_update_flags_2mib.shape_p3_absent.documented_outcome tier=thorough bounded="pool of 7 tables (4 path + 3 allocatable); tree-shaped sparse pre-state (target path, one neighbour word per path table, garbage in allocatable frames); recursive index 300; page-table indices (255,511,0,256)"
-    //@ obligation C02 C02.recursive_update_flags_2mib.shape_p3_absent.error_leaves_every_mapping tier=thorough bounded="pool of 7 tables (4 path + 3 allocatable); tree-shaped sparse pre-state (target path, one neighbour word per path table, garbage in allocatable frames); recursive index 300; page-table indices (255,511,0,256)"
-    //@ obligation C09 C09.recursive_update_flags_2mib.shape_p3_absent.only_dictated_slots_change tier=thorough bounded="pool of 7 tables (4 path + 3 allocatable); tree-shaped sparse pre-state (target path, one neighbour word per path table, garbage in allocatable frames); recursive index 300; page-table indices (255,511,0,256)"
-    //@ obligation C09 C09.recursive_update_flags_2mib.shape_p3_absent.no_frames_requested_or_zeroed tier=thorough bounded="pool of 7 tables (4 path + 3 allocatable); tree-shaped sparse pre-state (target path, one neighbour word per path table, garbage in allocatable frames); recursive index 300; page-table indices (255,511,0,256)"
-    //@ obligation C09 C09.recursive_update_flags_2mib.shape_p3_absent.no_dangling_table_pointer tier=thorough bounded="pool of 7 tables (4 path + 3 allocatable); tree-shaped sparse pre-state (target path, one neighbour word per path table, garbage in allocatable frames); recursive index 300; page-table indices (255,511,0,256)"
-    //@ obligation C09 C09.recursive_update_flags_2mib.shape_p3_absent.no_access_outside_page_tables tier=thorough bounded="pool of 7 tables (4 path + 3 allocatable); tree-shaped sparse pre-state (target path, one neighbour word per path table, garbage in allocatable frames); recursive index 300; page-table indices (255,511,0,256)"
-    //@ obligation C20 C20.recursive_update_flags_2mib.uses_recursive_addresses_of_the_page tier=thorough bounded="pool of 7 tables (4 path + 3 allocatable); tree-shaped sparse pre-state (target path, one neighbour word per path table, garbage in allocatable frames); recursive index 300; page-table indices (255,511,0,256)"
+    //@ obligation C02 C02.recursive_update_flags_2mib.shape_p3_absent.documented_outcome bounded="pool of 7 tables (4 path + 3 allocatable); tree-shaped sparse pre-state (target path, one neighbour word per path table, garbage in allocatable frames); recursive index 300; page-table indices (255,511,0,256)"
+    //@ obligation C02 C02.recursive_update_flags_2mib.shape_p3_absent.error_leaves_every_mapping bounded="pool of 7 tables (4 path + 3 allocatable); tree-shaped sparse pre-state (target path, one neighbour word per path table, garbage in allocatable frames); recursive index 300; page-table indices (255,511,0,256)"
+    //@ obligation C09 C09.recursive_update_flags_2mib.shape_p3_absent.only_dictated_slots_change bounded="pool of 7 tables (4 path + 3 allocatable); tree-shaped sparse pre-state (target path, one neighbour word per path table, garbage in allocatable frames); recursive index 300; page-table indices (255,511,0,256)"
+    //@ obligation C09 C09.recursive_update_flags_2mib.shape_p3_absent.no_frames_requested_or_zeroed bounded="pool of 7 tables (4 path + 3 allocatable); tree-shaped sparse pre-state (target path, one neighbour word per path table, garbage in allocatable frames); recursive index 300; page-table indices (255,511,0,256)"
+    //@ obligation C09 C09.recursive_update_flags_2mib.shape_p3_absent.no_dangling_table_pointer bounded="pool of 7 tables (4 path + 3 allocatable); tree-shaped sparse pre-state (target path, one neighbour word per path table, garbage in allocatable frames); recursive index 300; page-table indices (255,511,0,256)"
+    //@ obligation C09 C09.recursive_update_flags_2mib.shape_p3_absent.no_access_outside_page_tables bounded="pool of 7 tables (4 path + 3 allocatable); tree-shaped sparse pre-state (target path, one neighbour word per path table, garbage in allocatable frames); recursive index 300; page-table indices (255,511,0,256)"
+    //@ obligation C20 C20.recursive_update_flags_2mib.uses_recursive_addresses_of_the_page bounded="pool of 7 tables (4 path + 3 allocatable); tree-shaped sparse pre-state (target path, one neighbour word per path table, garbage in allocatable frames); recursive index 300; page-table indices (255,511,0,256)"
     #[kani::proof]
     #[kani::stub(crate::structures::paging::page_table::PageTable::zero, zero_stub)]
     #[kani::stub(crate::addr::VirtAddr::as_mut_ptr, mmu_trap_as_mut_ptr)]
@@ -1430,14 +1430,14 @@ mod verif_c01_recursive_step_huge {
         kani::cover!(true, "c01_recursive_update_flags_2mib_p3_absent_up: reachable");
     }
 
-    //@ obligation C02 C02.recursive_update_flags_2mib.shape_p3_huge.huge_parent_is_reported_not_walked tier=thorough bounded="pool of 7 tables (4 path + 3 allocatable); tree-shaped sparse pre-state (target path, one neighbour word per path table, garbage in allocatable frames); recursive index 300; page-table indices (255,511,0,256)"
-    //@ obligation C02 C02.recursive_update_flags_2mib.shape_p3_huge.documented_outcome tier=thorough bounded="pool of 7 tables (4 path + 3 allocatable); tree-shaped sparse pre-state (target path, one neighbour word per path table, garbage in allocatable frames); recursive index 300; page-table indices (255,511,0,256)"
-    //@ obligation C02 C02.recursive_update_flags_2mib.shape_p3_huge.error_leaves_every_mapping tier=thorough bounded="pool of 7 tables (4 path + 3 allocatable); tree-shaped sparse pre-state (target path, one neighbour word per path table, garbage in allocatable frames); recursive index 300; page-table indices (255,511,0,256)"
-    //@ obligation C09 C09.recursive_update_flags_2mib.shape_p3_huge.only_dictated_slots_change tier=thorough bounded="pool of 7 tables (4 path + 3 allocatable); tree-shaped sparse pre-state (target path, one neighbour word per path table, garbage in allocatable frames); recursive index 300; page-table indices (255,511,0,256)"
-    //@ obligation C09 C09.recursive_update_flags_2mib.shape_p3_huge.no_frames_requested_or_zeroed tier=thorough bounded="pool of 7 tables (4 path + 3 allocatable); tree-shaped sparse pre-state (target path, one neighbour word per path table, garbage in allocatable frames); recursive index 300; page-table indices (255,511,0,256)"
-    //@ obligation C09 C09.recursive_update_flags_2mib.shape_p3_huge.no_dangling_table_pointer tier=thorough bounded="pool of 7 tables (4 path + 3 allocatable); tree-shaped sparse pre-state (target path, one neighbour word per path table, garbage in allocatable frames); recursive index 300; page-table indices (255,511,0,256)"
-    //@ obligation C09 C09.recursive_update_flags_2mib.shape_p3_huge.no_access_outside_page_tables tier=thorough bounded="pool of 7 tables (4 path + 3 allocatable); tree-shaped sparse pre-state (target path, one neighbour word per path table, garbage in allocatable frames); recursive index 300; page-table indices (255,511,0,256)"
-    //@ obligation C20 C20.recursive_update_flags_2mib.uses_recursive_addresses_of_the_page tier=thorough bounded="pool of 7 tables (4 path + 3 allocatable); tree-shaped sparse pre-state (target path, one neighbour word per path table, garbage in allocatable frames); recursive index 300; page-table indices (255,511,0,256)"
+    //@ obligation C02 C02.recursive_update_flags_2mib.shape_p3_huge.huge_parent_is_reported_not_walked bounded="pool of 7 tables (4 path + 3 allocatable); tree-shaped sparse pre-state (target path, one neighbour word per path table, garbage in allocatable frames); recursive index 300; page-table indices (255,511,0,256)"
+    //@ obligation C02 C02.recursive_update_flags_2mib.shape_p3_huge.documented_outcome bounded="pool of 7 tables (4 path + 3 allocatable); tree-shaped sparse pre-state (target path, one neighbour word per path table, garbage in allocatable frames); recursive index 300; page-table indices (255,511,0,256)"
+    //@ obligation C02 C02.recursive_update_flags_2mib.shape_p3_huge.error_leaves_every_mapping bounded="pool of 7 tables (4 path + 3 allocatable); tree-shaped sparse pre-state (target path, one neighbour word per path table, garbage in allocatable frames); recursive index 300; page-table indices (255,511,0,256)"
+    //@ obligation C09 C09.recursive_update_flags_2mib.shape_p3_huge.only_dictated_slots_change bounded="pool of 7 tables (4 path + 3 allocatable); tree-shaped sparse pre-state (target path, one neighbour word per path table, garbage in allocatable frames); recursive index 300; page-table indices (255,511,0,256)"
+    //@ obligation C09 C09.recursive_update_flags_2mib.shape_p3_huge.no_frames_requested_or_zeroed bounded="pool of 7 tables (4 path + 3 allocatable); tree-shaped sparse pre-state (target path, one neighbour word per path table, garbage in allocatable frames); recursive index 300; page-table indices (255,511,0,256)"
+    //@ obligation C09 C09.recursive_update_flags_2mib.shape_p3_huge.no_dangling_table_pointer bounded="pool of 7 tables (4 path + 3 allocatable); tree-shaped sparse pre-state (target path, one neighbour word per path table, garbage in allocatable frames); recursive index 300; page-table indices (255,511,0,256)"
+    //@ obligation C09 C09.recursive_update_flags_2mib.shape_p3_huge.no_access_outside_page_tables bounded="pool of 7 tables (4 path + 3 allocatable); tree-shaped sparse pre-state (target path, one neighbour word per path table, garbage in allocatable frames); recursive index 300; page-table indices (255,511,0,256)"
+    //@ obligation C20 C20.recursive_update_flags_2mib.uses_recursive_addresses_of_the_page bounded="pool of 7 tables (4 path + 3 allocatable); tree-shaped sparse pre-state (target path, one neighbour word per path table, garbage in allocatable frames); recursive index 300; page-table indices (255,511,0,256)"
     #[kani::proof]
     #[kani::stub(crate::structures::paging::page_table::PageTable::zero, zero_stub)]
     #[kani::stub(crate::addr::VirtAddr::as_mut_ptr, mmu_trap_as_mut_ptr)]
@@ -1462,13 +1462,13 @@ mod verif_c01_recursive_step_huge {
         kani::cover!(true, "c01_recursive_update_flags_2mib_p3_huge_up: reachable");
     }
 
-    //@ obligation C02 C02.recursive_update_flags_2mib.shape_p2_absent.documented_outcome tier=thorough bounded="pool of 7 tables (4 path + 3 allocatable); tree-shaped sparse pre-state (target path, one neighbour word per path table, garbage in allocatable frames); recursive index 300; page-table indices (255,511,0,256)"
-    //@ obligation C02 C02.recursive_update_flags_2mib.shape_p2_absent.error_leaves_every_mapping tier=thorough bounded="pool of 7 tables (4 path + 3 allocatable); tree-shaped sparse pre-state (target path, one neighbour word per path table, garbage in allocatable frames); recursive index 300; page-table indices (255,511,0,256)"
-    //@ obligation C09 C09.recursive_update_flags_2mib.shape_p2_absent.only_dictated_slots_change tier=thorough bounded="pool of 7 tables (4 path + 3 allocatable); tree-shaped sparse pre-state (target path, one neighbour word per path table, garbage in allocatable frames); recursive index 300; page-table indices (255,511,0,256)"
-    //@ obligation C09 C09.recursive_update_flags_2mib.shape_p2_absent.no_frames_requested_or_zeroed tier=thorough bounded="pool of 7 tables (4 path + 3 allocatable); tree-shaped sparse pre-state (target path, one neighbour word per path table, garbage in allocatable frames); recursive index 300; page-table indices (255,511,0,256)"
-    //@ obligation C09 C09.recursive_update_flags_2mib.shape_p2_absent.no_dangling_table_pointer tier=thorough bounded="pool of 7 tables (4 path + 3 allocatable); tree-shaped sparse pre-state (target path, one neighbour word per path table, garbage in allocatable frames); recursive index 300; page-table indices (255,511,0,256)"
-    //@ obligation C09 C09.recursive_update_flags_2mib.shape_p2_absent.no_access_outside_page_tables tier=thorough bounded="pool of 7 tables (4 path + 3 allocatable); tree-shaped sparse pre-state (target path, one neighbour word per path table, garbage in allocatable frames); recursive index 300; page-table indices (255,511,0,256)"
-    //@ obligation C20 C20.recursive_update_flags_2mib.uses_recursive_addresses_of_the_page tier=thorough bounded="pool of 7 tables (4 path + 3 allocatable); tree-shaped sparse pre-state (target path, one neighbour word per path table, garbage in allocatable frames); recursive index 300; page-table indices (255,511,0,256)"
+    //@ obligation C02 C02.recursive_update_flags_2mib.shape_p2_absent.documented_outcome bounded="pool of 7 tables (4 path + 3 allocatable); tree-shaped sparse pre-state (target path, one neighbour word per path table, garbage in allocatable frames); recursive index 300; page-table indices (255,511,0,256)"
+    //@ obligation C02 C02.recursive_update_flags_2mib.shape_p2_absent.error_leaves_every_mapping bounded="pool of 7 tables (4 path + 3 allocatable); tree-shaped sparse pre-state (target path, one neighbour word per path table, garbage in allocatable frames); recursive index 300; page-table indices (255,511,0,256)"
+    //@ obligation C09 C09.recursive_update_flags_2mib.shape_p2_absent.only_dictated_slots_change bounded="pool of 7 tables (4 path + 3 allocatable); tree-shaped sparse pre-state (target path, one neighbour word per path table, garbage in allocatable frames); recursive index 300; page-table indices (255,511,0,256)"
+    //@ obligation C09 C09.recursive_update_flags_2mib.shape_p2_absent.no_frames_requested_or_zeroed bounded="pool of 7 tables (4 path + 3 allocatable); tree-shaped sparse pre-state (target path, one neighbour word per path table, garbage in allocatable frames); recursive index 300; page-table indices (255,511,0,256)"
+    //@ obligation C09 C09.recursive_update_flags_2mib.shape_p2_absent.no_dangling_table_pointer bounded="pool of 7 tables (4 path + 3 allocatable); tree-shaped sparse pre-state (target path, one neighbour word per path table, garbage in allocatable frames); recursive index 300; page-table indices (255,511,0,256)"
+    //@ obligation C09 C09.recursive_update_flags_2mib.shape_p2_absent.no_access_outside_page_tables bounded="pool of 7 tables (4 path + 3 allocatable); tree-shaped sparse pre-state (target path, one neighbour word per path table, garbage in allocatable frames); recursive index 300; page-table indices (255,511,0,256)"
+    //@ obligation C20 C20.recursive_update_flags_2mib.uses_recursive_addresses_of_the_page bounded="pool of 7 tables (4 path + 3 allocatable); tree-shaped sparse pre-state (target path, one neighbour word per path table, garbage in allocatable frames); recursive index 300; page-table indices (255,511,0,256)"
     #[kani::proof]
     #[kani::stub(crate::structures::paging::page_table::PageTable::zero, zero_stub)]
     #[kani::stub(crate::addr::VirtAddr::as_mut_ptr, mmu_trap_as_mut_ptr)]
@@ -1530,14 +1530,14 @@ mod verif_c01_recursive_step_huge {
         kani::cover!(true, "c01_recursive_update_flags_2mib_p2_huge_up: reachable");
     }
 
-    //@ obligation C02 C02.recursive_update_flags_2mib.shape_table_entry.no_success_for_nonexistent_size tier=thorough bounded="pool of 7 tables (4 path + 3 allocatable); tree-shaped sparse pre-state (target path, one neighbour word per path table, garbage in allocatable frames); recursive index 300; page-table indices (255,511,0,256)"
-    //@ obligation C02 C02.recursive_update_flags_2mib.shape_table_entry.documented_outcome tier=thorough bounded="pool of 7 tables (4 path + 3 allocatable); tree-shaped sparse pre-state (target path, one neighbour word per path table, garbage in allocatable frames); recursive index 300; page-table indices (255,511,0,256)"
-    //@ obligation C02 C02.recursive_update_flags_2mib.shape_table_entry.error_leaves_every_mapping tier=thorough bounded="pool of 7 tables (4 path + 3 allocatable); tree-shaped sparse pre-state (target path, one neighbour word per path table, garbage in allocatable frames); recursive index 300; page-table indices (255,511,0,256)"
-    //@ obligation C09 C09.recursive_update_flags_2mib.shape_table_entry.only_dictated_slots_change tier=thorough bounded="pool of 7 tables (4 path + 3 allocatable); tree-shaped sparse pre-state (target path, one neighbour word per path table, garbage in allocatable frames); recursive index 300; page-table indices (255,511,0,256)"
-    //@ obligation C09 C09.recursive_update_flags_2mib.shape_table_entry.no_frames_requested_or_zeroed tier=thorough bounded="pool of 7 tables (4 path + 3 allocatable); tree-shaped sparse pre-state (target path, one neighbour word per path table, garbage in allocatable frames); recursive index 300; page-table indices (255,511,0,256)"
-    //@ obligation C09 C09.recursive_update_flags_2mib.shape_table_entry.no_dangling_table_pointer tier=thorough bounded="pool of 7 tables (4 path + 3 allocatable); tree-shaped sparse pre-state (target path, one neighbour word per path table, garbage in allocatable frames); recursive index 300; page-table indices (255,511,0,256)"
-    //@ obligation C09 C09.recursive_update_flags_2mib.shape_table_entry.no_access_outside_page_tables tier=thorough bounded="pool of 7 tables (4 path + 3 allocatable); tree-shaped sparse pre-state (target path, one neighbour word per path table, garbage in allocatable frames); recursive index 300; page-table indices (255,511,0,256)"
-    //@ obligation C20 C20.recursive_update_flags_2mib.uses_recursive_addresses_of_the_page tier=thorough bounded="pool of 7 tables (4 path + 3 allocatable); tree-shaped sparse pre-state (target path, one neighbour word per path table, garbage in allocatable frames); recursive index 300; page-table indices (255,511,0,256)"
+    //@ obligation C02 C02.recursive_update_flags_2mib.shape_table_entry.no_success_for_nonexistent_size bounded="pool of 7 tables (4 path + 3 allocatable); tree-shaped sparse pre-state (target path, one neighbour word per path table, garbage in allocatable frames); recursive index 300; page-table indices (255,511,0,256)"
+    //@ obligation C02 C02.recursive_update_flags_2mib.shape_table_entry.documented_outcome bounded="pool of 7 tables (4 path + 3 allocatable); tree-shaped sparse pre-state (target path, one neighbour word per path table, garbage in allocatable frames); recursive index 300; page-table indices (255,511,0,256)"
+    //@ obligation C02 C02.recursive_update_flags_2mib.shape_table_entry.error_leaves_every_mapping bounded="pool of 7 tables (4 path + 3 allocatable); tree-shaped sparse pre-state (target path, one neighbour word per path table, garbage in allocatable frames); recursive index 300; page-table indices (255,511,0,256)"
+    //@ obligation C09 C09.recursive_update_flags_2mib.shape_table_entry.only_dictated_slots_change bounded="pool of 7 tables (4 path + 3 allocatable); tree-shaped sparse pre-state (target path, one neighbour word per path table, garbage in allocatable frames); recursive index 300; page-table indices (255,511,0,256)"
+    //@ obligation C09 C09.recursive_update_flags_2mib.shape_table_entry.no_frames_requested_or_zeroed bounded="pool of 7 tables (4 path + 3 allocatable); tree-shaped sparse pre-state (target path, one neighbour word per path table, garbage in allocatable frames); recursive index 300; page-table indices (255,511,0,256)"
+    //@ obligation C09 C09.recursive_update_flags_2mib.shape_table_entry.no_dangling_table_pointer bounded="pool of 7 tables (4 path + 3 allocatable); tree-shaped sparse pre-state (target path, one neighbour word per path table, garbage in allocatable frames); recursive index 300; page-table indices (255,511,0,256)"
+    //@ obligation C09 C09.recursive_update_flags_2mib.shape_table_entry.no_access_outside_page_tables bounded="pool of 7 tables (4 path + 3 allocatable); tree-shaped sparse pre-state (target path, one neighbour word per path table, garbage in allocatable frames); recursive index 300; page-table indices (255,511,0,256)"
+    //@ obligation C20 C20.recursive_update_flags_2mib.uses_recursive_addresses_of_the_page bounded="pool of 7 tables (4 path + 3 allocatable); tree-shaped sparse pre-state (target path, one neighbour word per path table, garbage in allocatable frames); recursive index 300; page-table indices (255,511,0,256)"
     #[kani::proof]
     #[kani::stub(crate::structures::paging::page_table::PageTable::zero, zero_stub)]
     #[kani::stub(crate::addr::VirtAddr::as_mut_ptr, mmu_trap_as_mut_ptr)]
@@ -1582,18 +1582,18 @@ mod verif_c01_recursive_step_huge {
         kani::cover!(true, "c01_recursive_update_flags_2mib_sym_mid: reachable");
     }
 
-    //@ obligation C02 C02.recursive_update_flags_2mib.shape_sym.documented_outcome tier=thorough bounded="pool of 7 tables (4 path + 3 allocatable); tree-shaped sparse pre-state (target path, one neighbour word per path table, garbage in allocatable frames); recursive index 300; page-table indices (256,0,510,511)"
-    //@ obligation C01 C01.recursive_update_flags_2mib.shape_sym.target_keeps_frame_and_size tier=thorough bounded="pool of 7 tables (4 path + 3 allocatable); tree-shaped sparse pre-state (target path, one neighbour word per path table, garbage in allocatable frames); recursive index 300; page-table indices (256,0,510,511)"
-    //@ obligation C01 C01.recursive_update_flags_2mib.shape_sym.target_leaf_flags_replaced tier=thorough bounded="pool of 7 tables (4 path + 3 allocatable); tree-shaped sparse pre-state (target path, one neighbour word per path table, garbage in allocatable frames); recursive index 300; page-table indices (256,0,510,511)"
-    //@ obligation C01 C01.recursive_update_flags_2mib.shape_sym.other_addresses_unchanged tier=thorough bounded="pool of 7 tables (4 path + 3 allocatable); tree-shaped sparse pre-state (target path, one neighbour word per path table, garbage in allocatable frames); recursive index 300; page-table indices (256,0,510,511)"
-    //@ obligation C01 C01.recursive_update_flags_2mib.shape_sym.result_reports_page tier=thorough bounded="pool of 7 tables (4 path + 3 allocatable); tree-shaped sparse pre-state (target path, one neighbour word per path table, garbage in allocatable frames); recursive index 300; page-table indices (256,0,510,511)"
-    //@ obligation C11 C11.recursive_update_flags_2mib.shape_sym.token_names_page tier=thorough bounded="pool of 7 tables (4 path + 3 allocatable); tree-shaped sparse pre-state (target path, one neighbour word per path table, garbage in allocatable frames); recursive index 300; page-table indices (256,0,510,511)"
-    //@ obligation C02 C02.recursive_update_flags_2mib.shape_sym.error_leaves_every_mapping tier=thorough bounded="pool of 7 tables (4 path + 3 allocatable); tree-shaped sparse pre-state (target path, one neighbour word per path table, garbage in allocatable frames); recursive index 300; page-table indices (256,0,510,511)"
-    //@ obligation C09 C09.recursive_update_flags_2mib.shape_sym.only_dictated_slots_change tier=thorough bounded="pool of 7 tables (4 path + 3 allocatable); tree-shaped sparse pre-state (target path, one neighbour word per path table, garbage in allocatable frames); recursive index 300; page-table indices (256,0,510,511)"
-    //@ obligation C09 C09.recursive_update_flags_2mib.shape_sym.no_frames_requested_or_zeroed tier=thorough bounded="pool of 7 tables (4 path + 3 allocatable); tree-shaped sparse pre-state (target path, one neighbour word per path table, garbage in allocatable frames); recursive index 300; page-table indices (256,0,510,511)"
-    //@ obligation C09 C09.recursive_update_flags_2mib.shape_sym.no_dangling_table_pointer tier=thorough bounded="pool of 7 tables (4 path + 3 allocatable); tree-shaped sparse pre-state (target path, one neighbour word per path table, garbage in allocatable frames); recursive index 300; page-table indices (256,0,510,511)"
-    //@ obligation C09 C09.recursive_update_flags_2mib.shape_sym.no_access_outside_page_tables tier=thorough bounded="pool of 7 tables (4 path + 3 allocatable); tree-shaped sparse pre-state (target path, one neighbour word per path table, garbage in allocatable frames); recursive index 300; page-table indices (256,0,510,511)"
-    //@ obligation C20 C20.recursive_update_flags_2mib.uses_recursive_addresses_of_the_page tier=thorough bounded="pool of 7 tables (4 path + 3 allocatable); tree-shaped sparse pre-state (target path, one neighbour word per path table, garbage in allocatable frames); recursive index 300; page-table indices (256,0,510,511)"
+    //@ obligation C02 C02.recursive_update_flags_2mib.shape_sym.documented_outcome bounded="pool of 7 tables (4 path + 3 allocatable); tree-shaped sparse pre-state (target path, one neighbour word per path table, garbage in allocatable frames); recursive index 300; page-table indices (256,0,510,511)"
+    //@ obligation C01 C01.recursive_update_flags_2mib.shape_sym.target_keeps_frame_and_size bounded="pool of 7 tables (4 path + 3 allocatable); tree-shaped sparse pre-state (target path, one neighbour word per path table, garbage in allocatable frames); recursive index 300; page-table indices (256,0,510,511)"
+    //@ obligation C01 C01.recursive_update_flags_2mib.shape_sym.target_leaf_flags_replaced bounded="pool of 7 tables (4 path + 3 allocatable); tree-shaped sparse pre-state (target path, one neighbour word per path table, garbage in allocatable frames); recursive index 300; page-table indices (256,0,510,511)"
+    //@ obligation C01 C01.recursive_update_flags_2mib.shape_sym.other_addresses_unchanged bounded="pool of 7 tables (4 path + 3 allocatable); tree-shaped sparse pre-state (target path, one neighbour word per path table, garbage in allocatable frames); recursive index 300; page-table indices (256,0,510,511)"
+    //@ obligation C01 C01.recursive_update_flags_2mib.shape_sym.result_reports_page bounded="pool of 7 tables (4 path + 3 allocatable); tree-shaped sparse pre-state (target path, one neighbour word per path table, garbage in allocatable frames); recursive index 300; page-table indices (256,0,510,511)"
+    //@ obligation C11 C11.recursive_update_flags_2mib.shape_sym.token_names_page bounded="pool of 7 tables (4 path + 3 allocatable); tree-shaped sparse pre-state (target path, one neighbour word per path table, garbage in allocatable frames); recursive index 300; page-table indices (256,0,510,511)"
+    //@ obligation C02 C02.recursive_update_flags_2mib.shape_sym.error_leaves_every_mapping bounded="pool of 7 tables (4 path + 3 allocatable); tree-shaped sparse pre-state (target path, one neighbour word per path table, garbage in allocatable frames); recursive index 300; page-table indices (256,0,510,511)"
+    //@ obligation C09 C09.recursive_update_flags_2mib.shape_sym.only_dictated_slots_change bounded="pool of 7 tables (4 path + 3 allocatable); tree-shaped sparse pre-state (target path, one neighbour word per path table, garbage in allocatable frames); recursive index 300; page-table indices (256,0,510,511)"
+    //@ obligation C09 C09.recursive_update_flags_2mib.shape_sym.no_frames_requested_or_zeroed bounded="pool of 7 tables (4 path + 3 allocatable); tree-shaped sparse pre-state (target path, one neighbour word per path table, garbage in allocatable frames); recursive index 300; page-table indices (256,0,510,511)"
+    //@ obligation C09 C09.recursive_update_flags_2mib.shape_sym.no_dangling_table_pointer bounded="pool of 7 tables (4 path + 3 allocatable); tree-shaped sparse pre-state (target path, one neighbour word per path table, garbage in allocatable frames); recursive index 300; page-table indices (256,0,510,511)"
+    //@ obligation C09 C09.recursive_update_flags_2mib.shape_sym.no_access_outside_page_tables bounded="pool of 7 tables (4 path + 3 allocatable); tree-shaped sparse pre-state (target path, one neighbour word per path table, garbage in allocatable frames); recursive index 300; page-table indices (256,0,510,511)"
+    //@ obligation C20 C20.recursive_update_flags_2mib.uses_recursive_addresses_of_the_page bounded="pool of 7 tables (4 path + 3 allocatable); tree-shaped sparse pre-state (target path, one neighbour word per path table, garbage in allocatable frames); recursive index 300; page-table indices (256,0,510,511)"
     #[kani::proof]
     #[kani::stub(crate::structures::paging::page_table::PageTable::zero, zero_stub)]
     #[kani::stub(crate::addr::VirtAddr::as_mut_ptr, mmu_trap_as_mut_ptr)]
@@ -1602,12 +1602,12 @@ mod verif_c01_recursive_step_huge {
         kani::cover!(true, "c01_recursive_update_flags_2mib_sym_up: reachable");
     }
 
-    //@ obligation C02 C02.recursive_update_flags_1gib.shape_p4_absent.documented_outcome tier=thorough bounded="pool of 7 tables (4 path + 3 allocatable); tree-shaped sparse pre-state (target path, one neighbour word per path table, garbage in allocatable frames); recursive index 300; page-table indices (255,511,0,256)"
-    //@ obligation C02 C02.recursive_update_flags_1gib.shape_p4_absent.error_leaves_every_mapping tier=thorough bounded="pool of 7 tables (4 path + 3 allocatable); tree-shaped sparse pre-state (target path, one neighbour word per path table, garbage in allocatable frames); recursive index 300; page-table indices (255,511,0,256)"
-    //@ obligation C09 C09.recursive_update_flags_1gib.shape_p4_absent.only_dictated_slots_change tier=thorough bounded="pool of 7 tables (4 path + 3 allocatable); tree-shaped sparse pre-state (target path, one neighbour word per path table, garbage in allocatable frames); recursive index 300; page-table indices (255,511,0,256)"
-    //@ obligation C09 C09.recursive_update_flags_1gib.shape_p4_absent.no_frames_requested_or_zeroed tier=thorough bounded="pool of 7 tables (4 path + 3 allocatable); tree-shaped sparse pre-state (target path, one neighbour word per path table, garbage in allocatable frames); recursive index 300; page-table indices (255,511,0,256)"
-    //@ obligation C09 C09.recursive_update_flags_1gib.shape_p4_absent.no_dangling_table_pointer tier=thorough bounded="pool of 7 tables (4 path + 3 allocatable); tree-shaped sparse pre-state (target path, one neighbour word per path table, garbage in allocatable frames); recursive index 300; page-table indices (255,511,0,256)"
-    //@ obligation C09 C09.recursive_update_flags_1gib.shape_p4_absent.no_access_outside_page_tables tier=thorough bounded="pool of 7 tables (4 path + 3 allocatable); tree-shaped sparse pre-state (target path, one neighbour word per path table, garbage in allocatable frames); recursive index 300; page-table indices (255,511,0,256)"
+    //@ obligation C02 C02.recursive_update_flags_1gib.shape_p4_absent.documented_outcome bounded="pool of 7 tables (4 path + 3 allocatable); tree-shaped sparse pre-state (target path, one neighbour word per path table, garbage in allocatable frames); recursive index 300; page-table indices (255,511,0,256)"
+    //@ obligation C02 C02.recursive_update_flags_1gib.shape_p4_absent.error_leaves_every_mapping bounded="pool of 7 tables (4 path + 3 allocatable); tree-shaped sparse pre-state (target path, one neighbour word per path table, garbage in allocatable frames); recursive index 300; page-table indices (255,511,0,256)"
+    //@ obligation C09 C09.recursive_update_flags_1gib.shape_p4_absent.only_dictated_slots_change bounded="pool of 7 tables (4 path + 3 allocatable); tree-shaped sparse pre-state (target path, one neighbour word per path table, garbage in allocatable frames); recursive index 300; page-table indices (255,511,0,256)"
+    //@ obligation C09 C09.recursive_update_flags_1gib.shape_p4_absent.no_frames_requested_or_zeroed bounded="pool of 7 tables (4 path + 3 allocatable); tree-shaped sparse pre-state (target path, one neighbour word per path table, garbage in allocatable frames); recursive index 300; page-table indices (255,511,0,256)"
+    //@ obligation C09 C09.recursive_update_flags_1gib.shape_p4_absent.no_dangling_table_pointer bounded="pool of 7 tables (4 path + 3 allocatable); tree-shaped sparse pre-state (target path, one neighbour word per path table, garbage in allocatable frames); recursive index 300; page-table indices (255,511,0,256)"
+    //@ obligation C09 C09.recursive_update_flags_1gib.shape_p4_absent.no_access_outside_page_tables bounded="pool of 7 tables (4 path + 3 allocatable); tree-shaped sparse pre-state (target path, one neighbour word per path table, garbage in allocatable frames); recursive index 300; page-table indices (255,511,0,256)"
     #[kani::proof]
     #[kani::stub(crate::structures::paging::page_table::PageTable::zero, zero_stub)]
     #[kani::stub(crate::addr::VirtAddr::as_mut_ptr, mmu_trap_as_mut_ptr)]
@@ -1645,13 +1645,13 @@ mod verif_c01_recursive_step_huge {
         kani::cover!(true, "c01_recursive_update_flags_1gib_p3_absent_mid: reachable");
     }
 
-    //@ obligation C02 C02.recursive_update_flags_1gib.shape_p3_absent.documented_outcome tier=thorough bounded="pool of 7 tables (4 path + 3 allocatable); tree-shaped sparse pre-state (target path, one neighbour word per path table, garbage in allocatable frames); recursive index 300; page-table indices (256,0,510,511)"
-    //@ obligation C02 C02.recursive_update_flags_1gib.shape_p3_absent.error_leaves_every_mapping tier=thorough bounded="pool of 7 tables (4 path + 3 allocatable); tree-shaped sparse pre-state (target path, one neighbour word per path table, garbage in allocatable frames); recursive index 300; page-table indices (256,0,510,511)"
-    //@ obligation C09 C09.recursive_update_flags_1gib.shape_p3_absent.only_dictated_slots_change tier=thorough bounded="pool of 7 tables (4 path + 3 allocatable); tree-shaped sparse pre-state (target path, one neighbour word per path table, garbage in allocatable frames); recursive index 300; page-table indices (256,0,510,511)"
-    //@ obligation C09 C09.recursive_update_flags_1gib.shape_p3_absent.no_frames_requested_or_zeroed tier=thorough bounded="pool of 7 tables (4 path + 3 allocatable); tree-shaped sparse pre-state (target path, one neighbour word per path table, garbage in allocatable frames); recursive index 300; page-table indices (256,0,510,511)"
-    //@ obligation C09 C09.recursive_update_flags_1gib.shape_p3_absent.no_dangling_table_pointer tier=thorough bounded="pool of 7 tables (4 path + 3 allocatable); tree-shaped sparse pre-state (target path, one neighbour word per path table, garbage in allocatable frames); recursive index 300; page-table indices (256,0,510,511)"
-    //@ obligation C09 C09.recursive_update_flags_1gib.shape_p3_absent.no_access_outside_page_tables tier=thorough bounded="pool of 7 tables (4 path + 3 allocatable); tree-shaped sparse pre-state (target path, one neighbour word per path table, garbage in allocatable frames); recursive index 300; page-table indices (256,0,510,511)"
-    //@ obligation C20 C20.recursive_update_flags_1gib.uses_recursive_addresses_of_the_page tier=thorough bounded="pool of 7 tables (4 path + 3 allocatable); tree-shaped sparse pre-state (target path, one neighbour word per path table, garbage in allocatable frames); recursive index 300; page-table indices (256,0,510,511)"
+    //@ obligation C02 C02.recursive_update_flags_1gib.shape_p3_absent.documented_outcome bounded="pool of 7 tables (4 path + 3 allocatable); tree-shaped sparse pre-state (target path, one neighbour word per path table, garbage in allocatable frames); recursive index 300; page-table indices (256,0,510,511)"
+    //@ obligation C02 C02.recursive_update_flags_1gib.shape_p3_absent.error_leaves_every_mapping bounded="pool of 7 tables (4 path + 3 allocatable); tree-shaped sparse pre-state (target path, one neighbour word per path table, garbage in allocatable frames); recursive index 300; page-table indices (256,0,510,511)"
+    //@ obligation C09 C09.recursive_update_flags_1gib.shape_p3_absent.only_dictated_slots_change bounded="pool of 7 tables (4 path + 3 allocatable); tree-shaped sparse pre-state (target path, one neighbour word per path table, garbage in allocatable frames); recursive index 300; page-table indices (256,0,510,511)"
+    //@ obligation C09 C09.recursive_update_flags_1gib.shape_p3_absent.no_frames_requested_or_zeroed bounded="pool of 7 tables (4 path + 3 allocatable); tree-shaped sparse pre-state (target path, one neighbour word per path table, garbage in allocatable frames); recursive index 300; page-table indices (256,0,510,511)"
+    //@ obligation C09 C09.recursive_update_flags_1gib.shape_p3_absent.no_dangling_table_pointer bounded="pool of 7 tables (4 path + 3 allocatable); tree-shaped sparse pre-state (target path, one neighbour word per path table, garbage in allocatable frames); recursive index 300; page-table indices (256,0,510,511)"
+    //@ obligation C09 C09.recursive_update_flags_1gib.shape_p3_absent.no_access_outside_page_tables bounded="pool of 7 tables (4 path + 3 allocatable); tree-shaped sparse pre-state (target path, one neighbour word per path table, garbage in allocatable frames); recursive index 300; page-table indices (256,0,510,511)"
+    //@ obligation C20 C20.recursive_update_flags_1gib.uses_recursive_addresses_of_the_page bounded="pool of 7 tables (4 path + 3 allocatable); tree-shaped sparse pre-state (target path, one neighbour word per path table, garbage in allocatable frames); recursive index 300; page-table indices (256,0,510,511)"
     #[kani::proof]
     #[kani::stub(crate::structures::paging::page_table::PageTable::zero, zero_stub)]
     #[kani::stub(crate::addr::VirtAddr::as_mut_ptr, mmu_trap_as_mut_ptr)]
@@ -1660,17 +1660,17 @@ mod verif_c01_recursive_step_huge {
         kani::cover!(true, "c01_recursive_update_flags_1gib_p3_absent_up: reachable");
     }
 
-    //@ obligation C02 C02.recursive_update_flags_1gib.shape_p3_huge.documented_outcome tier=thorough bounded="pool of 7 tables (4 path + 3 allocatable); tree-shaped sparse pre-state (target path, one neighbour word per path table, garbage in allocatable frames); recursive index 300; page-table indices (255,511,0,256)"
-    //@ obligation C01 C01.recursive_update_flags_1gib.shape_p3_huge.target_keeps_frame_and_size tier=thorough bounded="pool of 7 tables (4 path + 3 allocatable); tree-shaped sparse pre-state (target path, one neighbour word per path table, garbage in allocatable frames); recursive index 300; page-table indices (255,511,0,256)"
-    //@ obligation C01 C01.recursive_update_flags_1gib.shape_p3_huge.target_leaf_flags_replaced tier=thorough bounded="pool of 7 tables (4 path + 3 allocatable); tree-shaped sparse pre-state (target path, one neighbour word per path table, garbage in allocatable frames); recursive index 300; page-table indices (255,511,0,256)"
-    //@ obligation C01 C01.recursive_update_flags_1gib.shape_p3_huge.other_addresses_unchanged tier=thorough bounded="pool of 7 tables (4 path + 3 allocatable); tree-shaped sparse pre-state (target path, one neighbour word per path table, garbage in allocatable frames); recursive index 300; page-table indices (255,511,0,256)"
-    //@ obligation C01 C01.recursive_update_flags_1gib.shape_p3_huge.result_reports_page tier=thorough bounded="pool of 7 tables (4 path + 3 allocatable); tree-shaped sparse pre-state (target path, one neighbour word per path table, garbage in allocatable frames); recursive index 300; page-table indices (255,511,0,256)"
-    //@ obligation C11 C11.recursive_update_flags_1gib.shape_p3_huge.token_names_page tier=thorough bounded="pool of 7 tables (4 path + 3 allocatable); tree-shaped sparse pre-state (target path, one neighbour word per path table, garbage in allocatable frames); recursive index 300; page-table indices (255,511,0,256)"
-    //@ obligation C09 C09.recursive_update_flags_1gib.shape_p3_huge.only_dictated_slots_change tier=thorough bounded="pool of 7 tables (4 path + 3 allocatable); tree-shaped sparse pre-state (target path, one neighbour word per path table, garbage in allocatable frames); recursive index 300; page-table indices (255,511,0,256)"
-    //@ obligation C09 C09.recursive_update_flags_1gib.shape_p3_huge.no_frames_requested_or_zeroed tier=thorough bounded="pool of 7 tables (4 path + 3 allocatable); tree-shaped sparse pre-state (target path, one neighbour word per path table, garbage in allocatable frames); recursive index 300; page-table indices (255,511,0,256)"
-    //@ obligation C09 C09.recursive_update_flags_1gib.shape_p3_huge.no_dangling_table_pointer tier=thorough bounded="pool of 7 tables (4 path + 3 allocatable); tree-shaped sparse pre-state (target path, one neighbour word per path table, garbage in allocatable frames); recursive index 300; page-table indices (255,511,0,256)"
-    //@ obligation C09 C09.recursive_update_flags_1gib.shape_p3_huge.no_access_outside_page_tables tier=thorough bounded="pool of 7 tables (4 path + 3 allocatable); tree-shaped sparse pre-state (target path, one neighbour word per path table, garbage in allocatable frames); recursive index 300; page-table indices (255,511,0,256)"
-    //@ obligation C20 C20.recursive_update_flags_1gib.uses_recursive_addresses_of_the_page tier=thorough bounded="pool of 7 tables (4 path + 3 allocatable); tree-shaped sparse pre-state (target path, one neighbour word per path table, garbage in allocatable frames); recursive index 300; page-table indices (255,511,0,256)"
+    //@ obligation C02 C02.recursive_update_flags_1gib.shape_p3_huge.documented_outcome bounded="pool of 7 tables (4 path + 3 allocatable); tree-shaped sparse pre-state (target path, one neighbour word per path table, garbage in allocatable frames); recursive index 300; page-table indices (255,511,0,256)"
+    //@ obligation C01 C01.recursive_update_flags_1gib.shape_p3_huge.target_keeps_frame_and_size bounded="pool of 7 tables (4 path + 3 allocatable); tree-shaped sparse pre-state (target path, one neighbour word per path table, garbage in allocatable frames); recursive index 300; page-table indices (255,511,0,256)"
+    //@ obligation C01 C01.recursive_update_flags_1gib.shape_p3_huge.target_leaf_flags_replaced bounded="pool of 7 tables (4 path + 3 allocatable); tree-shaped sparse pre-state (target path, one neighbour word per path table, garbage in allocatable frames); recursive index 300; page-table indices (255,511,0,256)"
+    //@ obligation C01 C01.recursive_update_flags_1gib.shape_p3_huge.other_addresses_unchanged bounded="pool of 7 tables (4 path + 3 allocatable); tree-shaped sparse pre-state (target path, one neighbour word per path table, garbage in allocatable frames); recursive index 300; page-table indices (255,511,0,256)"
+    //@ obligation C01 C01.recursive_update_flags_1gib.shape_p3_huge.result_reports_page bounded="pool of 7 tables (4 path + 3 allocatable); tree-shaped sparse pre-state (target path, one neighbour word per path table, garbage in allocatable frames); recursive index 300; page-table indices (255,511,0,256)"
+    //@ obligation C11 C11.recursive_update_flags_1gib.shape_p3_huge.token_names_page bounded="pool of 7 tables (4 path + 3 allocatable); tree-shaped sparse pre-state (target path, one neighbour word per path table, garbage in allocatable frames); recursive index 300; page-table indices (255,511,0,256)"
+    //@ obligation C09 C09.recursive_update_flags_1gib.shape_p3_huge.only_dictated_slots_change bounded="pool of 7 tables (4 path + 3 allocatable); tree-shaped sparse pre-state (target path, one neighbour word per path table, garbage in allocatable frames); recursive index 300; page-table indices (255,511,0,256)"
+    //@ obligation C09 C09.recursive_update_flags_1gib.shape_p3_huge.no_frames_requested_or_zeroed bounded="pool of 7 tables (4 path + 3 allocatable); tree-shaped sparse pre-state (target path, one neighbour word per path table, garbage in allocatable frames); recursive index 300; page-table indices (255,511,0,256)"
+    //@ obligation C09 C09.recursive_update_flags_1gib.shape_p3_huge.no_dangling_table_pointer bounded="pool of 7 tables (4 path + 3 allocatable); tree-shaped sparse pre-state (target path, one neighbour word per path table, garbage in allocatable frames); recursive index 300; page-table indices (255,511,0,256)"
+    //@ obligation C09 C09.recursive_update_flags_1gib.shape_p3_huge.no_access_outside_page_tables bounded="pool of 7 tables (4 path + 3 allocatable); tree-shaped sparse pre-state (target path, one neighbour word per path table, garbage in allocatable frames); recursive index 300; page-table indices (255,511,0,256)"
+    //@ obligation C20 C20.recursive_update_flags_1gib.uses_recursive_addresses_of_the_page bounded="pool of 7 tables (4 path + 3 allocatable); tree-shaped sparse pre-state (target path, one neighbour word per path table, garbage in allocatable frames); recursive index 300; page-table indices (255,511,0,256)"
     #[kani::proof]
     #[kani::stub(crate::structures::paging::page_table::PageTable::zero, zero_stub)]
     #[kani::stub(crate::addr::VirtAddr::as_mut_ptr, mmu_trap_as_mut_ptr)]
@@ -1698,14 +1698,14 @@ mod verif_c01_recursive_step_huge {
         kani::cover!(true, "c01_recursive_update_flags_1gib_p3_huge_up: reachable");
     }
 
-    //@ obligation C02 C02.recursive_update_flags_1gib.shape_table_entry.no_success_for_nonexistent_size tier=thorough bounded="pool of 7 tables (4 path + 3 allocatable); tree-shaped sparse pre-state (target path, one neighbour word per path table, garbage in allocatable frames); recursive index 300; page-table indices (255,511,0,256)"
-    //@ obligation C02 C02.recursive_update_flags_1gib.shape_table_entry.documented_outcome tier=thorough bounded="pool of 7 tables (4 path + 3 allocatable); tree-shaped sparse pre-state (target path, one neighbour word per path table, garbage in allocatable frames); recursive index 300; page-table indices (255,511,0,256)"
-    //@ obligation C02 C02.recursive_update_flags_1gib.shape_table_entry.error_leaves_every_mapping tier=thorough bounded="pool of 7 tables (4 path + 3 allocatable); tree-shaped sparse pre-state (target path, one neighbour word per path table, garbage in allocatable frames); recursive index 300; page-table indices (255,511,0,256)"
-    //@ obligation C09 C09.recursive_update_flags_1gib.shape_table_entry.only_dictated_slots_change tier=thorough bounded="pool of 7 tables (4 path + 3 allocatable); tree-shaped sparse pre-state (target path, one neighbour word per path table, garbage in allocatable frames); recursive index 300; page-table indices (255,511,0,256)"
-    //@ obligation C09 C09.recursive_update_flags_1gib.shape_table_entry.no_frames_requested_or_zeroed tier=thorough bounded="pool of 7 tables (4 path + 3 allocatable); tree-shaped sparse pre-state (target path, one neighbour word per path table, garbage in allocatable frames); recursive index 300; page-table indices (255,511,0,256)"
-    //@ obligation C09 C09.recursive_update_flags_1gib.shape_table_entry.no_dangling_table_pointer tier=thorough bounded="pool of 7 tables (4 path + 3 allocatable); tree-shaped sparse pre-state (target path, one neighbour word per path table, garbage in allocatable frames); recursive index 300; page-table indices (255,511,0,256)"
-    //@ obligation C09 C09.recursive_update_flags_1gib.shape_table_entry.no_access_outside_page_tables tier=thorough bounded="pool of 7 tables (4 path + 3 allocatable); tree-shaped sparse pre-state (target path, one neighbour word per path table, garbage in allocatable frames); recursive index 300; page-table indices (255,511,0,256)"
-    //@ obligation C20 C20.recursive_update_flags_1gib.uses_recursive_addresses_of_the_page tier=thorough bounded="pool of 7 tables (4 path + 3 allocatable); tree-shaped sparse pre-state (target path, one neighbour word per path table, garbage in allocatable frames); recursive index 300; page-table indices (255,511,0,256)"
+    //@ obligation C02 C02.recursive_update_flags_1gib.shape_table_entry.no_success_for_nonexistent_size bounded="pool of 7 tables (4 path + 3 allocatable); tree-shaped sparse pre-state (target path, one neighbour word per path table, garbage in allocatable frames); recursive index 300; page-table indices (255,511,0,256)"
+    //@ obligation C02 C02.recursive_update_flags_1gib.shape_table_entry.documented_outcome bounded="pool of 7 tables (4 path + 3 allocatable); tree-shaped sparse pre-state (target path, one neighbour word per path table, garbage in allocatable frames); recursive index 300; page-table indices (255,511,0,256)"
+    //@ obligation C02 C02.recursive_update_flags_1gib.shape_table_entry.error_leaves_every_mapping bounded="pool of 7 tables (4 path + 3 allocatable); tree-shaped sparse pre-state (target path, one neighbour word per path table, garbage in allocatable frames); recursive index 300; page-table indices (255,511,0,256)"
+    //@ obligation C09 C09.recursive_update_flags_1gib.shape_table_entry.only_dictated_slots_change bounded="pool of 7 tables (4 path + 3 allocatable); tree-shaped sparse pre-state (target path, one neighbour word per path table, garbage in allocatable frames); recursive index 300; page-table indices (255,511,0,256)"
+    //@ obligation C09 C09.recursive_update_flags_1gib.shape_table_entry.no_frames_requested_or_zeroed bounded="pool of 7 tables (4 path + 3 allocatable); tree-shaped sparse pre-state (target path, one neighbour word per path table, garbage in allocatable frames); recursive index 300; page-table indices (255,511,0,256)"
+    //@ obligation C09 C09.recursive_update_flags_1gib.shape_table_entry.no_dangling_table_pointer bounded="pool of 7 tables (4 path + 3 allocatable); tree-shaped sparse pre-state (target path, one neighbour word per path table, garbage in allocatable frames); recursive index 300; page-table indices (255,511,0,256)"
+    //@ obligation C09 C09.recursive_update_flags_1gib.shape_table_entry.no_access_outside_page_tables bounded="pool of 7 tables (4 path + 3 allocatable); tree-shaped sparse pre-state (target path, one neighbour word per path table, garbage in allocatable frames); recursive index 300; page-table indices (255,511,0,256)"
+    //@ obligation C20 C20.recursive_update_flags_1gib.uses_recursive_addresses_of_the_page bounded="pool of 7 tables (4 path + 3 allocatable); tree-shaped sparse pre-state (target path, one neighbour word per path table, garbage in allocatable frames); recursive index 300; page-table indices (255,511,0,256)"
     #[kani::proof]
     #[kani::stub(crate::structures::paging::page_table::PageTable::zero, zero_stub)]
     #[kani::stub(crate::addr::VirtAddr::as_mut_ptr, mmu_trap_as_mut_ptr)]
@@ -1750,18 +1750,18 @@ mod verif_c01_recursive_step_huge {
         kani::cover!(true, "c01_recursive_update_flags_1gib_sym_mid: reachable");
     }
 
-    //@ obligation C02 C02.recursive_update_flags_1gib.shape_sym.documented_outcome tier=thorough bounded="pool of 7 tables (4 path + 3 allocatable); tree-shaped sparse pre-state (target path, one neighbour word per path table, garbage in allocatable frames); recursive index 300; page-table indices (256,0,510,511)"
-    //@ obligation C01 C01.recursive_update_flags_1gib.shape_sym.target_keeps_frame_and_size tier=thorough bounded="pool of 7 tables (4 path + 3 allocatable); tree-shaped sparse pre-state (target path, one neighbour word per path table, garbage in allocatable frames); recursive index 300; page-table indices (256,0,510,511)"
-    //@ obligation C01 C01.recursive_update_flags_1gib.shape_sym.target_leaf_flags_replaced tier=thorough bounded="pool of 7 tables (4 path + 3 allocatable); tree-shaped sparse pre-state (target path, one neighbour word per path table, garbage in allocatable frames); recursive index 300; page-table indices (256,0,510,511)"
-    //@ obligation C01 C01.recursive_update_flags_1gib.shape_sym.other_addresses_unchanged tier=thorough bounded="pool of 7 tables (4 path + 3 allocatable); tree-shaped sparse pre-state (target path, one neighbour word per path table, garbage in allocatable frames); recursive index 300; page-table indices (256,0,510,511)"
-    //@ obligation C01 C01.recursive_update_flags_1gib.shape_sym.result_reports_page tier=thorough bounded="pool of 7 tables (4 path + 3 allocatable); tree-shaped sparse pre-state (target path, one neighbour word per path table, garbage in allocatable frames); recursive index 300; page-table indices (256,0,510,511)"
-    //@ obligation C11 C11.recursive_update_flags_1gib.shape_sym.token_names_page tier=thorough bounded="pool of 7 tables (4 path + 3 allocatable); tree-shaped sparse pre-state (target path, one neighbour word per path table, garbage in allocatable frames); recursive index 300; page-table indices (256,0,510,511)"
-    //@ obligation C02 C02.recursive_update_flags_1gib.shape_sym.error_leaves_every_mapping tier=thorough bounded="pool of 7 tables (4 path + 3 allocatable); tree-shaped sparse pre-state (target path, one neighbour word per path table, garbage in allocatable frames); recursive index 300; page-table indices (256,0,510,511)"
-    //@ obligation C09 C09.recursive_update_flags_1gib.shape_sym.only_dictated_slots_change tier=thorough bounded="pool of 7 tables (4 path + 3 allocatable); tree-shaped sparse pre-state (target path, one neighbour word per path table, garbage in allocatable frames); recursive index 300; page-table indices (256,0,510,511)"
-    //@ obligation C09 C09.recursive_update_flags_1gib.shape_sym.no_frames_requested_or_zeroed tier=thorough bounded="pool of 7 tables (4 path + 3 allocatable); tree-shaped sparse pre-state (target path, one neighbour word per path table, garbage in allocatable frames); recursive index 300; page-table indices (256,0,510,511)"
-    //@ obligation C09 C09.recursive_update_flags_1gib.shape_sym.no_dangling_table_pointer tier=thorough bounded="pool of 7 tables (4 path + 3 allocatable); tree-shaped sparse pre-state (target path, one neighbour word per path table, garbage in allocatable frames); recursive index 300; page-table indices (256,0,510,511)"
-    //@ obligation C09 C09.recursive_update_flags_1gib.shape_sym.no_access_outside_page_tables tier=thorough bounded="pool of 7 tables (4 path + 3 allocatable); tree-shaped sparse pre-state (target path, one neighbour word per path table, garbage in allocatable frames); recursive index 300; page-table indices (256,0,510,511)"
-    //@ obligation C20 C20.recursive_update_flags_1gib.uses_recursive_addresses_of_the_page tier=thorough bounded="pool of 7 tables (4 path + 3 allocatable); tree-shaped sparse pre-state (target path, one neighbour word per path table, garbage in allocatable frames); recursive index 300; page-table indices (256,0,510,511)"
+    //@ obligation C02 C02.recursive_update_flags_1gib.shape_sym.documented_outcome bounded="pool of 7 tables (4 path + 3 allocatable); tree-shaped sparse pre-state (target path, one neighbour word per path table, garbage in allocatable frames); recursive index 300; page-table indices (256,0,510,511)"
+    //@ obligation C01 C01.recursive_update_flags_1gib.shape_sym.target_keeps_frame_and_size bounded="pool of 7 tables (4 path + 3 allocatable); tree-shaped sparse pre-state (target path, one neighbour word per path table, garbage in allocatable frames); recursive index 300; page-table indices (256,0,510,511)"
+    //@ obligation C01 C01.recursive_update_flags_1gib.shape_sym.target_leaf_flags_replaced bounded="pool of 7 tables (4 path + 3 allocatable); tree-shaped sparse pre-state (target path, one neighbour word per path table, garbage in allocatable frames); recursive index 300; page-table indices (256,0,510,511)"
+    //@ obligation C01 C01.recursive_update_flags_1gib.shape_sym.other_addresses_unchanged bounded="pool of 7 tables (4 path + 3 allocatable); tree-shaped sparse pre-state (target path, one neighbour word per path table, garbage in allocatable frames); recursive index 300; page-table indices (256,0,510,511)"
+    //@ obligation C01 C01.recursive_update_flags_1gib.shape_sym.result_reports_page bounded="pool of 7 tables (4 path + 3 allocatable); tree-shaped sparse pre-state (target path, one neighbour word per path table, garbage in allocatable frames); recursive index 300; page-table indices (256,0,510,511)"
+    //@ obligation C11 C11.recursive_update_flags_1gib.shape_sym.token_names_page bounded="pool of 7 tables (4 path + 3 allocatable); tree-shaped sparse pre-state (target path, one neighbour word per path table, garbage in allocatable frames); recursive index 300; page-table indices (256,0,510,511)"
+    //@ obligation C02 C02.recursive_update_flags_1gib.shape_sym.error_leaves_every_mapping bounded="pool of 7 tables (4 path + 3 allocatable); tree-shaped sparse pre-state (target path, one neighbour word per path table, garbage in allocatable frames); recursive index 300; page-table indices (256,0,510,511)"
+    //@ obligation C09 C09.recursive_update_flags_1gib.shape_sym.only_dictated_slots_change bounded="pool of 7 tables (4 path + 3 allocatable); tree-shaped sparse pre-state (target path, one neighbour word per path table, garbage in allocatable frames); recursive index 300; page-table indices (256,0,510,511)"
+    //@ obligation C09 C09.recursive_update_flags_1gib.shape_sym.no_frames_requested_or_zeroed bounded="pool of 7 tables (4 path + 3 allocatable); tree-shaped sparse pre-state (target path, one neighbour word per path table, garbage in allocatable frames); recursive index 300; page-table indices (256,0,510,511)"
+    //@ obligation C09 C09.recursive_update_flags_1gib.shape_sym.no_dangling_table_pointer bounded="pool of 7 tables (4 path + 3 allocatable); tree-shaped sparse pre-state (target path, one neighbour word per path table, garbage in allocatable frames); recursive index 300; page-table indices (256,0,510,511)"
+    //@ obligation C09 C09.recursive_update_flags_1gib.shape_sym.no_access_outside_page_tables bounded="pool of 7 tables (4 path + 3 allocatable); tree-shaped sparse pre-state (target path, one neighbour word per path table, garbage in allocatable frames); recursive index 300; page-table indices (256,0,510,511)"
+    //@ obligation C20 C20.recursive_update_flags_1gib.uses_recursive_addresses_of_the_page bounded="pool of 7 tables (4 path + 3 allocatable); tree-shaped sparse pre-state (target path, one neighbour word per path table, garbage in allocatable frames); recursive index 300; page-table indices (256,0,510,511)"
     #[kani::proof]
     #[kani::stub(crate::structures::paging::page_table::PageTable::zero, zero_stub)]
     #[kani::stub(crate::addr::VirtAddr::as_mut_ptr, mmu_trap_as_mut_ptr)]
@@ -1783,11 +1783,11 @@ mod verif_c01_recursive_step_huge {
         kani::cover!(true, "c01_recursive_translate_page_2mib_p4_absent_mid: reachable");
     }
 
-    //@ obligation C02 C02.recursive_translate_page_2mib.shape_p4_absent.documented_outcome tier=thorough bounded="pool of 7 tables (4 path + 3 allocatable); tree-shaped sparse pre-state (target path, one neighbour word per path table, garbage in allocatable frames); recursive index 300; page-table indices (256,0,510,511)"
-    //@ obligation C01 C01.recursive_translate_page_2mib.shape_p4_absent.agrees_with_walk tier=thorough bounded="pool of 7 tables (4 path + 3 allocatable); tree-shaped sparse pre-state (target path, one neighbour word per path table, garbage in allocatable frames); recursive index 300; page-table indices (256,0,510,511)"
-    //@ obligation C09 C09.recursive_translate_page_2mib.shape_p4_absent.writes_nothing tier=thorough bounded="pool of 7 tables (4 path + 3 allocatable); tree-shaped sparse pre-state (target path, one neighbour word per path table, garbage in allocatable frames); recursive index 300; page-table indices (256,0,510,511)"
-    //@ obligation C09 C09.recursive_translate_page_2mib.shape_p4_absent.no_frames_requested_or_zeroed tier=thorough bounded="pool of 7 tables (4 path + 3 allocatable); tree-shaped sparse pre-state (target path, one neighbour word per path table, garbage in allocatable frames); recursive index 300; page-table indices (256,0,510,511)"
-    //@ obligation C09 C09.recursive_translate_page_2mib.shape_p4_absent.no_access_outside_page_tables tier=thorough bounded="pool of 7 tables (4 path + 3 allocatable); tree-shaped sparse pre-state (target path, one neighbour word per path table, garbage in allocatable frames); recursive index 300; page-table indices (256,0,510,511)"
+    //@ obligation C02 C02.recursive_translate_page_2mib.shape_p4_absent.documented_outcome bounded="pool of 7 tables (4 path + 3 allocatable); tree-shaped sparse pre-state (target path, one neighbour word per path table, garbage in allocatable frames); recursive index 300; page-table indices (256,0,510,511)"
+    //@ obligation C01 C01.recursive_translate_page_2mib.shape_p4_absent.agrees_with_walk bounded="pool of 7 tables (4 path + 3 allocatable); tree-shaped sparse pre-state (target path, one neighbour word per path table, garbage in allocatable frames); recursive index 300; page-table indices (256,0,510,511)"
+    //@ obligation C09 C09.recursive_translate_page_2mib.shape_p4_absent.writes_nothing bounded="pool of 7 tables (4 path + 3 allocatable); tree-shaped sparse pre-state (target path, one neighbour word per path table, garbage in allocatable frames); recursive index 300; page-table indices (256,0,510,511)"
+    //@ obligation C09 C09.recursive_translate_page_2mib.shape_p4_absent.no_frames_requested_or_zeroed bounded="pool of 7 tables (4 path + 3 allocatable); tree-shaped sparse pre-state (target path, one neighbour word per path table, garbage in allocatable frames); recursive index 300; page-table indices (256,0,510,511)"
+    //@ obligation C09 C09.recursive_translate_page_2mib.shape_p4_absent.no_access_outside_page_tables bounded="pool of 7 tables (4 path + 3 allocatable); tree-shaped sparse pre-state (target path, one neighbour word per path table, garbage in allocatable frames); recursive index 300; page-table indices (256,0,510,511)"
     #[kani::proof]
     #[kani::stub(crate::structures::paging::page_table::PageTable::zero, zero_stub)]
     #[kani::stub(crate::addr::VirtAddr::as_mut_ptr, mmu_trap_as_mut_ptr)]
@@ -1810,12 +1810,12 @@ mod verif_c01_recursive_step_huge {
         kani::cover!(true, "c01_recursive_translate_page_2mib_p3_absent_mid: reachable");
     }
 
-    //@ obligation C02 C02.recursive_translate_page_2mib.shape_p3_absent.documented_outcome tier=thorough bounded="pool of 7 tables (4 path + 3 allocatable); tree-shaped sparse pre-state (target path, one neighbour word per path table, garbage in allocatable frames); recursive index 300; page-table indices (256,0,510,511)"
-    //@ obligation C01 C01.recursive_translate_page_2mib.shape_p3_absent.agrees_with_walk tier=thorough bounded="pool of 7 tables (4 path + 3 allocatable); tree-shaped sparse pre-state (target path, one neighbour word per path table, garbage in allocatable frames); recursive index 300; page-table indices (256,0,510,511)"
-    //@ obligation C09 C09.recursive_translate_page_2mib.shape_p3_absent.writes_nothing tier=thorough bounded="pool of 7 tables (4 path + 3 allocatable); tree-shaped sparse pre-state (target path, one neighbour word per path table, garbage in allocatable frames); recursive index 300; page-table indices (256,0,510,511)"
-    //@ obligation C09 C09.recursive_translate_page_2mib.shape_p3_absent.no_frames_requested_or_zeroed tier=thorough bounded="pool of 7 tables (4 path + 3 allocatable); tree-shaped sparse pre-state (target path, one neighbour word per path table, garbage in allocatable frames); recursive index 300; page-table indices (256,0,510,511)"
-    //@ obligation C09 C09.recursive_translate_page_2mib.shape_p3_absent.no_access_outside_page_tables tier=thorough bounded="pool of 7 tables (4 path + 3 allocatable); tree-shaped sparse pre-state (target path, one neighbour word per path table, garbage in allocatable frames); recursive index 300; page-table indices (256,0,510,511)"
-    //@ obligation C20 C20.recursive_translate_page_2mib.uses_recursive_addresses_of_the_page tier=thorough bounded="pool of 7 tables (4 path + 3 allocatable); tree-shaped sparse pre-state (target path, one neighbour word per path table, garbage in allocatable frames); recursive index 300; page-table indices (256,0,510,511)"
+    //@ obligation C02 C02.recursive_translate_page_2mib.shape_p3_absent.documented_outcome bounded="pool of 7 tables (4 path + 3 allocatable); tree-shaped sparse pre-state (target path, one neighbour word per path table, garbage in allocatable frames); recursive index 300; page-table indices (256,0,510,511)"
+    //@ obligation C01 C01.recursive_translate_page_2mib.shape_p3_absent.agrees_with_walk bounded="pool of 7 tables (4 path + 3 allocatable); tree-shaped sparse pre-state (target path, one neighbour word per path table, garbage in allocatable frames); recursive index 300; page-table indices (256,0,510,511)"
+    //@ obligation C09 C09.recursive_translate_page_2mib.shape_p3_absent.writes_nothing bounded="pool of 7 tables (4 path + 3 allocatable); tree-shaped sparse pre-state (target path, one neighbour word per path table, garbage in allocatable frames); recursive index 300; page-table indices (256,0,510,511)"
+    //@ obligation C09 C09.recursive_translate_page_2mib.shape_p3_absent.no_frames_requested_or_zeroed bounded="pool of 7 tables (4 path + 3 allocatable); tree-shaped sparse pre-state (target path, one neighbour word per path table, garbage in allocatable frames); recursive index 300; page-table indices (256,0,510,511)"
+    //@ obligation C09 C09.recursive_translate_page_2mib.shape_p3_absent.no_access_outside_page_tables bounded="pool of 7 tables (4 path + 3 allocatable); tree-shaped sparse pre-state (target path, one neighbour word per path table, garbage in allocatable frames); recursive index 300; page-table indices (256,0,510,511)"
+    //@ obligation C20 C20.recursive_translate_page_2mib.uses_recursive_addresses_of_the_page bounded="pool of 7 tables (4 path + 3 allocatable); tree-shaped sparse pre-state (target path, one neighbour word per path table, garbage in allocatable frames); recursive index 300; page-table indices (256,0,510,511)"
     #[kani::proof]
     #[kani::stub(crate::structures::paging::page_table::PageTable::zero, zero_stub)]
     #[kani::stub(crate::addr::VirtAddr::as_mut_ptr, mmu_trap_as_mut_ptr)]
@@ -1839,13 +1839,13 @@ mod verif_c01_recursive_step_huge {
         kani::cover!(true, "c01_recursive_translate_page_2mib_p3_huge_mid: reachable");
     }
 
-    //@ obligation C02 C02.recursive_translate_page_2mib.shape_p3_huge.huge_parent_is_reported_not_walked tier=thorough bounded="pool of 7 tables (4 path + 3 allocatable); tree-shaped sparse pre-state (target path, one neighbour word per path table, garbage in allocatable frames); recursive index 300; page-table indices (256,0,510,511)"
-    //@ obligation C02 C02.recursive_translate_page_2mib.shape_p3_huge.documented_outcome tier=thorough bounded="pool of 7 tables (4 path + 3 allocatable); tree-shaped sparse pre-state (target path, one neighbour word per path table, garbage in allocatable frames); recursive index 300; page-table indices (256,0,510,511)"
-    //@ obligation C01 C01.recursive_translate_page_2mib.shape_p3_huge.agrees_with_walk tier=thorough bounded="pool of 7 tables (4 path + 3 allocatable); tree-shaped sparse pre-state (target path, one neighbour word per path table, garbage in allocatable frames); recursive index 300; page-table indices (256,0,510,511)"
-    //@ obligation C09 C09.recursive_translate_page_2mib.shape_p3_huge.writes_nothing tier=thorough bounded="pool of 7 tables (4 path + 3 allocatable); tree-shaped sparse pre-state (target path, one neighbour word per path table, garbage in allocatable frames); recursive index 300; page-table indices (256,0,510,511)"
-    //@ obligation C09 C09.recursive_translate_page_2mib.shape_p3_huge.no_frames_requested_or_zeroed tier=thorough bounded="pool of 7 tables (4 path + 3 allocatable); tree-shaped sparse pre-state (target path, one neighbour word per path table, garbage in allocatable frames); recursive index 300; page-table indices (256,0,510,511)"
-    //@ obligation C09 C09.recursive_translate_page_2mib.shape_p3_huge.no_access_outside_page_tables tier=thorough bounded="pool of 7 tables (4 path + 3 allocatable); tree-shaped sparse pre-state (target path, one neighbour word per path table, garbage in allocatable frames); recursive index 300; page-table indices (256,0,510,511)"
-    //@ obligation C20 C20.recursive_translate_page_2mib.uses_recursive_addresses_of_the_page tier=thorough bounded="pool of 7 tables (4 path + 3 allocatable); tree-shaped sparse pre-state (target path, one neighbour word per path table, garbage in allocatable frames); recursive index 300; page-table indices (256,0,510,511)"
+    //@ obligation C02 C02.recursive_translate_page_2mib.shape_p3_huge.huge_parent_is_reported_not_walked bounded="pool of 7 tables (4 path + 3 allocatable); tree-shaped sparse pre-state (target path, one neighbour word per path table, garbage in allocatable frames); recursive index 300; page-table indices (256,0,510,511)"
+    //@ obligation C02 C02.recursive_translate_page_2mib.shape_p3_huge.documented_outcome bounded="pool of 7 tables (4 path + 3 allocatable); tree-shaped sparse pre-state (target path, one neighbour word per path table, garbage in allocatable frames); recursive index 300; page-table indices (256,0,510,511)"
+    //@ obligation C01 C01.recursive_translate_page_2mib.shape_p3_huge.agrees_with_walk bounded="pool of 7 tables (4 path + 3 allocatable); tree-shaped sparse pre-state (target path, one neighbour word per path table, garbage in allocatable frames); recursive index 300; page-table indices (256,0,510,511)"
+    //@ obligation C09 C09.recursive_translate_page_2mib.shape_p3_huge.writes_nothing bounded="pool of 7 tables (4 path + 3 allocatable); tree-shaped sparse pre-state (target path, one neighbour word per path table, garbage in allocatable frames); recursive index 300; page-table indices (256,0,510,511)"
+    //@ obligation C09 C09.recursive_translate_page_2mib.shape_p3_huge.no_frames_requested_or_zeroed bounded="pool of 7 tables (4 path + 3 allocatable); tree-shaped sparse pre-state (target path, one neighbour word per path table, garbage in allocatable frames); recursive index 300; page-table indices (256,0,510,511)"
+    //@ obligation C09 C09.recursive_translate_page_2mib.shape_p3_huge.no_access_outside_page_tables bounded="pool of 7 tables (4 path + 3 allocatable); tree-shaped sparse pre-state (target path, one neighbour word per path table, garbage in allocatable frames); recursive index 300; page-table indices (256,0,510,511)"
+    //@ obligation C20 C20.recursive_translate_page_2mib.uses_recursive_addresses_of_the_page bounded="pool of 7 tables (4 path + 3 allocatable); tree-shaped sparse pre-state (target path, one neighbour word per path table, garbage in allocatable frames); recursive index 300; page-table indices (256,0,510,511)"
     #[kani::proof]
     #[kani::stub(crate::structures::paging::page_table::PageTable::zero, zero_stub)]
     #[kani::stub(crate::addr::VirtAddr::as_mut_ptr, mmu_trap_as_mut_ptr)]
@@ -1854,12 +1854,12 @@ mod verif_c01_recursive_step_huge {
         kani::cover!(true, "c01_recursive_translate_page_2mib_p3_huge_up: reachable");
     }
 
-    //@ obligation C02 C02.recursive_translate_page_2mib.shape_p2_absent.documented_outcome tier=thorough bounded="pool of 7 tables (4 path + 3 allocatable); tree-shaped sparse pre-state (target path, one neighbour word per path table, garbage in allocatable frames); recursive index 300; page-table indices (255,511,0,256)"
-    //@ obligation C01 C01.recursive_translate_page_2mib.shape_p2_absent.agrees_with_walk tier=thorough bounded="pool of 7 tables (4 path + 3 allocatable); tree-shaped sparse pre-state (target path, one neighbour word per path table, garbage in allocatable frames); recursive index 300; page-table indices (255,511,0,256)"
-    //@ obligation C09 C09.recursive_translate_page_2mib.shape_p2_absent.writes_nothing tier=thorough bounded="pool of 7 tables (4 path + 3 allocatable); tree-shaped sparse pre-state (target path, one neighbour word per path table, garbage in allocatable frames); recursive index 300; page-table indices (255,511,0,256)"
-    //@ obligation C09 C09.recursive_translate_page_2mib.shape_p2_absent.no_frames_requested_or_zeroed tier=thorough bounded="pool of 7 tables (4 path + 3 allocatable); tree-shaped sparse pre-state (target path, one neighbour word per path table, garbage in allocatable frames); recursive index 300; page-table indices (255,511,0,256)"
-    //@ obligation C09 C09.recursive_translate_page_2mib.shape_p2_absent.no_access_outside_page_tables tier=thorough bounded="pool of 7 tables (4 path + 3 allocatable); tree-shaped sparse pre-state (target path, one neighbour word per path table, garbage in allocatable frames); recursive index 300; page-table indices (255,511,0,256)"
-    //@ obligation C20 C20.recursive_translate_page_2mib.uses_recursive_addresses_of_the_page tier=thorough bounded="pool of 7 tables (4 path + 3 allocatable); tree-shaped sparse pre-state (target path, one neighbour word per path table, garbage in allocatable frames); recursive index 300; page-table indices (255,511,0,256)"
+    //@ obligation C02 C02.recursive_translate_page_2mib.shape_p2_absent.documented_outcome bounded="pool of 7 tables (4 path + 3 allocatable); tree-shaped sparse pre-state (target path, one neighbour word per path table, garbage in allocatable frames); recursive index 300; page-table indices (255,511,0,256)"
+    //@ obligation C01 C01.recursive_translate_page_2mib.shape_p2_absent.agrees_with_walk bounded="pool of 7 tables (4 path + 3 allocatable); tree-shaped sparse pre-state (target path, one neighbour word per path table, garbage in allocatable frames); recursive index 300; page-table indices (255,511,0,256)"
+    //@ obligation C09 C09.recursive_translate_page_2mib.shape_p2_absent.writes_nothing bounded="pool of 7 tables (4 path + 3 allocatable); tree-shaped sparse pre-state (target path, one neighbour word per path table, garbage in allocatable frames); recursive index 300; page-table indices (255,511,0,256)"
+    //@ obligation C09 C09.recursive_translate_page_2mib.shape_p2_absent.no_frames_requested_or_zeroed bounded="pool of 7 tables (4 path + 3 allocatable); tree-shaped sparse pre-state (target path, one neighbour word per path table, garbage in allocatable frames); recursive index 300; page-table indices (255,511,0,256)"
+    //@ obligation C09 C09.recursive_translate_page_2mib.shape_p2_absent.no_access_outside_page_tables bounded="pool of 7 tables (4 path + 3 allocatable); tree-shaped sparse pre-state (target path, one neighbour word per path table, garbage in allocatable frames); recursive index 300; page-table indices (255,511,0,256)"
+    //@ obligation C20 C20.recursive_translate_page_2mib.uses_recursive_addresses_of_the_page bounded="pool of 7 tables (4 path + 3 allocatable); tree-shaped sparse pre-state (target path, one neighbour word per path table, garbage in allocatable frames); recursive index 300; page-table indices (255,511,0,256)"
     #[kani::proof]
     #[kani::stub(crate::structures::paging::page_table::PageTable::zero, zero_stub)]
     #[kani::stub(crate::addr::VirtAddr::as_mut_ptr, mmu_trap_as_mut_ptr)]
@@ -1924,12 +1924,12 @@ mod verif_c01_recursive_step_huge {
         kani::cover!(true, "c01_recursive_translate_page_2mib_table_entry_mid: reachable");
     }
 
-    //@ obligation C02 C02.recursive_translate_page_2mib.shape_table_entry.no_success_for_nonexistent_size tier=thorough bounded="pool of 7 tables (4 path + 3 allocatable); tree-shaped sparse pre-state (target path, one neighbour word per path table, garbage in allocatable frames); recursive index 300; page-table indices (256,0,510,511)"
-    //@ obligation C02 C02.recursive_translate_page_2mib.shape_table_entry.documented_outcome tier=thorough bounded="pool of 7 tables (4 path + 3 allocatable); tree-shaped sparse pre-state (target path, one neighbour word per path table, garbage in allocatable frames); recursive index 300; page-table indices (256,0,510,511)"
-    //@ obligation C09 C09.recursive_translate_page_2mib.shape_table_entry.writes_nothing tier=thorough bounded="pool of 7 tables (4 path + 3 allocatable); tree-shaped sparse pre-state (target path, one neighbour word per path table, garbage in allocatable frames); recursive index 300; page-table indices (256,0,510,511)"
-    //@ obligation C09 C09.recursive_translate_page_2mib.shape_table_entry.no_frames_requested_or_zeroed tier=thorough bounded="pool of 7 tables (4 path + 3 allocatable); tree-shaped sparse pre-state (target path, one neighbour word per path table, garbage in allocatable frames); recursive index 300; page-table indices (256,0,510,511)"
-    //@ obligation C09 C09.recursive_translate_page_2mib.shape_table_entry.no_access_outside_page_tables tier=thorough bounded="pool of 7 tables (4 path + 3 allocatable); tree-shaped sparse pre-state (target path, one neighbour word per path table, garbage in allocatable frames); recursive index 300; page-table indices (256,0,510,511)"
-    //@ obligation C20 C20.recursive_translate_page_2mib.uses_recursive_addresses_of_the_page tier=thorough bounded="pool of 7 tables (4 path + 3 allocatable); tree-shaped sparse pre-state (target path, one neighbour word per path table, garbage in allocatable frames); recursive index 300; page-table indices (256,0,510,511)"
+    //@ obligation C02 C02.recursive_translate_page_2mib.shape_table_entry.no_success_for_nonexistent_size bounded="pool of 7 tables (4 path + 3 allocatable); tree-shaped sparse pre-state (target path, one neighbour word per path table, garbage in allocatable frames); recursive index 300; page-table indices (256,0,510,511)"
+    //@ obligation C02 C02.recursive_translate_page_2mib.shape_table_entry.documented_outcome bounded="pool of 7 tables (4 path + 3 allocatable); tree-shaped sparse pre-state (target path, one neighbour word per path table, garbage in allocatable frames); recursive index 300; page-table indices (256,0,510,511)"
+    //@ obligation C09 C09.recursive_translate_page_2mib.shape_table_entry.writes_nothing bounded="pool of 7 tables (4 path + 3 allocatable); tree-shaped sparse pre-state (target path, one neighbour word per path table, garbage in allocatable frames); recursive index 300; page-table indices (256,0,510,511)"
+    //@ obligation C09 C09.recursive_translate_page_2mib.shape_table_entry.no_frames_requested_or_zeroed bounded="pool of 7 tables (4 path + 3 allocatable); tree-shaped sparse pre-state (target path, one neighbour word per path table, garbage in allocatable frames); recursive index 300; page-table indices (256,0,510,511)"
+    //@ obligation C09 C09.recursive_translate_page_2mib.shape_table_entry.no_access_outside_page_tables bounded="pool of 7 tables (4 path + 3 allocatable); tree-shaped sparse pre-state (target path, one neighbour word per path table, garbage in allocatable frames); recursive index 300; page-table indices (256,0,510,511)"
+    //@ obligation C20 C20.recursive_translate_page_2mib.uses_recursive_addresses_of_the_page bounded="pool of 7 tables (4 path + 3 allocatable); tree-shaped sparse pre-state (target path, one neighbour word per path table, garbage in allocatable frames); recursive index 300; page-table indices (256,0,510,511)"
     #[kani::proof]
     #[kani::stub(crate::structures::paging::page_table::PageTable::zero, zero_stub)]
     #[kani::stub(crate::addr::VirtAddr::as_mut_ptr, mmu_trap_as_mut_ptr)]
@@ -1952,12 +1952,12 @@ mod verif_c01_recursive_step_huge {
         kani::cover!(true, "c01_recursive_translate_page_2mib_sym_mid: reachable");
     }
 
-    //@ obligation C02 C02.recursive_translate_page_2mib.shape_sym.documented_outcome tier=thorough bounded="pool of 7 tables (4 path + 3 allocatable); tree-shaped sparse pre-state (target path, one neighbour word per path table, garbage in allocatable frames); recursive index 300; page-table indices (256,0,510,511)"
-    //@ obligation C01 C01.recursive_translate_page_2mib.shape_sym.agrees_with_walk tier=thorough bounded="pool of 7 tables (4 path + 3 allocatable); tree-shaped sparse pre-state (target path, one neighbour word per path table, garbage in allocatable frames); recursive index 300; page-table indices (256,0,510,511)"
-    //@ obligation C09 C09.recursive_translate_page_2mib.shape_sym.writes_nothing tier=thorough bounded="pool of 7 tables (4 path + 3 allocatable); tree-shaped sparse pre-state (target path, one neighbour word per path table, garbage in allocatable frames); recursive index 300; page-table indices (256,0,510,511)"
-    //@ obligation C09 C09.recursive_translate_page_2mib.shape_sym.no_frames_requested_or_zeroed tier=thorough bounded="pool of 7 tables (4 path + 3 allocatable); tree-shaped sparse pre-state (target path, one neighbour word per path table, garbage in allocatable frames); recursive index 300; page-table indices (256,0,510,511)"
-    //@ obligation C09 C09.recursive_translate_page_2mib.shape_sym.no_access_outside_page_tables tier=thorough bounded="pool of 7 tables (4 path + 3 allocatable); tree-shaped sparse pre-state (target path, one neighbour word per path table, garbage in allocatable frames); recursive index 300; page-table indices (256,0,510,511)"
-    //@ obligation C20 C20.recursive_translate_page_2mib.uses_recursive_addresses_of_the_page tier=thorough bounded="pool of 7 tables (4 path + 3 allocatable); tree-shaped sparse pre-state (target path, one neighbour word per path table, garbage in allocatable frames); recursive index 300; page-table indices (256,0,510,511)"
+    //@ obligation C02 C02.recursive_translate_page_2mib.shape_sym.documented_outcome bounded="pool of 7 tables (4 path + 3 allocatable); tree-shaped sparse pre-state (target path, one neighbour word per path table, garbage in allocatable frames); recursive index 300; page-table indices (256,0,510,511)"
+    //@ obligation C01 C01.recursive_translate_page_2mib.shape_sym.agrees_with_walk bounded="pool of 7 tables (4 path + 3 allocatable); tree-shaped sparse pre-state (target path, one neighbour word per path table, garbage in allocatable frames); recursive index 300; page-table indices (256,0,510,511)"
+    //@ obligation C09 C09.recursive_translate_page_2mib.shape_sym.writes_nothing bounded="pool of 7 tables (4 path + 3 allocatable); tree-shaped sparse pre-state (target path, one neighbour word per path table, garbage in allocatable frames); recursive index 300; page-table indices (256,0,510,511)"
+    //@ obligation C09 C09.recursive_translate_page_2mib.shape_sym.no_frames_requested_or_zeroed bounded="pool of 7 tables (4 path + 3 allocatable); tree-shaped sparse pre-state (target path, one neighbour word per path table, garbage in allocatable frames); recursive index 300; page-table indices (256,0,510,511)"
+    //@ obligation C09 C09.recursive_translate_page_2mib.shape_sym.no_access_outside_page_tables bounded="pool of 7 tables (4 path + 3 allocatable); tree-shaped sparse pre-state (target path, one neighbour word per path table, garbage in allocatable frames); recursive index 300; page-table indices (256,0,510,511)"
+    //@ obligation C20 C20.recursive_translate_page_2mib.uses_recursive_addresses_of_the_page bounded="pool of 7 tables (4 path + 3 allocatable); tree-shaped sparse pre-state (target path, one neighbour word per path table, garbage in allocatable frames); recursive index 300; page-table indices (256,0,510,511)"
     #[kani::proof]
     #[kani::stub(crate::structures::paging::page_table::PageTable::zero, zero_stub)]
     #[kani::stub(crate::addr::VirtAddr::as_mut_ptr, mmu_trap_as_mut_ptr)]
@@ -1966,11 +1966,11 @@ mod verif_c01_recursive_step_huge {
         kani::cover!(true, "c01_recursive_translate_page_2mib_sym_up: reachable");
     }
 
-    //@ obligation C02 C02.recursive_translate_page_1gib.shape_p4_absent.documented_outcome tier=thorough bounded="pool of 7 tables (4 path + 3 allocatable); tree-shaped sparse pre-state (target path, one neighbour word per path table, garbage in allocatable frames); recursive index 300; page-table indices (255,511,0,256)"
-    //@ obligation C01 C01.recursive_translate_page_1gib.shape_p4_absent.agrees_with_walk tier=thorough bounded="pool of 7 tables (4 path + 3 allocatable); tree-shaped sparse pre-state (target path, one neighbour word per path table, garbage in allocatable frames); recursive index 300; page-table indices (255,511,0,256)"
-    //@ obligation C09 C09.recursive_translate_page_1gib.shape_p4_absent.writes_nothing tier=thorough bounded="pool of 7 tables (4 path + 3 allocatable); tree-shaped sparse pre-state (target path, one neighbour word per path table, garbage in allocatable frames); recursive index 300; page-table indices (255,511,0,256)"
-    //@ obligation C09 C09.recursive_translate_page_1gib.shape_p4_absent.no_frames_requested_or_zeroed tier=thorough bounded="pool of 7 tables (4 path + 3 allocatable); tree-shaped sparse pre-state (target path, one neighbour word per path table, garbage in allocatable frames); recursive index 300; page-table indices (255,511,0,256)"
-    //@ obligation C09 C09.recursive_translate_page_1gib.shape_p4_absent.no_access_outside_page_tables tier=thorough bounded="pool of 7 tables (4 path + 3 allocatable); tree-shaped sparse pre-state (target path, one neighbour word per path table, garbage in allocatable frames); recursive index 300; page-table indices (255,511,0,256)"
+    //@ obligation C02 C02.recursive_translate_page_1gib.shape_p4_absent.documented_outcome bounded="pool of 7 tables (4 path + 3 allocatable); tree-shaped sparse pre-state (target path, one neighbour word per path table, garbage in allocatable frames); recursive index 300; page-table indices (255,511,0,256)"
+    //@ obligation C01 C01.recursive_translate_page_1gib.shape_p4_absent.agrees_with_walk bounded="pool of 7 tables (4 path + 3 allocatable); tree-shaped sparse pre-state (target path, one neighbour word per path table, garbage in allocatable frames); recursive index 300; page-table indices (255,511,0,256)"
+    //@ obligation C09 C09.recursive_translate_page_1gib.shape_p4_absent.writes_nothing bounded="pool of 7 tables (4 path + 3 allocatable); tree-shaped sparse pre-state (target path, one neighbour word per path table, garbage in allocatable frames); recursive index 300; page-table indices (255,511,0,256)"
+    //@ obligation C09 C09.recursive_translate_page_1gib.shape_p4_absent.no_frames_requested_or_zeroed bounded="pool of 7 tables (4 path + 3 allocatable); tree-shaped sparse pre-state (target path, one neighbour word per path table, garbage in allocatable frames); recursive index 300; page-table indices (255,511,0,256)"
+    //@ obligation C09 C09.recursive_translate_page_1gib.shape_p4_absent.no_access_outside_page_tables bounded="pool of 7 tables (4 path + 3 allocatable); tree-shaped sparse pre-state (target path, one neighbour word per path table, garbage in allocatable frames); recursive index 300; page-table indices (255,511,0,256)"
     #[kani::proof]
     #[kani::stub(crate::structures::paging::page_table::PageTable::zero, zero_stub)]
     #[kani::stub(crate::addr::VirtAddr::as_mut_ptr, mmu_trap_as_mut_ptr)]
@@ -2006,12 +2006,12 @@ mod verif_c01_recursive_step_huge {
         kani::cover!(true, "c01_recursive_translate_page_1gib_p3_absent_mid: reachable");
     }
 
-    //@ obligation C02 C02.recursive_translate_page_1gib.shape_p3_absent.documented_outcome tier=thorough bounded="pool of 7 tables (4 path + 3 allocatable); tree-shaped sparse pre-state (target path, one neighbour word per path table, garbage in allocatable frames); recursive index 300; page-table indices (256,0,510,511)"
-    //@ obligation C01 C01.recursive_translate_page_1gib.shape_p3_absent.agrees_with_walk tier=thorough bounded="pool of 7 tables (4 path + 3 allocatable); tree-shaped sparse pre-state (target path, one neighbour word per path table, garbage in allocatable frames); recursive index 300; page-table indices (256,0,510,511)"
-    //@ obligation C09 C09.recursive_translate_page_1gib.shape_p3_absent.writes_nothing tier=thorough bounded="pool of 7 tables (4 path + 3 allocatable); tree-shaped sparse pre-state (target path, one neighbour word per path table, garbage in allocatable frames); recursive index 300; page-table indices (256,0,510,511)"
-    //@ obligation C09 C09.recursive_translate_page_1gib.shape_p3_absent.no_frames_requested_or_zeroed tier=thorough bounded="pool of 7 tables (4 path + 3 allocatable); tree-shaped sparse pre-state (target path, one neighbour word per path table, garbage in allocatable frames); recursive index 300; page-table indices (256,0,510,511)"
-    //@ obligation C09 C09.recursive_translate_page_1gib.shape_p3_absent.no_access_outside_page_tables tier=thorough bounded="pool of 7 tables (4 path + 3 allocatable); tree-shaped sparse pre-state (target path, one neighbour word per path table, garbage in allocatable frames); recursive index 300; page-table indices (256,0,510,511)"
-    //@ obligation C20 C20.recursive_translate_page_1gib.uses_recursive_addresses_of_the_page tier=thorough bounded="pool of 7 tables (4 path + 3 allocatable); tree-shaped sparse pre-state (target path, one neighbour word per path table, garbage in allocatable frames); recursive index 300; page-table indices (256,0,510,511)"
+    //@ obligation C02 C02.recursive_translate_page_1gib.shape_p3_absent.documented_outcome bounded="pool of 7 tables (4 path + 3 allocatable); tree-shaped sparse pre-state (target path, one neighbour word per path table, garbage in allocatable frames); recursive index 300; page-table indices (256,0,510,511)"
+    //@ obligation C01 C01.recursive_translate_page_1gib.shape_p3_absent.agrees_with_walk bounded="pool of 7 tables (4 path + 3 allocatable); tree-shaped sparse pre-state (target path, one neighbour word per path table, garbage in allocatable frames); recursive index 300; page-table indices (256,0,510,511)"
+    //@ obligation C09 C09.recursive_translate_page_1gib.shape_p3_absent.writes_nothing bounded="pool of 7 tables (4 path + 3 allocatable); tree-shaped sparse pre-state (target path, one neighbour word per path table, garbage in allocatable frames); recursive index 300; page-table indices (256,0,510,511)"
+    //@ obligation C09 C09.recursive_translate_page_1gib.shape_p3_absent.no_frames_requested_or_zeroed bounded="pool of 7 tables (4 path + 3 allocatable); tree-shaped sparse pre-state (target path, one neighbour word per path table, garbage in allocatable frames); recursive index 300; page-table indices (256,0,510,511)"
+    //@ obligation C09 C09.recursive_translate_page_1gib.shape_p3_absent.no_access_outside_page_tables bounded="pool of 7 tables (4 path + 3 allocatable); tree-shaped sparse pre-state (target path, one neighbour word per path table, garbage in allocatable frames); recursive index 300; page-table indices (256,0,510,511)"
+    //@ obligation C20 C20.recursive_translate_page_1gib.uses_recursive_addresses_of_the_page bounded="pool of 7 tables (4 path + 3 allocatable); tree-shaped sparse pre-state (target path, one neighbour word per path table, garbage in allocatable frames); recursive index 300; page-table indices (256,0,510,511)"
     #[kani::proof]
     #[kani::stub(crate::structures::paging::page_table::PageTable::zero, zero_stub)]
     #[kani::stub(crate::addr::VirtAddr::as_mut_ptr, mmu_trap_as_mut_ptr)]
@@ -2020,12 +2020,12 @@ mod verif_c01_recursive_step_huge {
         kani::cover!(true, "c01_recursive_translate_page_1gib_p3_absent_up: reachable");
     }
 
-    //@ obligation C02 C02.recursive_translate_page_1gib.shape_p3_huge.documented_outcome tier=thorough bounded="pool of 7 tables (4 path + 3 allocatable); tree-shaped sparse pre-state (target path, one neighbour word per path table, garbage in allocatable frames); recursive index 300; page-table indices (255,511,0,256)"
-    //@ obligation C01 C01.recursive_translate_page_1gib.shape_p3_huge.agrees_with_walk tier=thorough bounded="pool of 7 tables (4 path + 3 allocatable); tree-shaped sparse pre-state (target path, one neighbour word per path table, garbage in allocatable frames); recursive index 300; page-table indices (255,511,0,256)"
-    //@ obligation C09 C09.recursive_translate_page_1gib.shape_p3_huge.writes_nothing tier=thorough bounded="pool of 7 tables (4 path + 3 allocatable); tree-shaped sparse pre-state (target path, one neighbour word per path table, garbage in allocatable frames); recursive index 300; page-table indices (255,511,0,256)"
-    //@ obligation C09 C09.recursive_translate_page_1gib.shape_p3_huge.no_frames_requested_or_zeroed tier=thorough bounded="pool of 7 tables (4 path + 3 allocatable); tree-shaped sparse pre-state (target path, one neighbour word per path table, garbage in allocatable frames); recursive index 300; page-table indices (255,511,0,256)"
-    //@ obligation C09 C09.recursive_translate_page_1gib.shape_p3_huge.no_access_outside_page_tables tier=thorough bounded="pool of 7 tables (4 path + 3 allocatable); tree-shaped sparse pre-state (target path, one neighbour word per path table, garbage in allocatable frames); recursive index 300; page-table indices (255,511,0,256)"
-    //@ obligation C20 C20.recursive_translate_page_1gib.uses_recursive_addresses_of_the_page tier=thorough bounded="pool of 7 tables (4 path + 3 allocatable); tree-shaped sparse pre-state (target path, one neighbour word per path table, garbage in allocatable frames); recursive index 300; page-table indices (255,511,0,256)"
+    //@ obligation C02 C02.recursive_translate_page_1gib.shape_p3_huge.documented_outcome bounded="pool of 7 tables (4 path + 3 allocatable); tree-shaped sparse pre-state (target path, one neighbour word per path table, garbage in allocatable frames); recursive index 300; page-table indices (255,511,0,256)"
+    //@ obligation C01 C01.recursive_translate_page_1gib.shape_p3_huge.agrees_with_walk bounded="pool of 7 tables (4 path + 3 allocatable); tree-shaped sparse pre-state (target path, one neighbour word per path table, garbage in allocatable frames); recursive index 300; page-table indices (255,511,0,256)"
+    //@ obligation C09 C09.recursive_translate_page_1gib.shape_p3_huge.writes_nothing bounded="pool of 7 tables (4 path + 3 allocatable); tree-shaped sparse pre-state (target path, one neighbour word per path table, garbage in allocatable frames); recursive index 300; page-table indices (255,511,0,256)"
+    //@ obligation C09 C09.recursive_translate_page_1gib.shape_p3_huge.no_frames_requested_or_zeroed bounded="pool of 7 tables (4 path + 3 allocatable); tree-shaped sparse pre-state (target path, one neighbour word per path table, garbage in allocatable frames); recursive index 300; page-table indices (255,511,0,256)"
+    //@ obligation C09 C09.recursive_translate_page_1gib.shape_p3_huge.no_access_outside_page_tables bounded="pool of 7 tables (4 path + 3 allocatable); tree-shaped sparse pre-state (target path, one neighbour word per path table, garbage in allocatable frames); recursive index 300; page-table indices (255,511,0,256)"
+    //@ obligation C20 C20.recursive_translate_page_1gib.uses_recursive_addresses_of_the_page bounded="pool of 7 tables (4 path + 3 allocatable); tree-shaped sparse pre-state (target path, one neighbour word per path table, garbage in allocatable frames); recursive index 300; page-table indices (255,511,0,256)"
     #[kani::proof]
     #[kani::stub(crate::structures::paging::page_table::PageTable::zero, zero_stub)]
     #[kani::stub(crate::addr::VirtAddr::as_mut_ptr, mmu_trap_as_mut_ptr)]
@@ -2048,12 +2048,12 @@ mod verif_c01_recursive_step_huge {
         kani::cover!(true, "c01_recursive_translate_page_1gib_p3_huge_up: reachable");
     }
 
-    //@ obligation C02 C02.recursive_translate_page_1gib.shape_table_entry.no_success_for_nonexistent_size tier=thorough bounded="pool of 7 tables (4 path + 3 allocatable); tree-shaped sparse pre-state (target path, one neighbour word per path table, garbage in allocatable frames); recursive index 300; page-table indices (255,511,0,256)"
-    //@ obligation C02 C02.recursive_translate_page_1gib.shape_table_entry.documented_outcome tier=thorough bounded="pool of 7 tables (4 path + 3 allocatable); tree-shaped sparse pre-state (target path, one neighbour word per path table, garbage in allocatable frames); recursive index 300; page-table indices (255,511,0,256)"
-    //@ obligation C09 C09.recursive_translate_page_1gib.shape_table_entry.writes_nothing tier=thorough bounded="pool of 7 tables (4 path + 3 allocatable); tree-shaped sparse pre-state (target path, one neighbour word per path table, garbage in allocatable frames); recursive index 300; page-table indices (255,511,0,256)"
-    //@ obligation C09 C09.recursive_translate_page_1gib.shape_table_entry.no_frames_requested_or_zeroed tier=thorough bounded="pool of 7 tables (4 path + 3 allocatable); tree-shaped sparse pre-state (target path, one neighbour word per path table, garbage in allocatable frames); recursive index 300; page-table indices (255,511,0,256)"
-    //@ obligation C09 C09.recursive_translate_page_1gib.shape_table_entry.no_access_outside_page_tables tier=thorough bounded="pool of 7 tables (4 path + 3 allocatable); tree-shaped sparse pre-state (target path, one neighbour word per path table, garbage in allocatable frames); recursive index 300; page-table indices (255,511,0,256)"
-    //@ obligation C20 C20.recursive_translate_page_1gib.uses_recursive_addresses_of_the_page tier=thorough bounded="pool of 7 tables (4 path + 3 allocatable); tree-shaped sparse pre-state (target path, one neighbour word per path table, garbage in allocatable frames); recursive index 300; page-table indices (255,511,0,256)"
+    //@ obligation C02 C02.recursive_translate_page_1gib.shape_table_entry.no_success_for_nonexistent_size bounded="pool of 7 tables (4 path + 3 allocatable); tree-shaped sparse pre-state (target path, one neighbour word per path table, garbage in allocatable frames); recursive index 300; page-table indices (255,511,0,256)"
+    //@ obligation C02 C02.recursive_translate_page_1gib.shape_table_entry.documented_outcome bounded="pool of 7 tables (4 path + 3 allocatable); tree-shaped sparse pre-state (target path, one neighbour word per path table, garbage in allocatable frames); recursive index 300; page-table indices (255,511,0,256)"
+    //@ obligation C09 C09.recursive_translate_page_1gib.shape_table_entry.writes_nothing bounded="pool of 7 tables (4 path + 3 allocatable); tree-shaped sparse pre-state (target path, one neighbour word per path table, garbage in allocatable frames); recursive index 300; page-table indices (255,511,0,256)"
+    //@ obligation C09 C09.recursive_translate_page_1gib.shape_table_entry.no_frames_requested_or_zeroed bounded="pool of 7 tables (4 path + 3 allocatable); tree-shaped sparse pre-state (target path, one neighbour word per path table, garbage in allocatable frames); recursive index 300; page-table indices (255,511,0,256)"
+    //@ obligation C09 C09.recursive_translate_page_1gib.shape_table_entry.no_access_outside_page_tables bounded="pool of 7 tables (4 path + 3 allocatable); tree-shaped sparse pre-state (target path, one neighbour word per path table, garbage in allocatable frames); recursive index 300; page-table indices (255,511,0,256)"
+    //@ obligation C20 C20.recursive_translate_page_1gib.uses_recursive_addresses_of_the_page bounded="pool of 7 tables (4 path + 3 allocatable); tree-shaped sparse pre-state (target path, one neighbour word per path table, garbage in allocatable frames); recursive index 300; page-table indices (255,511,0,256)"
     #[kani::proof]
     #[kani::stub(crate::structures::paging::page_table::PageTable::zero, zero_stub)]
     #[kani::stub(crate::addr::VirtAddr::as_mut_ptr, mmu_trap_as_mut_ptr)]
@@ -2090,12 +2090,12 @@ mod verif_c01_recursive_step_huge {
         kani::cover!(true, "c01_recursive_translate_page_1gib_sym_mid: reachable");
     }
 
-    //@ obligation C02 C02.recursive_translate_page_1gib.shape_sym.documented_outcome tier=thorough bounded="pool of 7 tables (4 path + 3 allocatable); tree-shaped sparse pre-state (target path, one neighbour word per path table, garbage in allocatable frames); recursive index 300; page-table indices (256,0,510,511)"
-    //@ obligation C01 C01.recursive_translate_page_1gib.shape_sym.agrees_with_walk tier=thorough bounded="pool of 7 tables (4 path + 3 allocatable); tree-shaped sparse pre-state (target path, one neighbour word per path table, garbage in allocatable frames); recursive index 300; page-table indices (256,0,510,511)"
-    //@ obligation C09 C09.recursive_translate_page_1gib.shape_sym.writes_nothing tier=thorough bounded="pool of 7 tables (4 path + 3 allocatable); tree-shaped sparse pre-state (target path, one neighbour word per path table, garbage in allocatable frames); recursive index 300; page-table indices (256,0,510,511)"
-    //@ obligation C09 C09.recursive_translate_page_1gib.shape_sym.no_frames_requested_or_zeroed tier=thorough bounded="pool of 7 tables (4 path + 3 allocatable); tree-shaped sparse pre-state (target path, one neighbour word per path table, garbage in allocatable frames); recursive index 300; page-table indices (256,0,510,511)"
-    //@ obligation C09 C09.recursive_translate_page_1gib.shape_sym.no_access_outside_page_tables tier=thorough bounded="pool of 7 tables (4 path + 3 allocatable); tree-shaped sparse pre-state (target path, one neighbour word per path table, garbage in allocatable frames); recursive index 300; page-table indices (256,0,510,511)"
-    //@ obligation C20 C20.recursive_translate_page_1gib.uses_recursive_addresses_of_the_page tier=thorough bounded="pool of 7 tables (4 path + 3 allocatable); tree-shaped sparse pre-state (target path, one neighbour word per path table, garbage in allocatable frames); recursive index 300; page-table indices (256,0,510,511)"
+    //@ obligation C02 C02.recursive_translate_page_1gib.shape_sym.documented_outcome bounded="pool of 7 tables (4 path + 3 allocatable); tree-shaped sparse pre-state (target path, one neighbour word per path table, garbage in allocatable frames); recursive index 300; page-table indices (256,0,510,511)"
+    //@ obligation C01 C01.recursive_translate_page_1gib.shape_sym.agrees_with_walk bounded="pool of 7 tables (4 path + 3 allocatable); tree-shaped sparse pre-state (target path, one neighbour word per path table, garbage in allocatable frames); recursive index 300; page-table indices (256,0,510,511)"
+    //@ obligation C09 C09.recursive_translate_page_1gib.shape_sym.writes_nothing bounded="pool of 7 tables (4 path + 3 allocatable); tree-shaped sparse pre-state (target path, one neighbour word per path table, garbage in allocatable frames); recursive index 300; page-table indices (256,0,510,511)"
+    //@ obligation C09 C09.recursive_translate_page_1gib.shape_sym.no_frames_requested_or_zeroed bounded="pool of 7 tables (4 path + 3 allocatable); tree-shaped sparse pre-state (target path, one neighbour word per path table, garbage in allocatable frames); recursive index 300; page-table indices (256,0,510,511)"
+    //@ obligation C09 C09.recursive_translate_page_1gib.shape_sym.no_access_outside_page_tables bounded="pool of 7 tables (4 path + 3 allocatable); tree-shaped sparse pre-state (target path, one neighbour word per path table, garbage in allocatable frames); recursive index 300; page-table indices (256,0,510,511)"
+    //@ obligation C20 C20.recursive_translate_page_1gib.uses_recursive_addresses_of_the_page bounded="pool of 7 tables (4 path + 3 allocatable); tree-shaped sparse pre-state (target path, one neighbour word per path table, garbage in allocatable frames); recursive index 300; page-table indices (256,0,510,511)"
     #[kani::proof]
     #[kani::stub(crate::structures::paging::page_table::PageTable::zero, zero_stub)]
     #[kani::stub(crate::addr::VirtAddr::as_mut_ptr, mmu_trap_as_mut_ptr)]
@@ -2104,12 +2104,12 @@ mod verif_c01_recursive_step_huge {
         kani::cover!(true, "c01_recursive_translate_page_1gib_sym_up: reachable");
     }
 
-    //@ obligation C02 C02.recursive_set_flags_p4_entry_4kib.shape_p4_absent.documented_outcome tier=thorough bounded="pool of 7 tables (4 path + 3 allocatable); tree-shaped sparse pre-state (target path, one neighbour word per path table, garbage in allocatable frames); recursive index 300; page-table indices (255,511,0,256)"
-    //@ obligation C02 C02.recursive_set_flags_p4_entry_4kib.shape_p4_absent.error_leaves_every_mapping tier=thorough bounded="pool of 7 tables (4 path + 3 allocatable); tree-shaped sparse pre-state (target path, one neighbour word per path table, garbage in allocatable frames); recursive index 300; page-table indices (255,511,0,256)"
-    //@ obligation C09 C09.recursive_set_flags_p4_entry_4kib.shape_p4_absent.only_dictated_slots_change tier=thorough bounded="pool of 7 tables (4 path + 3 allocatable); tree-shaped sparse pre-state (target path, one neighbour word per path table, garbage in allocatable frames); recursive index 300; page-table indices (255,511,0,256)"
-    //@ obligation C09 C09.recursive_set_flags_p4_entry_4kib.shape_p4_absent.no_frames_requested_or_zeroed tier=thorough bounded="pool of 7 tables (4 path + 3 allocatable); tree-shaped sparse pre-state (target path, one neighbour word per path table, garbage in allocatable frames); recursive index 300; page-table indices (255,511,0,256)"
-    //@ obligation C09 C09.recursive_set_flags_p4_entry_4kib.shape_p4_absent.no_dangling_table_pointer tier=thorough bounded="pool of 7 tables (4 path + 3 allocatable); tree-shaped sparse pre-state (target path, one neighbour word per path table, garbage in allocatable frames); recursive index 300; page-table indices (255,511,0,256)"
-    //@ obligation C09 C09.recursive_set_flags_p4_entry_4kib.shape_p4_absent.no_access_outside_page_tables tier=thorough bounded="pool of 7 tables (4 path + 3 allocatable); tree-shaped sparse pre-state (target path, one neighbour word per path table, garbage in allocatable frames); recursive index 300; page-table indices (255,511,0,256)"
+    //@ obligation C02 C02.recursive_set_flags_p4_entry_4kib.shape_p4_absent.documented_outcome bounded="pool of 7 tables (4 path + 3 allocatable); tree-shaped sparse pre-state (target path, one neighbour word per path table, garbage in allocatable frames); recursive index 300; page-table indices (255,511,0,256)"
+    //@ obligation C02 C02.recursive_set_flags_p4_entry_4kib.shape_p4_absent.error_leaves_every_mapping bounded="pool of 7 tables (4 path + 3 allocatable); tree-shaped sparse pre-state (target path, one neighbour word per path table, garbage in allocatable frames); recursive index 300; page-table indices (255,511,0,256)"
+    //@ obligation C09 C09.recursive_set_flags_p4_entry_4kib.shape_p4_absent.only_dictated_slots_change bounded="pool of 7 tables (4 path + 3 allocatable); tree-shaped sparse pre-state (target path, one neighbour word per path table, garbage in allocatable frames); recursive index 300; page-table indices (255,511,0,256)"
+    //@ obligation C09 C09.recursive_set_flags_p4_entry_4kib.shape_p4_absent.no_frames_requested_or_zeroed bounded="pool of 7 tables (4 path + 3 allocatable); tree-shaped sparse pre-state (target path, one neighbour word per path table, garbage in allocatable frames); recursive index 300; page-table indices (255,511,0,256)"
+    //@ obligation C09 C09.recursive_set_flags_p4_entry_4kib.shape_p4_absent.no_dangling_table_pointer bounded="pool of 7 tables (4 path + 3 allocatable); tree-shaped sparse pre-state (target path, one neighbour word per path table, garbage in allocatable frames); recursive index 300; page-table indices (255,511,0,256)"
+    //@ obligation C09 C09.recursive_set_flags_p4_entry_4kib.shape_p4_absent.no_access_outside_page_tables bounded="pool of 7 tables (4 path + 3 allocatable); tree-shaped sparse pre-state (target path, one neighbour word per path table, garbage in allocatable frames); recursive index 300; page-table indices (255,511,0,256)"
     #[kani::proof]
     #[kani::stub(crate::structures::paging::page_table::PageTable::zero, zero_stub)]
     #[kani::stub(crate::addr::VirtAddr::as_mut_ptr, mmu_trap_as_mut_ptr)]
@@ -2148,14 +2148,14 @@ mod verif_c01_recursive_step_huge {
         kani::cover!(true, "c01_recursive_set_flags_p4_entry_4kib_p4_table_mid: reachable");
     }
 
-    //@ obligation C02 C02.recursive_set_flags_p4_entry_4kib.shape_p4_table.documented_outcome tier=thorough bounded="pool of 7 tables (4 path + 3 allocatable); tree-shaped sparse pre-state (target path, one neighbour word per path table, garbage in allocatable frames); recursive index 300; page-table indices (256,0,510,511)"
-    //@ obligation C01 C01.recursive_set_flags_p4_entry_4kib.shape_p4_table.no_leaf_changes tier=thorough bounded="pool of 7 tables (4 path + 3 allocatable); tree-shaped sparse pre-state (target path, one neighbour word per path table, garbage in allocatable frames); recursive index 300; page-table indices (256,0,510,511)"
-    //@ obligation C01 C01.recursive_set_flags_p4_entry_4kib.shape_p4_table.entry_flags_replaced_address_kept tier=thorough bounded="pool of 7 tables (4 path + 3 allocatable); tree-shaped sparse pre-state (target path, one neighbour word per path table, garbage in allocatable frames); recursive index 300; page-table indices (256,0,510,511)"
-    //@ obligation C11 C11.recursive_set_flags_p4_entry_4kib.shape_p4_table.flush_all_token tier=thorough bounded="pool of 7 tables (4 path + 3 allocatable); tree-shaped sparse pre-state (target path, one neighbour word per path table, garbage in allocatable frames); recursive index 300; page-table indices (256,0,510,511)"
-    //@ obligation C09 C09.recursive_set_flags_p4_entry_4kib.shape_p4_table.only_dictated_slots_change tier=thorough bounded="pool of 7 tables (4 path + 3 allocatable); tree-shaped sparse pre-state (target path, one neighbour word per path table, garbage in allocatable frames); recursive index 300; page-table indices (256,0,510,511)"
-    //@ obligation C09 C09.recursive_set_flags_p4_entry_4kib.shape_p4_table.no_frames_requested_or_zeroed tier=thorough bounded="pool of 7 tables (4 path + 3 allocatable); tree-shaped sparse pre-state (target path, one neighbour word per path table, garbage in allocatable frames); recursive index 300; page-table indices (256,0,510,511)"
-    //@ obligation C09 C09.recursive_set_flags_p4_entry_4kib.shape_p4_table.no_dangling_table_pointer tier=thorough bounded="pool of 7 tables (4 path + 3 allocatable); tree-shaped sparse pre-state (target path, one neighbour word per path table, garbage in allocatable frames); recursive index 300; page-table indices (256,0,510,511)"
-    //@ obligation C09 C09.recursive_set_flags_p4_entry_4kib.shape_p4_table.no_access_outside_page_tables tier=thorough bounded="pool of 7 tables (4 path + 3 allocatable); tree-shaped sparse pre-state (target path, one neighbour word per path table, garbage in allocatable frames); recursive index 300; page-table indices (256,0,510,511)"
+    //@ obligation C02 C02.recursive_set_flags_p4_entry_4kib.shape_p4_table.documented_outcome bounded="pool of 7 tables (4 path + 3 allocatable); tree-shaped sparse pre-state (target path, one neighbour word per path table, garbage in allocatable frames); recursive index 300; page-table indices (256,0,510,511)"
+    //@ obligation C01 C01.recursive_set_flags_p4_entry_4kib.shape_p4_table.no_leaf_changes bounded="pool of 7 tables (4 path + 3 allocatable); tree-shaped sparse pre-state (target path, one neighbour word per path table, garbage in allocatable frames); recursive index 300; page-table indices (256,0,510,511)"
+    //@ obligation C01 C01.recursive_set_flags_p4_entry_4kib.shape_p4_table.entry_flags_replaced_address_kept bounded="pool of 7 tables (4 path + 3 allocatable); tree-shaped sparse pre-state (target path, one neighbour word per path table, garbage in allocatable frames); recursive index 300; page-table indices (256,0,510,511)"
+    //@ obligation C11 C11.recursive_set_flags_p4_entry_4kib.shape_p4_table.flush_all_token bounded="pool of 7 tables (4 path + 3 allocatable); tree-shaped sparse pre-state (target path, one neighbour word per path table, garbage in allocatable frames); recursive index 300; page-table indices (256,0,510,511)"
+    //@ obligation C09 C09.recursive_set_flags_p4_entry_4kib.shape_p4_table.only_dictated_slots_change bounded="pool of 7 tables (4 path + 3 allocatable); tree-shaped sparse pre-state (target path, one neighbour word per path table, garbage in allocatable frames); recursive index 300; page-table indices (256,0,510,511)"
+    //@ obligation C09 C09.recursive_set_flags_p4_entry_4kib.shape_p4_table.no_frames_requested_or_zeroed bounded="pool of 7 tables (4 path + 3 allocatable); tree-shaped sparse pre-state (target path, one neighbour word per path table, garbage in allocatable frames); recursive index 300; page-table indices (256,0,510,511)"
+    //@ obligation C09 C09.recursive_set_flags_p4_entry_4kib.shape_p4_table.no_dangling_table_pointer bounded="pool of 7 tables (4 path + 3 allocatable); tree-shaped sparse pre-state (target path, one neighbour word per path table, garbage in allocatable frames); recursive index 300; page-table indices (256,0,510,511)"
+    //@ obligation C09 C09.recursive_set_flags_p4_entry_4kib.shape_p4_table.no_access_outside_page_tables bounded="pool of 7 tables (4 path + 3 allocatable); tree-shaped sparse pre-state (target path, one neighbour word per path table, garbage in allocatable frames); recursive index 300; page-table indices (256,0,510,511)"
     #[kani::proof]
     #[kani::stub(crate::structures::paging::page_table::PageTable::zero, zero_stub)]
     #[kani::stub(crate::addr::VirtAddr::as_mut_ptr, mmu_trap_as_mut_ptr)]
@@ -2164,12 +2164,12 @@ mod verif_c01_recursive_step_huge {
         kani::cover!(true, "c01_recursive_set_flags_p4_entry_4kib_p4_table_up: reachable");
     }
 
-    //@ obligation C02 C02.recursive_set_flags_p3_entry_4kib.shape_p4_absent.documented_outcome tier=thorough bounded="pool of 7 tables (4 path + 3 allocatable); tree-shaped sparse pre-state (target path, one neighbour word per path table, garbage in allocatable frames); recursive index 300; page-table indices (255,511,0,256)"
-    //@ obligation C02 C02.recursive_set_flags_p3_entry_4kib.shape_p4_absent.error_leaves_every_mapping tier=thorough bounded="pool of 7 tables (4 path + 3 allocatable); tree-shaped sparse pre-state (target path, one neighbour word per path table, garbage in allocatable frames); recursive index 300; page-table indices (255,511,0,256)"
-    //@ obligation C09 C09.recursive_set_flags_p3_entry_4kib.shape_p4_absent.only_dictated_slots_change tier=thorough bounded="pool of 7 tables (4 path + 3 allocatable); tree-shaped sparse pre-state (target path, one neighbour word per path table, garbage in allocatable frames); recursive index 300; page-table indices (255,511,0,256)"
-    //@ obligation C09 C09.recursive_set_flags_p3_entry_4kib.shape_p4_absent.no_frames_requested_or_zeroed tier=thorough bounded="pool of 7 tables (4 path + 3 allocatable); tree-shaped sparse pre-state (target path, one neighbour word per path table, garbage in allocatable frames); recursive index 300; page-table indices (255,511,0,256)"
-    //@ obligation C09 C09.recursive_set_flags_p3_entry_4kib.shape_p4_absent.no_dangling_table_pointer tier=thorough bounded="pool of 7 tables (4 path + 3 allocatable); tree-shaped sparse pre-state (target path, one neighbour word per path table, garbage in allocatable frames); recursive index 300; page-table indices (255,511,0,256)"
-    //@ obligation C09 C09.recursive_set_flags_p3_entry_4kib.shape_p4_absent.no_access_outside_page_tables tier=thorough bounded="pool of 7 tables (4 path + 3 allocatable); tree-shaped sparse pre-state (target path, one neighbour word per path table, garbage in allocatable frames); recursive index 300; page-table indices (255,511,0,256)"
+    //@ obligation C02 C02.recursive_set_flags_p3_entry_4kib.shape_p4_absent.documented_outcome bounded="pool of 7 tables (4 path + 3 allocatable); tree-shaped sparse pre-state (target path, one neighbour word per path table, garbage in allocatable frames); recursive index 300; page-table indices (255,511,0,256)"
+    //@ obligation C02 C02.recursive_set_flags_p3_entry_4kib.shape_p4_absent.error_leaves_every_mapping bounded="pool of 7 tables (4 path + 3 allocatable); tree-shaped sparse pre-state (target path, one neighbour word per path table, garbage in allocatable frames); recursive index 300; page-table indices (255,511,0,256)"
+    //@ obligation C09 C09.recursive_set_flags_p3_entry_4kib.shape_p4_absent.only_dictated_slots_change bounded="pool of 7 tables (4 path + 3 allocatable); tree-shaped sparse pre-state (target path, one neighbour word per path table, garbage in allocatable frames); recursive index 300; page-table indices (255,511,0,256)"
+    //@ obligation C09 C09.recursive_set_flags_p3_entry_4kib.shape_p4_absent.no_frames_requested_or_zeroed bounded="pool of 7 tables (4 path + 3 allocatable); tree-shaped sparse pre-state (target path, one neighbour word per path table, garbage in allocatable frames); recursive index 300; page-table indices (255,511,0,256)"
+    //@ obligation C09 C09.recursive_set_flags_p3_entry_4kib.shape_p4_absent.no_dangling_table_pointer bounded="pool of 7 tables (4 path + 3 allocatable); tree-shaped sparse pre-state (target path, one neighbour word per path table, garbage in allocatable frames); recursive index 300; page-table indices (255,511,0,256)"
+    //@ obligation C09 C09.recursive_set_flags_p3_entry_4kib.shape_p4_absent.no_access_outside_page_tables bounded="pool of 7 tables (4 path + 3 allocatable); tree-shaped sparse pre-state (target path, one neighbour word per path table, garbage in allocatable frames); recursive index 300; page-table indices (255,511,0,256)"
     #[kani::proof]
     #[kani::stub(crate::structures::paging::page_table::PageTable::zero, zero_stub)]
     #[kani::stub(crate::addr::VirtAddr::as_mut_ptr, mmu_trap_as_mut_ptr)]
@@ -2192,13 +2192,13 @@ mod verif_c01_recursive_step_huge {
         kani::cover!(true, "c01_recursive_set_flags_p3_entry_4kib_p4_absent_up: reachable");
     }
 
-    //@ obligation C02 C02.recursive_set_flags_p3_entry_4kib.shape_p3_absent.documented_outcome tier=thorough bounded="pool of 7 tables (4 path + 3 allocatable); tree-shaped sparse pre-state (target path, one neighbour word per path table, garbage in allocatable frames); recursive index 300; page-table indices (255,511,0,256)"
-    //@ obligation C02 C02.recursive_set_flags_p3_entry_4kib.shape_p3_absent.error_leaves_every_mapping tier=thorough bounded="pool of 7 tables (4 path + 3 allocatable); tree-shaped sparse pre-state (target path, one neighbour word per path table, garbage in allocatable frames); recursive index 300; page-table indices (255,511,0,256)"
-    //@ obligation C09 C09.recursive_set_flags_p3_entry_4kib.shape_p3_absent.only_dictated_slots_change tier=thorough bounded="pool of 7 tables (4 path + 3 allocatable); tree-shaped sparse pre-state (target path, one neighbour word per path table, garbage in allocatable frames); recursive index 300; page-table indices (255,511,0,256)"
-    //@ obligation C09 C09.recursive_set_flags_p3_entry_4kib.shape_p3_absent.no_frames_requested_or_zeroed tier=thorough bounded="pool of 7 tables (4 path + 3 allocatable); tree-shaped sparse pre-state (target path, one neighbour word per path table, garbage in allocatable frames); recursive index 300; page-table indices (255,511,0,256)"
-    //@ obligation C09 C09.recursive_set_flags_p3_entry_4kib.shape_p3_absent.no_dangling_table_pointer tier=thorough bounded="pool of 7 tables (4 path + 3 allocatable); tree-shaped sparse pre-state (target path, one neighbour word per path table, garbage in allocatable frames); recursive index 300; page-table indices (255,511,0,256)"
-    //@ obligation C09 C09.recursive_set_flags_p3_entry_4kib.shape_p3_absent.no_access_outside_page_tables tier=thorough bounded="pool of 7 tables (4 path + 3 allocatable); tree-shaped sparse pre-state (target path, one neighbour word per path table, garbage in allocatable frames); recursive index 300; page-table indices (255,511,0,256)"
-    //@ obligation C20 C20.recursive_set_flags_p3_entry_4kib.uses_recursive_addresses_of_the_page tier=thorough bounded="pool of 7 tables (4 path + 3 allocatable); tree-shaped sparse pre-state (target path, one neighbour word per path table, garbage in allocatable frames); recursive index 300; page-table indices (255,511,0,256)"
+    //@ obligation C02 C02.recursive_set_flags_p3_entry_4kib.shape_p3_absent.documented_outcome bounded="pool of 7 tables (4 path + 3 allocatable); tree-shaped sparse pre-state (target path, one neighbour word per path table, garbage in allocatable frames); recursive index 300; page-table indices (255,511,0,256)"
+    //@ obligation C02 C02.recursive_set_flags_p3_entry_4kib.shape_p3_absent.error_leaves_every_mapping bounded="pool of 7 tables (4 path + 3 allocatable); tree-shaped sparse pre-state (target path, one neighbour word per path table, garbage in allocatable frames); recursive index 300; page-table indices (255,511,0,256)"
+    //@ obligation C09 C09.recursive_set_flags_p3_entry_4kib.shape_p3_absent.only_dictated_slots_change bounded="pool of 7 tables (4 path + 3 allocatable); tree-shaped sparse pre-state (target path, one neighbour word per path table, garbage in allocatable frames); recursive index 300; page-table indices (255,511,0,256)"
+    //@ obligation C09 C09.recursive_set_flags_p3_entry_4kib.shape_p3_absent.no_frames_requested_or_zeroed bounded="pool of 7 tables (4 path + 3 allocatable); tree-shaped sparse pre-state (target path, one neighbour word per path table, garbage in allocatable frames); recursive index 300; page-table indices (255,511,0,256)"
+    //@ obligation C09 C09.recursive_set_flags_p3_entry_4kib.shape_p3_absent.no_dangling_table_pointer bounded="pool of 7 tables (4 path + 3 allocatable); tree-shaped sparse pre-state (target path, one neighbour word per path table, garbage in allocatable frames); recursive index 300; page-table indices (255,511,0,256)"
+    //@ obligation C09 C09.recursive_set_flags_p3_entry_4kib.shape_p3_absent.no_access_outside_page_tables bounded="pool of 7 tables (4 path + 3 allocatable); tree-shaped sparse pre-state (target path, one neighbour word per path table, garbage in allocatable frames); recursive index 300; page-table indices (255,511,0,256)"
+    //@ obligation C20 C20.recursive_set_flags_p3_entry_4kib.uses_recursive_addresses_of_the_page bounded="pool of 7 tables (4 path + 3 allocatable); tree-shaped sparse pre-state (target path, one neighbour word per path table, garbage in allocatable frames); recursive index 300; page-table indices (255,511,0,256)"
     #[kani::proof]
     #[kani::stub(crate::structures::paging::page_table::PageTable::zero, zero_stub)]
     #[kani::stub(crate::addr::VirtAddr::as_mut_ptr, mmu_trap_as_mut_ptr)]
@@ -2239,15 +2239,15 @@ mod verif_c01_recursive_step_huge {
         kani::cover!(true, "c01_recursive_set_flags_p3_entry_4kib_p3_table_mid: reachable");
     }
 
-    //@ obligation C02 C02.recursive_set_flags_p3_entry_4kib.shape_p3_table.documented_outcome tier=thorough bounded="pool of 7 tables (4 path + 3 allocatable); tree-shaped sparse pre-state (target path, one neighbour word per path table, garbage in allocatable frames); recursive index 300; page-table indices (256,0,510,511)"
-    //@ obligation C01 C01.recursive_set_flags_p3_entry_4kib.shape_p3_table.no_leaf_changes tier=thorough bounded="pool of 7 tables (4 path + 3 allocatable); tree-shaped sparse pre-state (target path, one neighbour word per path table, garbage in allocatable frames); recursive index 300; page-table indices (256,0,510,511)"
-    //@ obligation C01 C01.recursive_set_flags_p3_entry_4kib.shape_p3_table.entry_flags_replaced_address_kept tier=thorough bounded="pool of 7 tables (4 path + 3 allocatable); tree-shaped sparse pre-state (target path, one neighbour word per path table, garbage in allocatable frames); recursive index 300; page-table indices (256,0,510,511)"
-    //@ obligation C11 C11.recursive_set_flags_p3_entry_4kib.shape_p3_table.flush_all_token tier=thorough bounded="pool of 7 tables (4 path + 3 allocatable); tree-shaped sparse pre-state (target path, one neighbour word per path table, garbage in allocatable frames); recursive index 300; page-table indices (256,0,510,511)"
-    //@ obligation C09 C09.recursive_set_flags_p3_entry_4kib.shape_p3_table.only_dictated_slots_change tier=thorough bounded="pool of 7 tables (4 path + 3 allocatable); tree-shaped sparse pre-state (target path, one neighbour word per path table, garbage in allocatable frames); recursive index 300; page-table indices (256,0,510,511)"
-    //@ obligation C09 C09.recursive_set_flags_p3_entry_4kib.shape_p3_table.no_frames_requested_or_zeroed tier=thorough bounded="pool of 7 tables (4 path + 3 allocatable); tree-shaped sparse pre-state (target path, one neighbour word per path table, garbage in allocatable frames); recursive index 300; page-table indices (256,0,510,511)"
-    //@ obligation C09 C09.recursive_set_flags_p3_entry_4kib.shape_p3_table.no_dangling_table_pointer tier=thorough bounded="pool of 7 tables (4 path + 3 allocatable); tree-shaped sparse pre-state (target path, one neighbour word per path table, garbage in allocatable frames); recursive index 300; page-table indices (256,0,510,511)"
-    //@ obligation C09 C09.recursive_set_flags_p3_entry_4kib.shape_p3_table.no_access_outside_page_tables tier=thorough bounded="pool of 7 tables (4 path + 3 allocatable); tree-shaped sparse pre-state (target path, one neighbour word per path table, garbage in allocatable frames); recursive index 300; page-table indices (256,0,510,511)"
-    //@ obligation C20 C20.recursive_set_flags_p3_entry_4kib.uses_recursive_addresses_of_the_page tier=thorough bounded="pool of 7 tables (4 path + 3 allocatable); tree-shaped sparse pre-state (target path, one neighbour word per path table, garbage in allocatable frames); recursive index 300; page-table indices (256,0,510,511)"
+    //@ obligation C02 C02.recursive_set_flags_p3_entry_4kib.shape_p3_table.documented_outcome bounded="pool of 7 tables (4 path + 3 allocatable); tree-shaped sparse pre-state (target path, one neighbour word per path table, garbage in allocatable frames); recursive index 300; page-table indices (256,0,510,511)"
+    //@ obligation C01 C01.recursive_set_flags_p3_entry_4kib.shape_p3_table.no_leaf_changes bounded="pool of 7 tables (4 path + 3 allocatable); tree-shaped sparse pre-state (target path, one neighbour word per path table, garbage in allocatable frames); recursive index 300; page-table indices (256,0,510,511)"
+    //@ obligation C01 C01.recursive_set_flags_p3_entry_4kib.shape_p3_table.entry_flags_replaced_address_kept bounded="pool of 7 tables (4 path + 3 allocatable); tree-shaped sparse pre-state (target path, one neighbour word per path table, garbage in allocatable frames); recursive index 300; page-table indices (256,0,510,511)"
+    //@ obligation C11 C11.recursive_set_flags_p3_entry_4kib.shape_p3_table.flush_all_token bounded="pool of 7 tables (4 path + 3 allocatable); tree-shaped sparse pre-state (target path, one neighbour word per path table, garbage in allocatable frames); recursive index 300; page-table indices (256,0,510,511)"
+    //@ obligation C09 C09.recursive_set_flags_p3_entry_4kib.shape_p3_table.only_dictated_slots_change bounded="pool of 7 tables (4 path + 3 allocatable); tree-shaped sparse pre-state (target path, one neighbour word per path table, garbage in allocatable frames); recursive index 300; page-table indices (256,0,510,511)"
+    //@ obligation C09 C09.recursive_set_flags_p3_entry_4kib.shape_p3_table.no_frames_requested_or_zeroed bounded="pool of 7 tables (4 path + 3 allocatable); tree-shaped sparse pre-state (target path, one neighbour word per path table, garbage in allocatable frames); recursive index 300; page-table indices (256,0,510,511)"
+    //@ obligation C09 C09.recursive_set_flags_p3_entry_4kib.shape_p3_table.no_dangling_table_pointer bounded="pool of 7 tables (4 path + 3 allocatable); tree-shaped sparse pre-state (target path, one neighbour word per path table, garbage in allocatable frames); recursive index 300; page-table indices (256,0,510,511)"
+    //@ obligation C09 C09.recursive_set_flags_p3_entry_4kib.shape_p3_table.no_access_outside_page_tables bounded="pool of 7 tables (4 path + 3 allocatable); tree-shaped sparse pre-state (target path, one neighbour word per path table, garbage in allocatable frames); recursive index 300; page-table indices (256,0,510,511)"
+    //@ obligation C20 C20.recursive_set_flags_p3_entry_4kib.uses_recursive_addresses_of_the_page bounded="pool of 7 tables (4 path + 3 allocatable); tree-shaped sparse pre-state (target path, one neighbour word per path table, garbage in allocatable frames); recursive index 300; page-table indices (256,0,510,511)"
     #[kani::proof]
     #[kani::stub(crate::structures::paging::page_table::PageTable::zero, zero_stub)]
     #[kani::stub(crate::addr::VirtAddr::as_mut_ptr, mmu_trap_as_mut_ptr)]
@@ -2271,13 +2271,13 @@ mod verif_c01_recursive_step_huge {
         kani::cover!(true, "c01_recursive_set_flags_p3_entry_4kib_huge_leaf_mid: reachable");
     }
 
-    //@ obligation C02 C02.recursive_set_flags_p3_entry_4kib.shape_huge_leaf.reports_parent_entry_huge_page_and_unchanged tier=thorough bounded="pool of 7 tables (4 path + 3 allocatable); tree-shaped sparse pre-state (target path, one neighbour word per path table, garbage in allocatable frames); recursive index 300; page-table indices (256,0,510,511)"
-    //@ obligation C02 C02.recursive_set_flags_p3_entry_4kib.shape_huge_leaf.error_leaves_every_mapping tier=thorough bounded="pool of 7 tables (4 path + 3 allocatable); tree-shaped sparse pre-state (target path, one neighbour word per path table, garbage in allocatable frames); recursive index 300; page-table indices (256,0,510,511)"
-    //@ obligation C09 C09.recursive_set_flags_p3_entry_4kib.shape_huge_leaf.only_dictated_slots_change tier=thorough bounded="pool of 7 tables (4 path + 3 allocatable); tree-shaped sparse pre-state (target path, one neighbour word per path table, garbage in allocatable frames); recursive index 300; page-table indices (256,0,510,511)"
-    //@ obligation C09 C09.recursive_set_flags_p3_entry_4kib.shape_huge_leaf.no_frames_requested_or_zeroed tier=thorough bounded="pool of 7 tables (4 path + 3 allocatable); tree-shaped sparse pre-state (target path, one neighbour word per path table, garbage in allocatable frames); recursive index 300; page-table indices (256,0,510,511)"
-    //@ obligation C09 C09.recursive_set_flags_p3_entry_4kib.shape_huge_leaf.no_dangling_table_pointer tier=thorough bounded="pool of 7 tables (4 path + 3 allocatable); tree-shaped sparse pre-state (target path, one neighbour word per path table, garbage in allocatable frames); recursive index 300; page-table indices (256,0,510,511)"
-    //@ obligation C09 C09.recursive_set_flags_p3_entry_4kib.shape_huge_leaf.no_access_outside_page_tables tier=thorough bounded="pool of 7 tables (4 path + 3 allocatable); tree-shaped sparse pre-state (target path, one neighbour word per path table, garbage in allocatable frames); recursive index 300; page-table indices (256,0,510,511)"
-    //@ obligation C20 C20.recursive_set_flags_p3_entry_4kib.uses_recursive_addresses_of_the_page tier=thorough bounded="pool of 7 tables (4 path + 3 allocatable); tree-shaped sparse pre-state (target path, one neighbour word per path table, garbage in allocatable frames); recursive index 300; page-table indices (256,0,510,511)"
+    //@ obligation C02 C02.recursive_set_flags_p3_entry_4kib.shape_huge_leaf.reports_parent_entry_huge_page_and_unchanged bounded="pool of 7 tables (4 path + 3 allocatable); tree-shaped sparse pre-state (target path, one neighbour word per path table, garbage in allocatable frames); recursive index 300; page-table indices (256,0,510,511)"
+    //@ obligation C02 C02.recursive_set_flags_p3_entry_4kib.shape_huge_leaf.error_leaves_every_mapping bounded="pool of 7 tables (4 path + 3 allocatable); tree-shaped sparse pre-state (target path, one neighbour word per path table, garbage in allocatable frames); recursive index 300; page-table indices (256,0,510,511)"
+    //@ obligation C09 C09.recursive_set_flags_p3_entry_4kib.shape_huge_leaf.only_dictated_slots_change bounded="pool of 7 tables (4 path + 3 allocatable); tree-shaped sparse pre-state (target path, one neighbour word per path table, garbage in allocatable frames); recursive index 300; page-table indices (256,0,510,511)"
+    //@ obligation C09 C09.recursive_set_flags_p3_entry_4kib.shape_huge_leaf.no_frames_requested_or_zeroed bounded="pool of 7 tables (4 path + 3 allocatable); tree-shaped sparse pre-state (target path, one neighbour word per path table, garbage in allocatable frames); recursive index 300; page-table indices (256,0,510,511)"
+    //@ obligation C09 C09.recursive_set_flags_p3_entry_4kib.shape_huge_leaf.no_dangling_table_pointer bounded="pool of 7 tables (4 path + 3 allocatable); tree-shaped sparse pre-state (target path, one neighbour word per path table, garbage in allocatable frames); recursive index 300; page-table indices (256,0,510,511)"
+    //@ obligation C09 C09.recursive_set_flags_p3_entry_4kib.shape_huge_leaf.no_access_outside_page_tables bounded="pool of 7 tables (4 path + 3 allocatable); tree-shaped sparse pre-state (target path, one neighbour word per path table, garbage in allocatable frames); recursive index 300; page-table indices (256,0,510,511)"
+    //@ obligation C20 C20.recursive_set_flags_p3_entry_4kib.uses_recursive_addresses_of_the_page bounded="pool of 7 tables (4 path + 3 allocatable); tree-shaped sparse pre-state (target path, one neighbour word per path table, garbage in allocatable frames); recursive index 300; page-table indices (256,0,510,511)"
     #[kani::proof]
     #[kani::stub(crate::structures::paging::page_table::PageTable::zero, zero_stub)]
     #[kani::stub(crate::addr::VirtAddr::as_mut_ptr, mmu_trap_as_mut_ptr)]
@@ -2300,12 +2300,12 @@ mod verif_c01_recursive_step_huge {
         kani::cover!(true, "c01_recursive_set_flags_p2_entry_4kib_p4_absent_mid: reachable");
     }
 
-    //@ obligation C02 C02.recursive_set_flags_p2_entry_4kib.shape_p4_absent.documented_outcome tier=thorough bounded="pool of 7 tables (4 path + 3 allocatable); tree-shaped sparse pre-state (target path, one neighbour word per path table, garbage in allocatable frames); recursive index 300; page-table indices (256,0,510,511)"
-    //@ obligation C02 C02.recursive_set_flags_p2_entry_4kib.shape_p4_absent.error_leaves_every_mapping tier=thorough bounded="pool of 7 tables (4 path + 3 allocatable); tree-shaped sparse pre-state (target path, one neighbour word per path table, garbage in allocatable frames); recursive index 300; page-table indices (256,0,510,511)"
-    //@ obligation C09 C09.recursive_set_flags_p2_entry_4kib.shape_p4_absent.only_dictated_slots_change tier=thorough bounded="pool of 7 tables (4 path + 3 allocatable); tree-shaped sparse pre-state (target path, one neighbour word per path table, garbage in allocatable frames); recursive index 300; page-table indices (256,0,510,511)"
-    //@ obligation C09 C09.recursive_set_flags_p2_entry_4kib.shape_p4_absent.no_frames_requested_or_zeroed tier=thorough bounded="pool of 7 tables (4 path + 3 allocatable); tree-shaped sparse pre-state (target path, one neighbour word per path table, garbage in allocatable frames); recursive index 300; page-table indices (256,0,510,511)"
-    //@ obligation C09 C09.recursive_set_flags_p2_entry_4kib.shape_p4_absent.no_dangling_table_pointer tier=thorough bounded="pool of 7 tables (4 path + 3 allocatable); tree-shaped sparse pre-state (target path, one neighbour word per path table, garbage in allocatable frames); recursive index 300; page-table indices (256,0,510,511)"
-    //@ obligation C09 C09.recursive_set_flags_p2_entry_4kib.shape_p4_absent.no_access_outside_page_tables tier=thorough bounded="pool of 7 tables (4 path + 3 allocatable); tree-shaped sparse pre-state (target path, one neighbour word per path table, garbage in allocatable frames); recursive index 300; page-table indices (256,0,510,511)"
+    //@ obligation C02 C02.recursive_set_flags_p2_entry_4kib.shape_p4_absent.documented_outcome bounded="pool of 7 tables (4 path + 3 allocatable); tree-shaped sparse pre-state (target path, one neighbour word per path table, garbage in allocatable frames); recursive index 300; page-table indices (256,0,510,511)"
+    //@ obligation C02 C02.recursive_set_flags_p2_entry_4kib.shape_p4_absent.error_leaves_every_mapping bounded="pool of 7 tables (4 path + 3 allocatable); tree-shaped sparse pre-state (target path, one neighbour word per path table, garbage in allocatable frames); recursive index 300; page-table indices (256,0,510,511)"
+    //@ obligation C09 C09.recursive_set_flags_p2_entry_4kib.shape_p4_absent.only_dictated_slots_change bounded="pool of 7 tables (4 path + 3 allocatable); tree-shaped sparse pre-state (target path, one neighbour word per path table, garbage in allocatable frames); recursive index 300; page-table indices (256,0,510,511)"
+    //@ obligation C09 C09.recursive_set_flags_p2_entry_4kib.shape_p4_absent.no_frames_requested_or_zeroed bounded="pool of 7 tables (4 path + 3 allocatable); tree-shaped sparse pre-state (target path, one neighbour word per path table, garbage in allocatable frames); recursive index 300; page-table indices (256,0,510,511)"
+    //@ obligation C09 C09.recursive_set_flags_p2_entry_4kib.shape_p4_absent.no_dangling_table_pointer bounded="pool of 7 tables (4 path + 3 allocatable); tree-shaped sparse pre-state (target path, one neighbour word per path table, garbage in allocatable frames); recursive index 300; page-table indices (256,0,510,511)"
+    //@ obligation C09 C09.recursive_set_flags_p2_entry_4kib.shape_p4_absent.no_access_outside_page_tables bounded="pool of 7 tables (4 path + 3 allocatable); tree-shaped sparse pre-state (target path, one neighbour word per path table, garbage in allocatable frames); recursive index 300; page-table indices (256,0,510,511)"
     #[kani::proof]
     #[kani::stub(crate::structures::paging::page_table::PageTable::zero, zero_stub)]
     #[kani::stub(crate::addr::VirtAddr::as_mut_ptr, mmu_trap_as_mut_ptr)]
@@ -2329,13 +2329,13 @@ mod verif_c01_recursive_step_huge {
         kani::cover!(true, "c01_recursive_set_flags_p2_entry_4kib_p3_absent_mid: reachable");
     }
 
-    //@ obligation C02 C02.recursive_set_flags_p2_entry_4kib.shape_p3_absent.documented_outcome tier=thorough bounded="pool of 7 tables (4 path + 3 allocatable); tree-shaped sparse pre-state (target path, one neighbour word per path table, garbage in allocatable frames); recursive index 300; page-table indices (256,0,510,511)"
-    //@ obligation C02 C02.recursive_set_flags_p2_entry_4kib.shape_p3_absent.error_leaves_every_mapping tier=thorough bounded="pool of 7 tables (4 path + 3 allocatable); tree-shaped sparse pre-state (target path, one neighbour word per path table, garbage in allocatable frames); recursive index 300; page-table indices (256,0,510,511)"
-    //@ obligation C09 C09.recursive_set_flags_p2_entry_4kib.shape_p3_absent.only_dictated_slots_change tier=thorough bounded="pool of 7 tables (4 path + 3 allocatable); tree-shaped sparse pre-state (target path, one neighbour word per path table, garbage in allocatable frames); recursive index 300; page-table indices (256,0,510,511)"
-    //@ obligation C09 C09.recursive_set_flags_p2_entry_4kib.shape_p3_absent.no_frames_requested_or_zeroed tier=thorough bounded="pool of 7 tables (4 path + 3 allocatable); tree-shaped sparse pre-state (target path, one neighbour word per path table, garbage in allocatable frames); recursive index 300; page-table indices (256,0,510,511)"
-    //@ obligation C09 C09.recursive_set_flags_p2_entry_4kib.shape_p3_absent.no_dangling_table_pointer tier=thorough bounded="pool of 7 tables (4 path + 3 allocatable); tree-shaped sparse pre-state (target path, one neighbour word per path table, garbage in allocatable frames); recursive index 300; page-table indices (256,0,510,511)"
-    //@ obligation C09 C09.recursive_set_flags_p2_entry_4kib.shape_p3_absent.no_access_outside_page_tables tier=thorough bounded="pool of 7 tables (4 path + 3 allocatable); tree-shaped sparse pre-state (target path, one neighbour word per path table, garbage in allocatable frames); recursive index 300; page-table indices (256,0,510,511)"
-    //@ obligation C20 C20.recursive_set_flags_p2_entry_4kib.uses_recursive_addresses_of_the_page tier=thorough bounded="pool of 7 tables (4 path + 3 allocatable); tree-shaped sparse pre-state (target path, one neighbour word per path table, garbage in allocatable frames); recursive index 300; page-table indices (256,0,510,511)"
+    //@ obligation C02 C02.recursive_set_flags_p2_entry_4kib.shape_p3_absent.documented_outcome bounded="pool of 7 tables (4 path + 3 allocatable); tree-shaped sparse pre-state (target path, one neighbour word per path table, garbage in allocatable frames); recursive index 300; page-table indices (256,0,510,511)"
+    //@ obligation C02 C02.recursive_set_flags_p2_entry_4kib.shape_p3_absent.error_leaves_every_mapping bounded="pool of 7 tables (4 path + 3 allocatable); tree-shaped sparse pre-state (target path, one neighbour word per path table, garbage in allocatable frames); recursive index 300; page-table indices (256,0,510,511)"
+    //@ obligation C09 C09.recursive_set_flags_p2_entry_4kib.shape_p3_absent.only_dictated_slots_change bounded="pool of 7 tables (4 path + 3 allocatable); tree-shaped sparse pre-state (target path, one neighbour word per path table, garbage in allocatable frames); recursive index 300; page-table indices (256,0,510,511)"
+    //@ obligation C09 C09.recursive_set_flags_p2_entry_4kib.shape_p3_absent.no_frames_requested_or_zeroed bounded="pool of 7 tables (4 path + 3 allocatable); tree-shaped sparse pre-state (target path, one neighbour word per path table, garbage in allocatable frames); recursive index 300; page-table indices (256,0,510,511)"
+    //@ obligation C09 C09.recursive_set_flags_p2_entry_4kib.shape_p3_absent.no_dangling_table_pointer bounded="pool of 7 tables (4 path + 3 allocatable); tree-shaped sparse pre-state (target path, one neighbour word per path table, garbage in allocatable frames); recursive index 300; page-table indices (256,0,510,511)"
+    //@ obligation C09 C09.recursive_set_flags_p2_entry_4kib.shape_p3_absent.no_access_outside_page_tables bounded="pool of 7 tables (4 path + 3 allocatable); tree-shaped sparse pre-state (target path, one neighbour word per path table, garbage in allocatable frames); recursive index 300; page-table indices (256,0,510,511)"
+    //@ obligation C20 C20.recursive_set_flags_p2_entry_4kib.uses_recursive_addresses_of_the_page bounded="pool of 7 tables (4 path + 3 allocatable); tree-shaped sparse pre-state (target path, one neighbour word per path table, garbage in allocatable frames); recursive index 300; page-table indices (256,0,510,511)"
     #[kani::proof]
     #[kani::stub(crate::structures::paging::page_table::PageTable::zero, zero_stub)]
     #[kani::stub(crate::addr::VirtAddr::as_mut_ptr, mmu_trap_as_mut_ptr)]
@@ -2344,14 +2344,14 @@ mod verif_c01_recursive_step_huge {
         kani::cover!(true, "c01_recursive_set_flags_p2_entry_4kib_p3_absent_up: reachable");
     }
 
-    //@ obligation C02 C02.recursive_set_flags_p2_entry_4kib.shape_p3_huge.huge_parent_is_reported_not_walked tier=thorough bounded="pool of 7 tables (4 path + 3 allocatable); tree-shaped sparse pre-state (target path, one neighbour word per path table, garbage in allocatable frames); recursive index 300; page-table indices (255,511,0,256)"
-    //@ obligation C02 C02.recursive_set_flags_p2_entry_4kib.shape_p3_huge.documented_outcome tier=thorough bounded="pool of 7 tables (4 path + 3 allocatable); tree-shaped sparse pre-state (target path, one neighbour word per path table, garbage in allocatable frames); recursive index 300; page-table indices (255,511,0,256)"
-    //@ obligation C02 C02.recursive_set_flags_p2_entry_4kib.shape_p3_huge.error_leaves_every_mapping tier=thorough bounded="pool of 7 tables (4 path + 3 allocatable); tree-shaped sparse pre-state (target path, one neighbour word per path table, garbage in allocatable frames); recursive index 300; page-table indices (255,511,0,256)"
-    //@ obligation C09 C09.recursive_set_flags_p2_entry_4kib.shape_p3_huge.only_dictated_slots_change tier=thorough bounded="pool of 7 tables (4 path + 3 allocatable); tree-shaped sparse pre-state (target path, one neighbour word per path table, garbage in allocatable frames); recursive index 300; page-table indices (255,511,0,256)"
-    //@ obligation C09 C09.recursive_set_flags_p2_entry_4kib.shape_p3_huge.no_frames_requested_or_zeroed tier=thorough bounded="pool of 7 tables (4 path + 3 allocatable); tree-shaped sparse pre-state (target path, one neighbour word per path table, garbage in allocatable frames); recursive index 300; page-table indices (255,511,0,256)"
-    //@ obligation C09 C09.recursive_set_flags_p2_entry_4kib.shape_p3_huge.no_dangling_table_pointer tier=thorough bounded="pool of 7 tables (4 path + 3 allocatable); tree-shaped sparse pre-state (target path, one neighbour word per path table, garbage in allocatable frames); recursive index 300; page-table indices (255,511,0,256)"
-    //@ obligation C09 C09.recursive_set_flags_p2_entry_4kib.shape_p3_huge.no_access_outside_page_tables tier=thorough bounded="pool of 7 tables (4 path + 3 allocatable); tree-shaped sparse pre-state (target path, one neighbour word per path table, garbage in allocatable frames); recursive index 300; page-table indices (255,511,0,256)"
-    //@ obligation C20 C20.recursive_set_flags_p2_entry_4kib.uses_recursive_addresses_of_the_page tier=thorough bounded="pool of 7 tables (4 path + 3 allocatable); tree-shaped sparse pre-state (target path, one neighbour word per path table, garbage in allocatable frames); recursive index 300; page-table indices (255,511,0,256)"
+    //@ obligation C02 C02.recursive_set_flags_p2_entry_4kib.shape_p3_huge.huge_parent_is_reported_not_walked bounded="pool of 7 tables (4 path + 3 allocatable); tree-shaped sparse pre-state (target path, one neighbour word per path table, garbage in allocatable frames); recursive index 300; page-table indices (255,511,0,256)"
+    //@ obligation C02 C02.recursive_set_flags_p2_entry_4kib.shape_p3_huge.documented_outcome bounded="pool of 7 tables (4 path + 3 allocatable); tree-shaped sparse pre-state (target path, one neighbour word per path table, garbage in allocatable frames); recursive index 300; page-table indices (255,511,0,256)"
+    //@ obligation C02 C02.recursive_set_flags_p2_entry_4kib.shape_p3_huge.error_leaves_every_mapping bounded="pool of 7 tables (4 path + 3 allocatable); tree-shaped sparse pre-state (target path, one neighbour word per path table, garbage in allocatable frames); recursive index 300; page-table indices (255,511,0,256)"
+    //@ obligation C09 C09.recursive_set_flags_p2_entry_4kib.shape_p3_huge.only_dictated_slots_change bounded="pool of 7 tables (4 path + 3 allocatable); tree-shaped sparse pre-state (target path, one neighbour word per path table, garbage in allocatable frames); recursive index 300; page-table indices (255,511,0,256)"
+    //@ obligation C09 C09.recursive_set_flags_p2_entry_4kib.shape_p3_huge.no_frames_requested_or_zeroed bounded="pool of 7 tables (4 path + 3 allocatable); tree-shaped sparse pre-state (target path, one neighbour word per path table, garbage in allocatable frames); recursive index 300; page-table indices (255,511,0,256)"
+    //@ obligation C09 C09.recursive_set_flags_p2_entry_4kib.shape_p3_huge.no_dangling_table_pointer bounded="pool of 7 tables (4 path + 3 allocatable); tree-shaped sparse pre-state (target path, one neighbour word per path table, garbage in allocatable frames); recursive index 300; page-table indices (255,511,0,256)"
+    //@ obligation C09 C09.recursive_set_flags_p2_entry_4kib.shape_p3_huge.no_access_outside_page_tables bounded="pool of 7 tables (4 path + 3 allocatable); tree-shaped sparse pre-state (target path, one neighbour word per path table, garbage in allocatable frames); recursive index 300; page-table indices (255,511,0,256)"
+    //@ obligation C20 C20.recursive_set_flags_p2_entry_4kib.uses_recursive_addresses_of_the_page bounded="pool of 7 tables (4 path + 3 allocatable); tree-shaped sparse pre-state (target path, one neighbour word per path table, garbage in allocatable frames); recursive index 300; page-table indices (255,511,0,256)"
     #[kani::proof]
     #[kani::stub(crate::structures::paging::page_table::PageTable::zero, zero_stub)]
     #[kani::stub(crate::addr::VirtAddr::as_mut_ptr, mmu_trap_as_mut_ptr)]
@@ -2391,13 +2391,13 @@ mod verif_c01_recursive_step_huge {
         kani::cover!(true, "c01_recursive_set_flags_p2_entry_4kib_p2_absent_mid: reachable");
     }
 
-    //@ obligation C02 C02.recursive_set_flags_p2_entry_4kib.shape_p2_absent.documented_outcome tier=thorough bounded="pool of 7 tables (4 path + 3 allocatable); tree-shaped sparse pre-state (target path, one neighbour word per path table, garbage in allocatable frames); recursive index 300; page-table indices (256,0,510,511)"
-    //@ obligation C02 C02.recursive_set_flags_p2_entry_4kib.shape_p2_absent.error_leaves_every_mapping tier=thorough bounded="pool of 7 tables (4 path + 3 allocatable); tree-shaped sparse pre-state (target path, one neighbour word per path table, garbage in allocatable frames); recursive index 300; page-table indices (256,0,510,511)"
-    //@ obligation C09 C09.recursive_set_flags_p2_entry_4kib.shape_p2_absent.only_dictated_slots_change tier=thorough bounded="pool of 7 tables (4 path + 3 allocatable); tree-shaped sparse pre-state (target path, one neighbour word per path table, garbage in allocatable frames); recursive index 300; page-table indices (256,0,510,511)"
-    //@ obligation C09 C09.recursive_set_flags_p2_entry_4kib.shape_p2_absent.no_frames_requested_or_zeroed tier=thorough bounded="pool of 7 tables (4 path + 3 allocatable); tree-shaped sparse pre-state (target path, one neighbour word per path table, garbage in allocatable frames); recursive index 300; page-table indices (256,0,510,511)"
-    //@ obligation C09 C09.recursive_set_flags_p2_entry_4kib.shape_p2_absent.no_dangling_table_pointer tier=thorough bounded="pool of 7 tables (4 path + 3 allocatable); tree-shaped sparse pre-state (target path, one neighbour word per path table, garbage in allocatable frames); recursive index 300; page-table indices (256,0,510,511)"
-    //@ obligation C09 C09.recursive_set_flags_p2_entry_4kib.shape_p2_absent.no_access_outside_page_tables tier=thorough bounded="pool of 7 tables (4 path + 3 allocatable); tree-shaped sparse pre-state (target path, one neighbour word per path table, garbage in allocatable frames); recursive index 300; page-table indices (256,0,510,511)"
-    //@ obligation C20 C20.recursive_set_flags_p2_entry_4kib.uses_recursive_addresses_of_the_page tier=thorough bounded="pool of 7 tables (4 path + 3 allocatable); tree-shaped sparse pre-state (target path, one neighbour word per path table, garbage in allocatable frames); recursive index 300; page-table indices (256,0,510,511)"
+    //@ obligation C02 C02.recursive_set_flags_p2_entry_4kib.shape_p2_absent.documented_outcome bounded="pool of 7 tables (4 path + 3 allocatable); tree-shaped sparse pre-state (target path, one neighbour word per path table, garbage in allocatable frames); recursive index 300; page-table indices (256,0,510,511)"
+    //@ obligation C02 C02.recursive_set_flags_p2_entry_4kib.shape_p2_absent.error_leaves_every_mapping bounded="pool of 7 tables (4 path + 3 allocatable); tree-shaped sparse pre-state (target path, one neighbour word per path table, garbage in allocatable frames); recursive index 300; page-table indices (256,0,510,511)"
+    //@ obligation C09 C09.recursive_set_flags_p2_entry_4kib.shape_p2_absent.only_dictated_slots_change bounded="pool of 7 tables (4 path + 3 allocatable); tree-shaped sparse pre-state (target path, one neighbour word per path table, garbage in allocatable frames); recursive index 300; page-table indices (256,0,510,511)"
+    //@ obligation C09 C09.recursive_set_flags_p2_entry_4kib.shape_p2_absent.no_frames_requested_or_zeroed bounded="pool of 7 tables (4 path + 3 allocatable); tree-shaped sparse pre-state (target path, one neighbour word per path table, garbage in allocatable frames); recursive index 300; page-table indices (256,0,510,511)"
+    //@ obligation C09 C09.recursive_set_flags_p2_entry_4kib.shape_p2_absent.no_dangling_table_pointer bounded="pool of 7 tables (4 path + 3 allocatable); tree-shaped sparse pre-state (target path, one neighbour word per path table, garbage in allocatable frames); recursive index 300; page-table indices (256,0,510,511)"
+    //@ obligation C09 C09.recursive_set_flags_p2_entry_4kib.shape_p2_absent.no_access_outside_page_tables bounded="pool of 7 tables (4 path + 3 allocatable); tree-shaped sparse pre-state (target path, one neighbour word per path table, garbage in allocatable frames); recursive index 300; page-table indices (256,0,510,511)"
+    //@ obligation C20 C20.recursive_set_flags_p2_entry_4kib.uses_recursive_addresses_of_the_page bounded="pool of 7 tables (4 path + 3 allocatable); tree-shaped sparse pre-state (target path, one neighbour word per path table, garbage in allocatable frames); recursive index 300; page-table indices (256,0,510,511)"
     #[kani::proof]
     #[kani::stub(crate::structures::paging::page_table::PageTable::zero, zero_stub)]
     #[kani::stub(crate::addr::VirtAddr::as_mut_ptr, mmu_trap_as_mut_ptr)]
@@ -2406,15 +2406,15 @@ mod verif_c01_recursive_step_huge {
         kani::cover!(true, "c01_recursive_set_flags_p2_entry_4kib_p2_absent_up: reachable");
     }
 
-    //@ obligation C02 C02.recursive_set_flags_p2_entry_4kib.shape_p2_table.documented_outcome tier=thorough bounded="pool of 7 tables (4 path + 3 allocatable); tree-shaped sparse pre-state (target path, one neighbour word per path table, garbage in allocatable frames); recursive index 300; page-table indices (255,511,0,256)"
-    //@ obligation C01 C01.recursive_set_flags_p2_entry_4kib.shape_p2_table.no_leaf_changes tier=thorough bounded="pool of 7 tables (4 path + 3 allocatable); tree-shaped sparse pre-state (target path, one neighbour word per path table, garbage in allocatable frames); recursive index 300; page-table indices (255,511,0,256)"
-    //@ obligation C01 C01.recursive_set_flags_p2_entry_4kib.shape_p2_table.entry_flags_replaced_address_kept tier=thorough bounded="pool of 7 tables (4 path + 3 allocatable); tree-shaped sparse pre-state (target path, one neighbour word per path table, garbage in allocatable frames); recursive index 300; page-table indices (255,511,0,256)"
-    //@ obligation C11 C11.recursive_set_flags_p2_entry_4kib.shape_p2_table.flush_all_token tier=thorough bounded="pool of 7 tables (4 path + 3 allocatable); tree-shaped sparse pre-state (target path, one neighbour word per path table, garbage in allocatable frames); recursive index 300; page-table indices (255,511,0,256)"
-    //@ obligation C09 C09.recursive_set_flags_p2_entry_4kib.shape_p2_table.only_dictated_slots_change tier=thorough bounded="pool of 7 tables (4 path + 3 allocatable); tree-shaped sparse pre-state (target path, one neighbour word per path table, garbage in allocatable frames); recursive index 300; page-table indices (255,511,0,256)"
-    //@ obligation C09 C09.recursive_set_flags_p2_entry_4kib.shape_p2_table.no_frames_requested_or_zeroed tier=thorough bounded="pool of 7 tables (4 path + 3 allocatable); tree-shaped sparse pre-state (target path, one neighbour word per path table, garbage in allocatable frames); recursive index 300; page-table indices (255,511,0,256)"
-    //@ obligation C09 C09.recursive_set_flags_p2_entry_4kib.shape_p2_table.no_dangling_table_pointer tier=thorough bounded="pool of 7 tables (4 path + 3 allocatable); tree-shaped sparse pre-state (target path, one neighbour word per path table, garbage in allocatable frames); recursive index 300; page-table indices (255,511,0,256)"
-    //@ obligation C09 C09.recursive_set_flags_p2_entry_4kib.shape_p2_table.no_access_outside_page_tables tier=thorough bounded="pool of 7 tables (4 path + 3 allocatable); tree-shaped sparse pre-state (target path, one neighbour word per path table, garbage in allocatable frames); recursive index 300; page-table indices (255,511,0,256)"
-    //@ obligation C20 C20.recursive_set_flags_p2_entry_4kib.uses_recursive_addresses_of_the_page tier=thorough bounded="pool of 7 tables (4 path + 3 allocatable); tree-shaped sparse pre-state (target path, one neighbour word per path table, garbage in allocatable frames); recursive index 300; page-table indices (255,511,0,256)"
+    //@ obligation C02 C02.recursive_set_flags_p2_entry_4kib.shape_p2_table.documented_outcome bounded="pool of 7 tables (4 path + 3 allocatable); tree-shaped sparse pre-state (target path, one neighbour word per path table, garbage in allocatable frames); recursive index 300; page-table indices (255,511,0,256)"
+    //@ obligation C01 C01.recursive_set_flags_p2_entry_4kib.shape_p2_table.no_leaf_changes bounded="pool of 7 tables (4 path + 3 allocatable); tree-shaped sparse pre-state (target path, one neighbour word per path table, garbage in allocatable frames); recursive index 300; page-table indices (255,511,0,256)"
+    //@ obligation C01 C01.recursive_set_flags_p2_entry_4kib.shape_p2_table.entry_flags_replaced_address_kept bounded="pool of 7 tables (4 path + 3 allocatable); tree-shaped sparse pre-state (target path, one neighbour word per path table, garbage in allocatable frames); recursive index 300; page-table indices (255,511,0,256)"
+    //@ obligation C11 C11.recursive_set_flags_p2_entry_4kib.shape_p2_table.flush_all_token bounded="pool of 7 tables (4 path + 3 allocatable); tree-shaped sparse pre-state (target path, one neighbour word per path table, garbage in allocatable frames); recursive index 300; page-table indices (255,511,0,256)"
+    //@ obligation C09 C09.recursive_set_flags_p2_entry_4kib.shape_p2_table.only_dictated_slots_change bounded="pool of 7 tables (4 path + 3 allocatable); tree-shaped sparse pre-state (target path, one neighbour word per path table, garbage in allocatable frames); recursive index 300; page-table indices (255,511,0,256)"
+    //@ obligation C09 C09.recursive_set_flags_p2_entry_4kib.shape_p2_table.no_frames_requested_or_zeroed bounded="pool of 7 tables (4 path + 3 allocatable); tree-shaped sparse pre-state (target path, one neighbour word per path table, garbage in allocatable frames); recursive index 300; page-table indices (255,511,0,256)"
+    //@ obligation C09 C09.recursive_set_flags_p2_entry_4kib.shape_p2_table.no_dangling_table_pointer bounded="pool of 7 tables (4 path + 3 allocatable); tree-shaped sparse pre-state (target path, one neighbour word per path table, garbage in allocatable frames); recursive index 300; page-table indices (255,511,0,256)"
+    //@ obligation C09 C09.recursive_set_flags_p2_entry_4kib.shape_p2_table.no_access_outside_page_tables bounded="pool of 7 tables (4 path + 3 allocatable); tree-shaped sparse pre-state (target path, one neighbour word per path table, garbage in allocatable frames); recursive index 300; page-table indices (255,511,0,256)"
+    //@ obligation C20 C20.recursive_set_flags_p2_entry_4kib.uses_recursive_addresses_of_the_page bounded="pool of 7 tables (4 path + 3 allocatable); tree-shaped sparse pre-state (target path, one neighbour word per path table, garbage in allocatable frames); recursive index 300; page-table indices (255,511,0,256)"
     #[kani::proof]
     #[kani::stub(crate::structures::paging::page_table::PageTable::zero, zero_stub)]
     #[kani::stub(crate::addr::VirtAddr::as_mut_ptr, mmu_trap_as_mut_ptr)]
@@ -2440,13 +2440,13 @@ mod verif_c01_recursive_step_huge {
         kani::cover!(true, "c01_recursive_set_flags_p2_entry_4kib_p2_table_up: reachable");
     }
 
-    //@ obligation C02 C02.recursive_set_flags_p2_entry_4kib.shape_huge_leaf.reports_parent_entry_huge_page_and_unchanged tier=thorough bounded="pool of 7 tables (4 path + 3 allocatable); tree-shaped sparse pre-state (target path, one neighbour word per path table, garbage in allocatable frames); recursive index 300; page-table indices (255,511,0,256)"
-    //@ obligation C02 C02.recursive_set_flags_p2_entry_4kib.shape_huge_leaf.error_leaves_every_mapping tier=thorough bounded="pool of 7 tables (4 path + 3 allocatable); tree-shaped sparse pre-state (target path, one neighbour word per path table, garbage in allocatable frames); recursive index 300; page-table indices (255,511,0,256)"
-    //@ obligation C09 C09.recursive_set_flags_p2_entry_4kib.shape_huge_leaf.only_dictated_slots_change tier=thorough bounded="pool of 7 tables (4 path + 3 allocatable); tree-shaped sparse pre-state (target path, one neighbour word per path table, garbage in allocatable frames); recursive index 300; page-table indices (255,511,0,256)"
-    //@ obligation C09 C09.recursive_set_flags_p2_entry_4kib.shape_huge_leaf.no_frames_requested_or_zeroed tier=thorough bounded="pool of 7 tables (4 path + 3 allocatable); tree-shaped sparse pre-state (target path, one neighbour word per path table, garbage in allocatable frames); recursive index 300; page-table indices (255,511,0,256)"
-    //@ obligation C09 C09.recursive_set_flags_p2_entry_4kib.shape_huge_leaf.no_dangling_table_pointer tier=thorough bounded="pool of 7 tables (4 path + 3 allocatable); tree-shaped sparse pre-state (target path, one neighbour word per path table, garbage in allocatable frames); recursive index 300; page-table indices (255,511,0,256)"
-    //@ obligation C09 C09.recursive_set_flags_p2_entry_4kib.shape_huge_leaf.no_access_outside_page_tables tier=thorough bounded="pool of 7 tables (4 path + 3 allocatable); tree-shaped sparse pre-state (target path, one neighbour word per path table, garbage in allocatable frames); recursive index 300; page-table indices (255,511,0,256)"
-    //@ obligation C20 C20.recursive_set_flags_p2_entry_4kib.uses_recursive_addresses_of_the_page tier=thorough bounded="pool of 7 tables (4 path + 3 allocatable); tree-shaped sparse pre-state (target path, one neighbour word per path table, garbage in allocatable frames); recursive index 300; page-table indices (255,511,0,256)"
+    //@ obligation C02 C02.recursive_set_flags_p2_entry_4kib.shape_huge_leaf.reports_parent_entry_huge_page_and_unchanged bounded="pool of 7 tables (4 path + 3 allocatable); tree-shaped sparse pre-state (target path, one neighbour word per path table, garbage in allocatable frames); recursive index 300; page-table indices (255,511,0,256)"
+    //@ obligation C02 C02.recursive_set_flags_p2_entry_4kib.shape_huge_leaf.error_leaves_every_mapping bounded="pool of 7 tables (4 path + 3 allocatable); tree-shaped sparse pre-state (target path, one neighbour word per path table, garbage in allocatable frames); recursive index 300; page-table indices (255,511,0,256)"
+    //@ obligation C09 C09.recursive_set_flags_p2_entry_4kib.shape_huge_leaf.only_dictated_slots_change bounded="pool of 7 tables (4 path + 3 allocatable); tree-shaped sparse pre-state (target path, one neighbour word per path table, garbage in allocatable frames); recursive index 300; page-table indices (255,511,0,256)"
+    //@ obligation C09 C09.recursive_set_flags_p2_entry_4kib.shape_huge_leaf.no_frames_requested_or_zeroed bounded="pool of 7 tables (4 path + 3 allocatable); tree-shaped sparse pre-state (target path, one neighbour word per path table, garbage in allocatable frames); recursive index 300; page-table indices (255,511,0,256)"
+    //@ obligation C09 C09.recursive_set_flags_p2_entry_4kib.shape_huge_leaf.no_dangling_table_pointer bounded="pool of 7 tables (4 path + 3 allocatable); tree-shaped sparse pre-state (target path, one neighbour word per path table, garbage in allocatable frames); recursive index 300; page-table indices (255,511,0,256)"
+    //@ obligation C09 C09.recursive_set_flags_p2_entry_4kib.shape_huge_leaf.no_access_outside_page_tables bounded="pool of 7 tables (4 path + 3 allocatable); tree-shaped sparse pre-state (target path, one neighbour word per path table, garbage in allocatable frames); recursive index 300; page-table indices (255,511,0,256)"
+    //@ obligation C20 C20.recursive_set_flags_p2_entry_4kib.uses_recursive_addresses_of_the_page bounded="pool of 7 tables (4 path + 3 allocatable); tree-shaped sparse pre-state (target path, one neighbour word per path table, garbage in allocatable frames); recursive index 300; page-table indices (255,511,0,256)"
     #[kani::proof]
     #[kani::stub(crate::structures::paging::page_table::PageTable::zero, zero_stub)]
     #[kani::stub(crate::addr::VirtAddr::as_mut_ptr, mmu_trap_as_mut_ptr)]
@@ -2470,12 +2470,12 @@ mod verif_c01_recursive_step_huge {
         kani::cover!(true, "c01_recursive_set_flags_p2_entry_4kib_huge_leaf_up: reachable");
     }
 
-    //@ obligation C02 C02.recursive_set_flags_p4_entry_2mib.shape_p4_absent.documented_outcome tier=thorough bounded="pool of 7 tables (4 path + 3 allocatable); tree-shaped sparse pre-state (target path, one neighbour word per path table, garbage in allocatable frames); recursive index 300; page-table indices (255,511,0,256)"
-    //@ obligation C02 C02.recursive_set_flags_p4_entry_2mib.shape_p4_absent.error_leaves_every_mapping tier=thorough bounded="pool of 7 tables (4 path + 3 allocatable); tree-shaped sparse pre-state (target path, one neighbour word per path table, garbage in allocatable frames); recursive index 300; page-table indices (255,511,0,256)"
-    //@ obligation C09 C09.recursive_set_flags_p4_entry_2mib.shape_p4_absent.only_dictated_slots_change tier=thorough bounded="pool of 7 tables (4 path + 3 allocatable); tree-shaped sparse pre-state (target path, one neighbour word per path table, garbage in allocatable frames); recursive index 300; page-table indices (255,511,0,256)"
-    //@ obligation C09 C09.recursive_set_flags_p4_entry_2mib.shape_p4_absent.no_frames_requested_or_zeroed tier=thorough bounded="pool of 7 tables (4 path + 3 allocatable); tree-shaped sparse pre-state (target path, one neighbour word per path table, garbage in allocatable frames); recursive index 300; page-table indices (255,511,0,256)"
-    //@ obligation C09 C09.recursive_set_flags_p4_entry_2mib.shape_p4_absent.no_dangling_table_pointer tier=thorough bounded="pool of 7 tables (4 path + 3 allocatable); tree-shaped sparse pre-state (target path, one neighbour word per path table, garbage in allocatable frames); recursive index 300; page-table indices (255,511,0,256)"
-    //@ obligation C09 C09.recursive_set_flags_p4_entry_2mib.shape_p4_absent.no_access_outside_page_tables tier=thorough bounded="pool of 7 tables (4 path + 3 allocatable); tree-shaped sparse pre-state (target path, one neighbour word per path table, garbage in allocatable frames); recursive index 300; page-table indices (255,511,0,256)"
+    //@ obligation C02 C02.recursive_set_flags_p4_entry_2mib.shape_p4_absent.documented_outcome bounded="pool of 7 tables (4 path + 3 allocatable); tree-shaped sparse pre-state (target path, one neighbour word per path table, garbage in allocatable frames); recursive index 300; page-table indices (255,511,0,256)"
+    //@ obligation C02 C02.recursive_set_flags_p4_entry_2mib.shape_p4_absent.error_leaves_every_mapping bounded="pool of 7 tables (4 path + 3 allocatable); tree-shaped sparse pre-state (target path, one neighbour word per path table, garbage in allocatable frames); recursive index 300; page-table indices (255,511,0,256)"
+    //@ obligation C09 C09.recursive_set_flags_p4_entry_2mib.shape_p4_absent.only_dictated_slots_change bounded="pool of 7 tables (4 path + 3 allocatable); tree-shaped sparse pre-state (target path, one neighbour word per path table, garbage in allocatable frames); recursive index 300; page-table indices (255,511,0,256)"
+    //@ obligation C09 C09.recursive_set_flags_p4_entry_2mib.shape_p4_absent.no_frames_requested_or_zeroed bounded="pool of 7 tables (4 path + 3 allocatable); tree-shaped sparse pre-state (target path, one neighbour word per path table, garbage in allocatable frames); recursive index 300; page-table indices (255,511,0,256)"
+    //@ obligation C09 C09.recursive_set_flags_p4_entry_2mib.shape_p4_absent.no_dangling_table_pointer bounded="pool of 7 tables (4 path + 3 allocatable); tree-shaped sparse pre-state (target path, one neighbour word per path table, garbage in allocatable frames); recursive index 300; page-table indices (255,511,0,256)"
+    //@ obligation C09 C09.recursive_set_flags_p4_entry_2mib.shape_p4_absent.no_access_outside_page_tables bounded="pool of 7 tables (4 path + 3 allocatable); tree-shaped sparse pre-state (target path, one neighbour word per path table, garbage in allocatable frames); recursive index 300; page-table indices (255,511,0,256)"
     #[kani::proof]
     #[kani::stub(crate::structures::paging::page_table::PageTable::zero, zero_stub)]
     #[kani::stub(crate::addr::VirtAddr::as_mut_ptr, mmu_trap_as_mut_ptr)]
@@ -2498,14 +2498,14 @@ mod verif_c01_recursive_step_huge {
         kani::cover!(true, "c01_recursive_set_flags_p4_entry_2mib_p4_absent_up: reachable");
     }
 
-    //@ obligation C02 C02.recursive_set_flags_p4_entry_2mib.shape_p4_table.documented_outcome tier=thorough bounded="pool of 7 tables (4 path + 3 allocatable); tree-shaped sparse pre-state (target path, one neighbour word per path table, garbage in allocatable frames); recursive index 300; page-table indices (255,511,0,256)"
-    //@ obligation C01 C01.recursive_set_flags_p4_entry_2mib.shape_p4_table.no_leaf_changes tier=thorough bounded="pool of 7 tables (4 path + 3 allocatable); tree-shaped sparse pre-state (target path, one neighbour word per path table, garbage in allocatable frames); recursive index 300; page-table indices (255,511,0,256)"
-    //@ obligation C01 C01.recursive_set_flags_p4_entry_2mib.shape_p4_table.entry_flags_replaced_address_kept tier=thorough bounded="pool of 7 tables (4 path + 3 allocatable); tree-shaped sparse pre-state (target path, one neighbour word per path table, garbage in allocatable frames); recursive index 300; page-table indices (255,511,0,256)"
-    //@ obligation C11 C11.recursive_set_flags_p4_entry_2mib.shape_p4_table.flush_all_token tier=thorough bounded="pool of 7 tables (4 path + 3 allocatable); tree-shaped sparse pre-state (target path, one neighbour word per path table, garbage in allocatable frames); recursive index 300; page-table indices (255,511,0,256)"
-    //@ obligation C09 C09.recursive_set_flags_p4_entry_2mib.shape_p4_table.only_dictated_slots_change tier=thorough bounded="pool of 7 tables (4 path + 3 allocatable); tree-shaped sparse pre-state (target path, one neighbour word per path table, garbage in allocatable frames); recursive index 300; page-table indices (255,511,0,256)"
-    //@ obligation C09 C09.recursive_set_flags_p4_entry_2mib.shape_p4_table.no_frames_requested_or_zeroed tier=thorough bounded="pool of 7 tables (4 path + 3 allocatable); tree-shaped sparse pre-state (target path, one neighbour word per path table, garbage in allocatable frames); recursive index 300; page-table indices (255,511,0,256)"
-    //@ obligation C09 C09.recursive_set_flags_p4_entry_2mib.shape_p4_table.no_dangling_table_pointer tier=thorough bounded="pool of 7 tables (4 path + 3 allocatable); tree-shaped sparse pre-state (target path, one neighbour word per path table, garbage in allocatable frames); recursive index 300; page-table indices (255,511,0,256)"
-    //@ obligation C09 C09.recursive_set_flags_p4_entry_2mib.shape_p4_table.no_access_outside_page_tables tier=thorough bounded="pool of 7 tables (4 path + 3 allocatable); tree-shaped sparse pre-state (target path, one neighbour word per path table, garbage in allocatable frames); recursive index 300; page-table indices (255,511,0,256)"
+    //@ obligation C02 C02.recursive_set_flags_p4_entry_2mib.shape_p4_table.documented_outcome bounded="pool of 7 tables (4 path + 3 allocatable); tree-shaped sparse pre-state (target path, one neighbour word per path table, garbage in allocatable frames); recursive index 300; page-table indices (255,511,0,256)"
+    //@ obligation C01 C01.recursive_set_flags_p4_entry_2mib.shape_p4_table.no_leaf_changes bounded="pool of 7 tables (4 path + 3 allocatable); tree-shaped sparse pre-state (target path, one neighbour word per path table, garbage in allocatable frames); recursive index 300; page-table indices (255,511,0,256)"
+    //@ obligation C01 C01.recursive_set_flags_p4_entry_2mib.shape_p4_table.entry_flags_replaced_address_kept bounded="pool of 7 tables (4 path + 3 allocatable); tree-shaped sparse pre-state (target path, one neighbour word per path table, garbage in allocatable frames); recursive index 300; page-table indices (255,511,0,256)"
+    //@ obligation C11 C11.recursive_set_flags_p4_entry_2mib.shape_p4_table.flush_all_token bounded="pool of 7 tables (4 path + 3 allocatable); tree-shaped sparse pre-state (target path, one neighbour word per path table, garbage in allocatable frames); recursive index 300; page-table indices (255,511,0,256)"
+    //@ obligation C09 C09.recursive_set_flags_p4_entry_2mib.shape_p4_table.only_dictated_slots_change bounded="pool of 7 tables (4 path + 3 allocatable); tree-shaped sparse pre-state (target path, one neighbour word per path table, garbage in allocatable frames); recursive index 300; page-table indices (255,511,0,256)"
+    //@ obligation C09 C09.recursive_set_flags_p4_entry_2mib.shape_p4_table.no_frames_requested_or_zeroed bounded="pool of 7 tables (4 path + 3 allocatable); tree-shaped sparse pre-state (target path, one neighbour word per path table, garbage in allocatable frames); recursive index 300; page-table indices (255,511,0,256)"
+    //@ obligation C09 C09.recursive_set_flags_p4_entry_2mib.shape_p4_table.no_dangling_table_pointer bounded="pool of 7 tables (4 path + 3 allocatable); tree-shaped sparse pre-state (target path, one neighbour word per path table, garbage in allocatable frames); recursive index 300; page-table indices (255,511,0,256)"
+    //@ obligation C09 C09.recursive_set_flags_p4_entry_2mib.shape_p4_table.no_access_outside_page_tables bounded="pool of 7 tables (4 path + 3 allocatable); tree-shaped sparse pre-state (target path, one neighbour word per path table, garbage in allocatable frames); recursive index 300; page-table indices (255,511,0,256)"
     #[kani::proof]
     #[kani::stub(crate::structures::paging::page_table::PageTable::zero, zero_stub)]
     #[kani::stub(crate::addr::VirtAddr::as_mut_ptr, mmu_trap_as_mut_ptr)]
@@ -2530,12 +2530,12 @@ mod verif_c01_recursive_step_huge {
         kani::cover!(true, "c01_recursive_set_flags_p4_entry_2mib_p4_table_up: reachable");
     }
 
-    //@ obligation C02 C02.recursive_set_flags_p3_entry_2mib.shape_p4_absent.documented_outcome tier=thorough bounded="pool of 7 tables (4 path + 3 allocatable); tree-shaped sparse pre-state (target path, one neighbour word per path table, garbage in allocatable frames); recursive index 300; page-table indices (255,511,0,256)"
-    //@ obligation C02 C02.recursive_set_flags_p3_entry_2mib.shape_p4_absent.error_leaves_every_mapping tier=thorough bounded="pool of 7 tables (4 path + 3 allocatable); tree-shaped sparse pre-state (target path, one neighbour word per path table, garbage in allocatable frames); recursive index 300; page-table indices (255,511,0,256)"
-    //@ obligation C09 C09.recursive_set_flags_p3_entry_2mib.shape_p4_absent.only_dictated_slots_change tier=thorough bounded="pool of 7 tables (4 path + 3 allocatable); tree-shaped sparse pre-state (target path, one neighbour word per path table, garbage in allocatable frames); recursive index 300; page-table indices (255,511,0,256)"
-    //@ obligation C09 C09.recursive_set_flags_p3_entry_2mib.shape_p4_absent.no_frames_requested_or_zeroed tier=thorough bounded="pool of 7 tables (4 path + 3 allocatable); tree-shaped sparse pre-state (target path, one neighbour word per path table, garbage in allocatable frames); recursive index 300; page-table indices (255,511,0,256)"
-    //@ obligation C09 C09.recursive_set_flags_p3_entry_2mib.shape_p4_absent.no_dangling_table_pointer tier=thorough bounded="pool of 7 tables (4 path + 3 allocatable); tree-shaped sparse pre-state (target path, one neighbour word per path table, garbage in allocatable frames); recursive index 300; page-table indices (255,511,0,256)"
-    //@ obligation C09 C09.recursive_set_flags_p3_entry_2mib.shape_p4_absent.no_access_outside_page_tables tier=thorough bounded="pool of 7 tables (4 path + 3 allocatable); tree-shaped sparse pre-state (target path, one neighbour word per path table, garbage in allocatable frames); recursive index 300; page-table indices (255,511,0,256)"
+    //@ obligation C02 C02.recursive_set_flags_p3_entry_2mib.shape_p4_absent.documented_outcome bounded="pool of 7 tables (4 path + 3 allocatable); tree-shaped sparse pre-state (target path, one neighbour word per path table, garbage in allocatable frames); recursive index 300; page-table indices (255,511,0,256)"
+    //@ obligation C02 C02.recursive_set_flags_p3_entry_2mib.shape_p4_absent.error_leaves_every_mapping bounded="pool of 7 tables (4 path + 3 allocatable); tree-shaped sparse pre-state (target path, one neighbour word per path table, garbage in allocatable frames); recursive index 300; page-table indices (255,511,0,256)"
+    //@ obligation C09 C09.recursive_set_flags_p3_entry_2mib.shape_p4_absent.only_dictated_slots_change bounded="pool of 7 tables (4 path + 3 allocatable); tree-shaped sparse pre-state (target path, one neighbour word per path table, garbage in allocatable frames); recursive index 300; page-table indices (255,511,0,256)"
+    //@ obligation C09 C09.recursive_set_flags_p3_entry_2mib.shape_p4_absent.no_frames_requested_or_zeroed bounded="pool of 7 tables (4 path + 3 allocatable); tree-shaped sparse pre-state (target path, one neighbour word per path table, garbage in allocatable frames); recursive index 300; page-table indices (255,511,0,256)"
+    //@ obligation C09 C09.recursive_set_flags_p3_entry_2mib.shape_p4_absent.no_dangling_table_pointer bounded="pool of 7 tables (4 path + 3 allocatable); tree-shaped sparse pre-state (target path, one neighbour word per path table, garbage in allocatable frames); recursive index 300; page-table indices (255,511,0,256)"
+    //@ obligation C09 C09.recursive_set_flags_p3_entry_2mib.shape_p4_absent.no_access_outside_page_tables bounded="pool of 7 tables (4 path + 3 allocatable); tree-shaped sparse pre-state (target path, one neighbour word per path table, garbage in allocatable frames); recursive index 300; page-table indices (255,511,0,256)"
     #[kani::proof]
     #[kani::stub(crate::structures::paging::page_table::PageTable::zero, zero_stub)]
     #[kani::stub(crate::addr::VirtAddr::as_mut_ptr, mmu_trap_as_mut_ptr)]
@@ -2573,13 +2573,13 @@ mod verif_c01_recursive_step_huge {
         kani::cover!(true, "c01_recursive_set_flags_p3_entry_2mib_p3_absent_mid: reachable");
     }
 
-    //@ obligation C02 C02.recursive_set_flags_p3_entry_2mib.shape_p3_absent.documented_outcome tier=thorough bounded="pool of 7 tables (4 path + 3 allocatable); tree-shaped sparse pre-state (target path, one neighbour word per path table, garbage in allocatable frames); recursive index 300; page-table indices (256,0,510,511)"
-    //@ obligation C02 C02.recursive_set_flags_p3_entry_2mib.shape_p3_absent.error_leaves_every_mapping tier=thorough bounded="pool of 7 tables (4 path + 3 allocatable); tree-shaped sparse pre-state (target path, one neighbour word per path table, garbage in allocatable frames); recursive index 300; page-table indices (256,0,510,511)"
-    //@ obligation C09 C09.recursive_set_flags_p3_entry_2mib.shape_p3_absent.only_dictated_slots_change tier=thorough bounded="pool of 7 tables (4 path + 3 allocatable); tree-shaped sparse pre-state (target path, one neighbour word per path table, garbage in allocatable frames); recursive index 300; page-table indices (256,0,510,511)"
-    //@ obligation C09 C09.recursive_set_flags_p3_entry_2mib.shape_p3_absent.no_frames_requested_or_zeroed tier=thorough bounded="pool of 7 tables (4 path + 3 allocatable); tree-shaped sparse pre-state (target path, one neighbour word per path table, garbage in allocatable frames); recursive index 300; page-table indices (256,0,510,511)"
-    //@ obligation C09 C09.recursive_set_flags_p3_entry_2mib.shape_p3_absent.no_dangling_table_pointer tier=thorough bounded="pool of 7 tables (4 path + 3 allocatable); tree-shaped sparse pre-state (target path, one neighbour word per path table, garbage in allocatable frames); recursive index 300; page-table indices (256,0,510,511)"
-    //@ obligation C09 C09.recursive_set_flags_p3_entry_2mib.shape_p3_absent.no_access_outside_page_tables tier=thorough bounded="pool of 7 tables (4 path + 3 allocatable); tree-shaped sparse pre-state (target path, one neighbour word per path table, garbage in allocatable frames); recursive index 300; page-table indices (256,0,510,511)"
-    //@ obligation C20 C20.recursive_set_flags_p3_entry_2mib.uses_recursive_addresses_of_the_page tier=thorough bounded="pool of 7 tables (4 path + 3 allocatable); tree-shaped sparse pre-state (target path, one neighbour word per path table, garbage in allocatable frames); recursive index 300; page-table indices (256,0,510,511)"
+    //@ obligation C02 C02.recursive_set_flags_p3_entry_2mib.shape_p3_absent.documented_outcome bounded="pool of 7 tables (4 path + 3 allocatable); tree-shaped sparse pre-state (target path, one neighbour word per path table, garbage in allocatable frames); recursive index 300; page-table indices (256,0,510,511)"
+    //@ obligation C02 C02.recursive_set_flags_p3_entry_2mib.shape_p3_absent.error_leaves_every_mapping bounded="pool of 7 tables (4 path + 3 allocatable); tree-shaped sparse pre-state (target path, one neighbour word per path table, garbage in allocatable frames); recursive index 300; page-table indices (256,0,510,511)"
+    //@ obligation C09 C09.recursive_set_flags_p3_entry_2mib.shape_p3_absent.only_dictated_slots_change bounded="pool of 7 tables (4 path + 3 allocatable); tree-shaped sparse pre-state (target path, one neighbour word per path table, garbage in allocatable frames); recursive index 300; page-table indices (256,0,510,511)"
+    //@ obligation C09 C09.recursive_set_flags_p3_entry_2mib.shape_p3_absent.no_frames_requested_or_zeroed bounded="pool of 7 tables (4 path + 3 allocatable); tree-shaped sparse pre-state (target path, one neighbour word per path table, garbage in allocatable frames); recursive index 300; page-table indices (256,0,510,511)"
+    //@ obligation C09 C09.recursive_set_flags_p3_entry_2mib.shape_p3_absent.no_dangling_table_pointer bounded="pool of 7 tables (4 path + 3 allocatable); tree-shaped sparse pre-state (target path, one neighbour word per path table, garbage in allocatable frames); recursive index 300; page-table indices (256,0,510,511)"
+    //@ obligation C09 C09.recursive_set_flags_p3_entry_2mib.shape_p3_absent.no_access_outside_page_tables bounded="pool of 7 tables (4 path + 3 allocatable); tree-shaped sparse pre-state (target path, one neighbour word per path table, garbage in allocatable frames); recursive index 300; page-table indices (256,0,510,511)"
+    //@ obligation C20 C20.recursive_set_flags_p3_entry_2mib.uses_recursive_addresses_of_the_page bounded="pool of 7 tables (4 path + 3 allocatable); tree-shaped sparse pre-state (target path, one neighbour word per path table, garbage in allocatable frames); recursive index 300; page-table indices (256,0,510,511)"
     #[kani::proof]
     #[kani::stub(crate::structures::paging::page_table::PageTable::zero, zero_stub)]
     #[kani::stub(crate::addr::VirtAddr::as_mut_ptr, mmu_trap_as_mut_ptr)]
@@ -2622,13 +2622,13 @@ mod verif_c01_recursive_step_huge {
         kani::cover!(true, "c01_recursive_set_flags_p3_entry_2mib_p3_table_up: reachable");
     }
 
-    //@ obligation C02 C02.recursive_set_flags_p3_entry_2mib.shape_huge_leaf.reports_parent_entry_huge_page_and_unchanged tier=thorough bounded="pool of 7 tables (4 path + 3 allocatable); tree-shaped sparse pre-state (target path, one neighbour word per path table, garbage in allocatable frames); recursive index 300; page-table indices (255,511,0,256)"
-    //@ obligation C02 C02.recursive_set_flags_p3_entry_2mib.shape_huge_leaf.error_leaves_every_mapping tier=thorough bounded="pool of 7 tables (4 path + 3 allocatable); tree-shaped sparse pre-state (target path, one neighbour word per path table, garbage in allocatable frames); recursive index 300; page-table indices (255,511,0,256)"
-    //@ obligation C09 C09.recursive_set_flags_p3_entry_2mib.shape_huge_leaf.only_dictated_slots_change tier=thorough bounded="pool of 7 tables (4 path + 3 allocatable); tree-shaped sparse pre-state (target path, one neighbour word per path table, garbage in allocatable frames); recursive index 300; page-table indices (255,511,0,256)"
-    //@ obligation C09 C09.recursive_set_flags_p3_entry_2mib.shape_huge_leaf.no_frames_requested_or_zeroed tier=thorough bounded="pool of 7 tables (4 path + 3 allocatable); tree-shaped sparse pre-state (target path, one neighbour word per path table, garbage in allocatable frames); recursive index 300; page-table indices (255,511,0,256)"
-    //@ obligation C09 C09.recursive_set_flags_p3_entry_2mib.shape_huge_leaf.no_dangling_table_pointer tier=thorough bounded="pool of 7 tables (4 path + 3 allocatable); tree-shaped sparse pre-state (target path, one neighbour word per path table, garbage in allocatable frames); recursive index 300; page-table indices (255,511,0,256)"
-    //@ obligation C09 C09.recursive_set_flags_p3_entry_2mib.shape_huge_leaf.no_access_outside_page_tables tier=thorough bounded="pool of 7 tables (4 path + 3 allocatable); tree-shaped sparse pre-state (target path, one neighbour word per path table, garbage in allocatable frames); recursive index 300; page-table indices (255,511,0,256)"
-    //@ obligation C20 C20.recursive_set_flags_p3_entry_2mib.uses_recursive_addresses_of_the_page tier=thorough bounded="pool of 7 tables (4 path + 3 allocatable); tree-shaped sparse pre-state (target path, one neighbour word per path table, garbage in allocatable frames); recursive index 300; page-table indices (255,511,0,256)"
+    //@ obligation C02 C02.recursive_set_flags_p3_entry_2mib.shape_huge_leaf.reports_parent_entry_huge_page_and_unchanged bounded="pool of 7 tables (4 path + 3 allocatable); tree-shaped sparse pre-state (target path, one neighbour word per path table, garbage in allocatable frames); recursive index 300; page-table indices (255,511,0,256)"
+    //@ obligation C02 C02.recursive_set_flags_p3_entry_2mib.shape_huge_leaf.error_leaves_every_mapping bounded="pool of 7 tables (4 path + 3 allocatable); tree-shaped sparse pre-state (target path, one neighbour word per path table, garbage in allocatable frames); recursive index 300; page-table indices (255,511,0,256)"
+    //@ obligation C09 C09.recursive_set_flags_p3_entry_2mib.shape_huge_leaf.only_dictated_slots_change bounded="pool of 7 tables (4 path + 3 allocatable); tree-shaped sparse pre-state (target path, one neighbour word per path table, garbage in allocatable frames); recursive index 300; page-table indices (255,511,0,256)"
+    //@ obligation C09 C09.recursive_set_flags_p3_entry_2mib.shape_huge_leaf.no_frames_requested_or_zeroed bounded="pool of 7 tables (4 path + 3 allocatable); tree-shaped sparse pre-state (target path, one neighbour word per path table, garbage in allocatable frames); recursive index 300; page-table indices (255,511,0,256)"
+    //@ obligation C09 C09.recursive_set_flags_p3_entry_2mib.shape_huge_leaf.no_dangling_table_pointer bounded="pool of 7 tables (4 path + 3 allocatable); tree-shaped sparse pre-state (target path, one neighbour word per path table, garbage in allocatable frames); recursive index 300; page-table indices (255,511,0,256)"
+    //@ obligation C09 C09.recursive_set_flags_p3_entry_2mib.shape_huge_leaf.no_access_outside_page_tables bounded="pool of 7 tables (4 path + 3 allocatable); tree-shaped sparse pre-state (target path, one neighbour word per path table, garbage in allocatable frames); recursive index 300; page-table indices (255,511,0,256)"
+    //@ obligation C20 C20.recursive_set_flags_p3_entry_2mib.uses_recursive_addresses_of_the_page bounded="pool of 7 tables (4 path + 3 allocatable); tree-shaped sparse pre-state (target path, one neighbour word per path table, garbage in allocatable frames); recursive index 300; page-table indices (255,511,0,256)"
     #[kani::proof]
     #[kani::stub(crate::structures::paging::page_table::PageTable::zero, zero_stub)]
     #[kani::stub(crate::addr::VirtAddr::as_mut_ptr, mmu_trap_as_mut_ptr)]
@@ -2666,12 +2666,12 @@ mod verif_c01_recursive_step_huge {
         kani::cover!(true, "c01_recursive_set_flags_p2_entry_2mib_any_mid: reachable");
     }
 
-    //@ obligation C02 C02.recursive_set_flags_p2_entry_2mib.shape_any.level_above_leaf_does_not_exist_is_error tier=thorough bounded="pool of 7 tables (4 path + 3 allocatable); tree-shaped sparse pre-state (target path, one neighbour word per path table, garbage in allocatable frames); recursive index 300; page-table indices (256,0,510,511)"
-    //@ obligation C02 C02.recursive_set_flags_p2_entry_2mib.shape_any.error_leaves_every_mapping tier=thorough bounded="pool of 7 tables (4 path + 3 allocatable); tree-shaped sparse pre-state (target path, one neighbour word per path table, garbage in allocatable frames); recursive index 300; page-table indices (256,0,510,511)"
-    //@ obligation C09 C09.recursive_set_flags_p2_entry_2mib.shape_any.only_dictated_slots_change tier=thorough bounded="pool of 7 tables (4 path + 3 allocatable); tree-shaped sparse pre-state (target path, one neighbour word per path table, garbage in allocatable frames); recursive index 300; page-table indices (256,0,510,511)"
-    //@ obligation C09 C09.recursive_set_flags_p2_entry_2mib.shape_any.no_frames_requested_or_zeroed tier=thorough bounded="pool of 7 tables (4 path + 3 allocatable); tree-shaped sparse pre-state (target path, one neighbour word per path table, garbage in allocatable frames); recursive index 300; page-table indices (256,0,510,511)"
-    //@ obligation C09 C09.recursive_set_flags_p2_entry_2mib.shape_any.no_dangling_table_pointer tier=thorough bounded="pool of 7 tables (4 path + 3 allocatable); tree-shaped sparse pre-state (target path, one neighbour word per path table, garbage in allocatable frames); recursive index 300; page-table indices (256,0,510,511)"
-    //@ obligation C09 C09.recursive_set_flags_p2_entry_2mib.shape_any.no_access_outside_page_tables tier=thorough bounded="pool of 7 tables (4 path + 3 allocatable); tree-shaped sparse pre-state (target path, one neighbour word per path table, garbage in allocatable frames); recursive index 300; page-table indices (256,0,510,511)"
+    //@ obligation C02 C02.recursive_set_flags_p2_entry_2mib.shape_any.level_above_leaf_does_not_exist_is_error bounded="pool of 7 tables (4 path + 3 allocatable); tree-shaped sparse pre-state (target path, one neighbour word per path table, garbage in allocatable frames); recursive index 300; page-table indices (256,0,510,511)"
+    //@ obligation C02 C02.recursive_set_flags_p2_entry_2mib.shape_any.error_leaves_every_mapping bounded="pool of 7 tables (4 path + 3 allocatable); tree-shaped sparse pre-state (target path, one neighbour word per path table, garbage in allocatable frames); recursive index 300; page-table indices (256,0,510,511)"
+    //@ obligation C09 C09.recursive_set_flags_p2_entry_2mib.shape_any.only_dictated_slots_change bounded="pool of 7 tables (4 path + 3 allocatable); tree-shaped sparse pre-state (target path, one neighbour word per path table, garbage in allocatable frames); recursive index 300; page-table indices (256,0,510,511)"
+    //@ obligation C09 C09.recursive_set_flags_p2_entry_2mib.shape_any.no_frames_requested_or_zeroed bounded="pool of 7 tables (4 path + 3 allocatable); tree-shaped sparse pre-state (target path, one neighbour word per path table, garbage in allocatable frames); recursive index 300; page-table indices (256,0,510,511)"
+    //@ obligation C09 C09.recursive_set_flags_p2_entry_2mib.shape_any.no_dangling_table_pointer bounded="pool of 7 tables (4 path + 3 allocatable); tree-shaped sparse pre-state (target path, one neighbour word per path table, garbage in allocatable frames); recursive index 300; page-table indices (256,0,510,511)"
+    //@ obligation C09 C09.recursive_set_flags_p2_entry_2mib.shape_any.no_access_outside_page_tables bounded="pool of 7 tables (4 path + 3 allocatable); tree-shaped sparse pre-state (target path, one neighbour word per path table, garbage in allocatable frames); recursive index 300; page-table indices (256,0,510,511)"
     #[kani::proof]
     #[kani::stub(crate::structures::paging::page_table::PageTable::zero, zero_stub)]
     #[kani::stub(crate::addr::VirtAddr::as_mut_ptr, mmu_trap_as_mut_ptr)]
@@ -2680,12 +2680,12 @@ mod verif_c01_recursive_step_huge {
         kani::cover!(true, "c01_recursive_set_flags_p2_entry_2mib_any_up: reachable");
     }
 
-    //@ obligation C02 C02.recursive_set_flags_p4_entry_1gib.shape_p4_absent.documented_outcome tier=thorough bounded="pool of 7 tables (4 path + 3 allocatable); tree-shaped sparse pre-state (target path, one neighbour word per path table, garbage in allocatable frames); recursive index 300; page-table indices (255,511,0,256)"
-    //@ obligation C02 C02.recursive_set_flags_p4_entry_1gib.shape_p4_absent.error_leaves_every_mapping tier=thorough bounded="pool of 7 tables (4 path + 3 allocatable); tree-shaped sparse pre-state (target path, one neighbour word per path table, garbage in allocatable frames); recursive index 300; page-table indices (255,511,0,256)"
-    //@ obligation C09 C09.recursive_set_flags_p4_entry_1gib.shape_p4_absent.only_dictated_slots_change tier=thorough bounded="pool of 7 tables (4 path + 3 allocatable); tree-shaped sparse pre-state (target path, one neighbour word per path table, garbage in allocatable frames); recursive index 300; page-table indices (255,511,0,256)"
-    //@ obligation C09 C09.recursive_set_flags_p4_entry_1gib.shape_p4_absent.no_frames_requested_or_zeroed tier=thorough bounded="pool of 7 tables (4 path + 3 allocatable); tree-shaped sparse pre-state (target path, one neighbour word per path table, garbage in allocatable frames); recursive index 300; page-table indices (255,511,0,256)"
-    //@ obligation C09 C09.recursive_set_flags_p4_entry_1gib.shape_p4_absent.no_dangling_table_pointer tier=thorough bounded="pool of 7 tables (4 path + 3 allocatable); tree-shaped sparse pre-state (target path, one neighbour word per path table, garbage in allocatable frames); recursive index 300; page-table indices (255,511,0,256)"
-    //@ obligation C09 C09.recursive_set_flags_p4_entry_1gib.shape_p4_absent.no_access_outside_page_tables tier=thorough bounded="pool of 7 tables (4 path + 3 allocatable); tree-shaped sparse pre-state (target path, one neighbour word per path table, garbage in allocatable frames); recursive index 300; page-table indices (255,511,0,256)"
+    //@ obligation C02 C02.recursive_set_flags_p4_entry_1gib.shape_p4_absent.documented_outcome bounded="pool of 7 tables (4 path + 3 allocatable); tree-shaped sparse pre-state (target path, one neighbour word per path table, garbage in allocatable frames); recursive index 300; page-table indices (255,511,0,256)"
+    //@ obligation C02 C02.recursive_set_flags_p4_entry_1gib.shape_p4_absent.error_leaves_every_mapping bounded="pool of 7 tables (4 path + 3 allocatable); tree-shaped sparse pre-state (target path, one neighbour word per path table, garbage in allocatable frames); recursive index 300; page-table indices (255,511,0,256)"
+    //@ obligation C09 C09.recursive_set_flags_p4_entry_1gib.shape_p4_absent.only_dictated_slots_change bounded="pool of 7 tables (4 path + 3 allocatable); tree-shaped sparse pre-state (target path, one neighbour word per path table, garbage in allocatable frames); recursive index 300; page-table indices (255,511,0,256)"
+    //@ obligation C09 C09.recursive_set_flags_p4_entry_1gib.shape_p4_absent.no_frames_requested_or_zeroed bounded="pool of 7 tables (4 path + 3 allocatable); tree-shaped sparse pre-state (target path, one neighbour word per path table, garbage in allocatable frames); recursive index 300; page-table indices (255,511,0,256)"
+    //@ obligation C09 C09.recursive_set_flags_p4_entry_1gib.shape_p4_absent.no_dangling_table_pointer bounded="pool of 7 tables (4 path + 3 allocatable); tree-shaped sparse pre-state (target path, one neighbour word per path table, garbage in allocatable frames); recursive index 300; page-table indices (255,511,0,256)"
+    //@ obligation C09 C09.recursive_set_flags_p4_entry_1gib.shape_p4_absent.no_access_outside_page_tables bounded="pool of 7 tables (4 path + 3 allocatable); tree-shaped sparse pre-state (target path, one neighbour word per path table, garbage in allocatable frames); recursive index 300; page-table indices (255,511,0,256)"
     #[kani::proof]
     #[kani::stub(crate::structures::paging::page_table::PageTable::zero, zero_stub)]
     #[kani::stub(crate::addr::VirtAddr::as_mut_ptr, mmu_trap_as_mut_ptr)]
@@ -2708,14 +2708,14 @@ mod verif_c01_recursive_step_huge {
         kani::cover!(true, "c01_recursive_set_flags_p4_entry_1gib_p4_absent_up: reachable");
     }
 
-    //@ obligation C02 C02.recursive_set_flags_p4_entry_1gib.shape_p4_table.documented_outcome tier=thorough bounded="pool of 7 tables (4 path + 3 allocatable); tree-shaped sparse pre-state (target path, one neighbour word per path table, garbage in allocatable frames); recursive index 300; page-table indices (255,511,0,256)"
-    //@ obligation C01 C01.recursive_set_flags_p4_entry_1gib.shape_p4_table.no_leaf_changes tier=thorough bounded="pool of 7 tables (4 path + 3 allocatable); tree-shaped sparse pre-state (target path, one neighbour word per path table, garbage in allocatable frames); recursive index 300; page-table indices (255,511,0,256)"
-    //@ obligation C01 C01.recursive_set_flags_p4_entry_1gib.shape_p4_table.entry_flags_replaced_address_kept tier=thorough bounded="pool of 7 tables (4 path + 3 allocatable); tree-shaped sparse pre-state (target path, one neighbour word per path table, garbage in allocatable frames); recursive index 300; page-table indices (255,511,0,256)"
-    //@ obligation C11 C11.recursive_set_flags_p4_entry_1gib.shape_p4_table.flush_all_token tier=thorough bounded="pool of 7 tables (4 path + 3 allocatable); tree-shaped sparse pre-state (target path, one neighbour word per path table, garbage in allocatable frames); recursive index 300; page-table indices (255,511,0,256)"
-    //@ obligation C09 C09.recursive_set_flags_p4_entry_1gib.shape_p4_table.only_dictated_slots_change tier=thorough bounded="pool of 7 tables (4 path + 3 allocatable); tree-shaped sparse pre-state (target path, one neighbour word per path table, garbage in allocatable frames); recursive index 300; page-table indices (255,511,0,256)"
-    //@ obligation C09 C09.recursive_set_flags_p4_entry_1gib.shape_p4_table.no_frames_requested_or_zeroed tier=thorough bounded="pool of 7 tables (4 path + 3 allocatable); tree-shaped sparse pre-state (target path, one neighbour word per path table, garbage in allocatable frames); recursive index 300; page-table indices (255,511,0,256)"
-    //@ obligation C09 C09.recursive_set_flags_p4_entry_1gib.shape_p4_table.no_dangling_table_pointer tier=thorough bounded="pool of 7 tables (4 path + 3 allocatable); tree-shaped sparse pre-state (target path, one neighbour word per path table, garbage in allocatable frames); recursive index 300; page-table indices (255,511,0,256)"
-    //@ obligation C09 C09.recursive_set_flags_p4_entry_1gib.shape_p4_table.no_access_outside_page_tables tier=thorough bounded="pool of 7 tables (4 path + 3 allocatable); tree-shaped sparse pre-state (target path, one neighbour word per path table, garbage in allocatable frames); recursive index 300; page-table indices (255,511,0,256)"
+    //@ obligation C02 C02.recursive_set_flags_p4_entry_1gib.shape_p4_table.documented_outcome bounded="pool of 7 tables (4 path + 3 allocatable); tree-shaped sparse pre-state (target path, one neighbour word per path table, garbage in allocatable frames); recursive index 300; page-table indices (255,511,0,256)"
+    //@ obligation C01 C01.recursive_set_flags_p4_entry_1gib.shape_p4_table.no_leaf_changes bounded="pool of 7 tables (4 path + 3 allocatable); tree-shaped sparse pre-state (target path, one neighbour word per path table, garbage in allocatable frames); recursive index 300; page-table indices (255,511,0,256)"
+    //@ obligation C01 C01.recursive_set_flags_p4_entry_1gib.shape_p4_table.entry_flags_replaced_address_kept bounded="pool of 7 tables (4 path + 3 allocatable); tree-shaped sparse pre-state (target path, one neighbour word per path table, garbage in allocatable frames); recursive index 300; page-table indices (255,511,0,256)"
+    //@ obligation C11 C11.recursive_set_flags_p4_entry_1gib.shape_p4_table.flush_all_token bounded="pool of 7 tables (4 path + 3 allocatable); tree-shaped sparse pre-state (target path, one neighbour word per path table, garbage in allocatable frames); recursive index 300; page-table indices (255,511,0,256)"
+    //@ obligation C09 C09.recursive_set_flags_p4_entry_1gib.shape_p4_table.only_dictated_slots_change bounded="pool of 7 tables (4 path + 3 allocatable); tree-shaped sparse pre-state (target path, one neighbour word per path table, garbage in allocatable frames); recursive index 300; page-table indices (255,511,0,256)"
+    //@ obligation C09 C09.recursive_set_flags_p4_entry_1gib.shape_p4_table.no_frames_requested_or_zeroed bounded="pool of 7 tables (4 path + 3 allocatable); tree-shaped sparse pre-state (target path, one neighbour word per path table, garbage in allocatable frames); recursive index 300; page-table indices (255,511,0,256)"
+    //@ obligation C09 C09.recursive_set_flags_p4_entry_1gib.shape_p4_table.no_dangling_table_pointer bounded="pool of 7 tables (4 path + 3 allocatable); tree-shaped sparse pre-state (target path, one neighbour word per path table, garbage in allocatable frames); recursive index 300; page-table indices (255,511,0,256)"
+    //@ obligation C09 C09.recursive_set_flags_p4_entry_1gib.shape_p4_table.no_access_outside_page_tables bounded="pool of 7 tables (4 path + 3 allocatable); tree-shaped sparse pre-state (target path, one neighbour word per path table, garbage in allocatable frames); recursive index 300; page-table indices (255,511,0,256)"
     #[kani::proof]
     #[kani::stub(crate::structures::paging::page_table::PageTable::zero, zero_stub)]
     #[kani::stub(crate::addr::VirtAddr::as_mut_ptr, mmu_trap_as_mut_ptr)]
@@ -2740,12 +2740,12 @@ mod verif_c01_recursive_step_huge {
         kani::cover!(true, "c01_recursive_set_flags_p4_entry_1gib_p4_table_up: reachable");
     }
 
-    //@ obligation C02 C02.recursive_set_flags_p3_entry_1gib.shape_any.level_above_leaf_does_not_exist_is_error tier=thorough bounded="pool of 7 tables (4 path + 3 allocatable); tree-shaped sparse pre-state (target path, one neighbour word per path table, garbage in allocatable frames); recursive index 300; page-table indices (255,511,0,256)"
-    //@ obligation C02 C02.recursive_set_flags_p3_entry_1gib.shape_any.error_leaves_every_mapping tier=thorough bounded="pool of 7 tables (4 path + 3 allocatable); tree-shaped sparse pre-state (target path, one neighbour word per path table, garbage in allocatable frames); recursive index 300; page-table indices (255,511,0,256)"
-    //@ obligation C09 C09.recursive_set_flags_p3_entry_1gib.shape_any.only_dictated_slots_change tier=thorough bounded="pool of 7 tables (4 path + 3 allocatable); tree-shaped sparse pre-state (target path, one neighbour word per path table, garbage in allocatable frames); recursive index 300; page-table indices (255,511,0,256)"
-    //@ obligation C09 C09.recursive_set_flags_p3_entry_1gib.shape_any.no_frames_requested_or_zeroed tier=thorough bounded="pool of 7 tables (4 path + 3 allocatable); tree-shaped sparse pre-state (target path, one neighbour word per path table, garbage in allocatable frames); recursive index 300; page-table indices (255,511,0,256)"
-    //@ obligation C09 C09.recursive_set_flags_p3_entry_1gib.shape_any.no_dangling_table_pointer tier=thorough bounded="pool of 7 tables (4 path + 3 allocatable); tree-shaped sparse pre-state (target path, one neighbour word per path table, garbage in allocatable frames); recursive index 300; page-table indices (255,511,0,256)"
-    //@ obligation C09 C09.recursive_set_flags_p3_entry_1gib.shape_any.no_access_outside_page_tables tier=thorough bounded="pool of 7 tables (4 path + 3 allocatable); tree-shaped sparse pre-state (target path, one neighbour word per path table, garbage in allocatable frames); recursive index 300; page-table indices (255,511,0,256)"
+    //@ obligation C02 C02.recursive_set_flags_p3_entry_1gib.shape_any.level_above_leaf_does_not_exist_is_error bounded="pool of 7 tables (4 path + 3 allocatable); tree-shaped sparse pre-state (target path, one neighbour word per path table, garbage in allocatable frames); recursive index 300; page-table indices (255,511,0,256)"
+    //@ obligation C02 C02.recursive_set_flags_p3_entry_1gib.shape_any.error_leaves_every_mapping bounded="pool of 7 tables (4 path + 3 allocatable); tree-shaped sparse pre-state (target path, one neighbour word per path table, garbage in allocatable frames); recursive index 300; page-table indices (255,511,0,256)"
+    //@ obligation C09 C09.recursive_set_flags_p3_entry_1gib.shape_any.only_dictated_slots_change bounded="pool of 7 tables (4 path + 3 allocatable); tree-shaped sparse pre-state (target path, one neighbour word per path table, garbage in allocatable frames); recursive index 300; page-table indices (255,511,0,256)"
+    //@ obligation C09 C09.recursive_set_flags_p3_entry_1gib.shape_any.no_frames_requested_or_zeroed bounded="pool of 7 tables (4 path + 3 allocatable); tree-shaped sparse pre-state (target path, one neighbour word per path table, garbage in allocatable frames); recursive index 300; page-table indices (255,511,0,256)"
+    //@ obligation C09 C09.recursive_set_flags_p3_entry_1gib.shape_any.no_dangling_table_pointer bounded="pool of 7 tables (4 path + 3 allocatable); tree-shaped sparse pre-state (target path, one neighbour word per path table, garbage in allocatable frames); recursive index 300; page-table indices (255,511,0,256)"
+    //@ obligation C09 C09.recursive_set_flags_p3_entry_1gib.shape_any.no_access_outside_page_tables bounded="pool of 7 tables (4 path + 3 allocatable); tree-shaped sparse pre-state (target path, one neighbour word per path table, garbage in allocatable frames); recursive index 300; page-table indices (255,511,0,256)"
     #[kani::proof]
     #[kani::stub(crate::structures::paging::page_table::PageTable::zero, zero_stub)]
     #[kani::stub(crate::addr::VirtAddr::as_mut_ptr, mmu_trap_as_mut_ptr)]
@@ -2768,12 +2768,12 @@ mod verif_c01_recursive_step_huge {
         kani::cover!(true, "c01_recursive_set_flags_p3_entry_1gib_any_up: reachable");
     }
 
-    //@ obligation C02 C02.recursive_set_flags_p2_entry_1gib.shape_any.level_above_leaf_does_not_exist_is_error tier=thorough bounded="pool of 7 tables (4 path + 3 allocatable); tree-shaped sparse pre-state (target path, one neighbour word per path table, garbage in allocatable frames); recursive index 300; page-table indices (255,511,0,256)"
-    //@ obligation C02 C02.recursive_set_flags_p2_entry_1gib.shape_any.error_leaves_every_mapping tier=thorough bounded="pool of 7 tables (4 path + 3 allocatable); tree-shaped sparse pre-state (target path, one neighbour word per path table, garbage in allocatable frames); recursive index 300; page-table indices (255,511,0,256)"
-    //@ obligation C09 C09.recursive_set_flags_p2_entry_1gib.shape_any.only_dictated_slots_change tier=thorough bounded="pool of 7 tables (4 path + 3 allocatable); tree-shaped sparse pre-state (target path, one neighbour word per path table, garbage in allocatable frames); recursive index 300; page-table indices (255,511,0,256)"
-    //@ obligation C09 C09.recursive_set_flags_p2_entry_1gib.shape_any.no_frames_requested_or_zeroed tier=thorough bounded="pool of 7 tables (4 path + 3 allocatable); tree-shaped sparse pre-state (target path, one neighbour word per path table, garbage in allocatable frames); recursive index 300; page-table indices (255,511,0,256)"
-    //@ obligation C09 C09.recursive_set_flags_p2_entry_1gib.shape_any.no_dangling_table_pointer tier=thorough bounded="pool of 7 tables (4 path + 3 allocatable); tree-shaped sparse pre-state (target path, one neighbour word per path table, garbage in allocatable frames); recursive index 300; page-table indices (255,511,0,256)"
-    //@ obligation C09 C09.recursive_set_flags_p2_entry_1gib.shape_any.no_access_outside_page_tables tier=thorough bounded="pool of 7 tables (4 path + 3 allocatable); tree-shaped sparse pre-state (target path, one neighbour word per path table, garbage in allocatable frames); recursive index 300; page-table indices (255,511,0,256)"
+    //@ obligation C02 C02.recursive_set_flags_p2_entry_1gib.shape_any.level_above_leaf_does_not_exist_is_error bounded="pool of 7 tables (4 path + 3 allocatable); tree-shaped sparse pre-state (target path, one neighbour word per path table, garbage in allocatable frames); recursive index 300; page-table indices (255,511,0,256)"
+    //@ obligation C02 C02.recursive_set_flags_p2_entry_1gib.shape_any.error_leaves_every_mapping bounded="pool of 7 tables (4 path + 3 allocatable); tree-shaped sparse pre-state (target path, one neighbour word per path table, garbage in allocatable frames); recursive index 300; page-table indices (255,511,0,256)"
+    //@ obligation C09 C09.recursive_set_flags_p2_entry_1gib.shape_any.only_dictated_slots_change bounded="pool of 7 tables (4 path + 3 allocatable); tree-shaped sparse pre-state (target path, one neighbour word per path table, garbage in allocatable frames); recursive index 300; page-table indices (255,511,0,256)"
+    //@ obligation C09 C09.recursive_set_flags_p2_entry_1gib.shape_any.no_frames_requested_or_zeroed bounded="pool of 7 tables (4 path + 3 allocatable); tree-shaped sparse pre-state (target path, one neighbour word per path table, garbage in allocatable frames); recursive index 300; page-table indices (255,511,0,256)"
+    //@ obligation C09 C09.recursive_set_flags_p2_entry_1gib.shape_any.no_dangling_table_pointer bounded="pool of 7 tables (4 path + 3 allocatable); tree-shaped sparse pre-state (target path, one neighbour word per path table, garbage in allocatable frames); recursive index 300; page-table indices (255,511,0,256)"
+    //@ obligation C09 C09.recursive_set_flags_p2_entry_1gib.shape_any.no_access_outside_page_tables bounded="pool of 7 tables (4 path + 3 allocatable); tree-shaped sparse pre-state (target path, one neighbour word per path table, garbage in allocatable frames); recursive index 300; page-table indices (255,511,0,256)"
     #[kani::proof]
     #[kani::stub(crate::structures::paging::page_table::PageTable::zero, zero_stub)]
     #[kani::stub(crate::addr::VirtAddr::as_mut_ptr, mmu_trap_as_mut_ptr)]
